@@ -10,8 +10,8 @@ From NinjaV Require Import Base.Bytes Engine.PlanDefs.
 From Coq Require Import Permutation Arith.
 
 Ltac psimpl :=
-  cbn [p_want p_ready p_delayed p_use p_wanted p_commands p_oready p_tokens
-       set_want set_ready set_delayed set_use set_wanted set_commands set_oready set_tokens] in *.
+  cbn [p_want p_ready p_delayed p_use p_wanted p_commands p_oready p_tokens p_loaded
+       set_want set_ready set_delayed set_use set_wanted set_commands set_oready set_tokens set_loaded] in *.
 
 (* ------------------------------------------------------------------ list tools *)
 Lemma memb_In x l : memb x l = true <-> In x l.
@@ -152,7 +152,8 @@ Record retrieve_rel (g : graph) (q : nat) (p p' : plan) (mv : list nat) : Prop :
   rr_oready : p_oready p' = p_oready p;
   rr_wanted : p_wanted p' = p_wanted p;
   rr_commands : p_commands p' = p_commands p;
-  rr_tokens : p_tokens p' = p_tokens p }.
+  rr_tokens : p_tokens p' = p_tokens p;
+  rr_loaded : p_loaded p' = p_loaded p }.
 
 Lemma retrieve_n_spec g prio q : forall n p, NoDup (p_delayed p) ->
   exists mv, retrieve_rel g q p (retrieve_n n g prio q p) mv /\
@@ -187,7 +188,7 @@ Proof.
         assert (Hnd1 : NoDup (p_delayed p1)) by (subst p1; psimpl; apply rem_NoDup; exact Hnd).
         destruct (IH p1 Hnd1) as [mv [Hrel Hcomp]].
         exists (mv ++ [x]). split.
-        -- destruct Hrel as [R1 R2 R3 R4 R5 R6 R7 R8 R9 R10 R11]. subst p1. psimpl.
+        -- destruct Hrel as [R1 R2 R3 R4 R5 R6 R7 R8 R9 R10 R11 R12]. subst p1. psimpl.
            constructor; psimpl.
            ++ eapply perm_trans; [exact R1|]. rewrite <- app_assoc. cbn [app]. reflexivity.
            ++ eapply perm_trans; [apply (rem_perm x _ Hnd HxD)|]. rewrite <- app_assoc. cbn [app].
@@ -203,6 +204,7 @@ Proof.
            ++ exact R9.
            ++ exact R10.
            ++ exact R11.
+           ++ exact R12.
         -- intros Hl. apply Hcomp. subst p1. psimpl.
            pose proof (cnt_rem g q x (p_delayed p) Hnd HxD) as Hc. unfold cnt in Hc.
            rewrite Hxq, Nat.eqb_refl in Hc. rewrite Edq in Hc. cbn [length] in Hl, Hc. lia.
@@ -221,7 +223,7 @@ Qed.
 
 (* retrieve only reads/writes ready_, delayed_ and current_use_ *)
 Definition frame (p : plan) w n c o t : plan :=
-  mkPlan w (p_ready p) (p_delayed p) (p_use p) n c o t.
+  mkPlan w (p_ready p) (p_delayed p) (p_use p) n c o t (p_loaded p).
 
 Lemma retrieve_n_frame g prio q w n c o t : forall k p,
   retrieve_n k g prio q (frame p w n c o t) = frame (retrieve_n k g prio q p) w n c o t.
@@ -242,71 +244,139 @@ Proof. destruct p; reflexivity. Qed.
 
 (* ------------------------------------------------------------------ well-formed graphs *)
 Record wf_graph (g : graph) (rank : nat -> nat) : Prop := {
-  wg_ins_lt : forall e i, In i (ins g e) -> i < n_edges g;
-  wg_rank : forall e i, In i (ins g e) -> rank i < rank e;
-  wg_cons_ins : forall e d, In d (cons_of g e) -> In e (ins g d);
-  wg_ins_cons : forall e i, In i (ins g e) -> In e (cons_of g i) }.
+  wg_ins_lt : forall e i c, In (i, c) (ei_ins (einfo g e)) -> i < n_edges g;
+  wg_rank : forall e i c, In (i, c) (ei_ins (einfo g e)) -> rank i < rank e;
+  wg_cons_ins : forall e d c, In (d, c) (ei_cons (einfo g e)) -> In (e, c) (ei_ins (einfo g d));
+  wg_ins_cons : forall e i c, In (i, c) (ei_ins (einfo g e)) -> In (e, c) (ei_cons (einfo g i)) }.
 
 Lemma einfo_overflow g e : n_edges g <= e -> einfo g e = dummy_edge.
 Proof. intros H. unfold einfo. apply nth_overflow. exact H. Qed.
+
+Lemma memg_In x l : memg x l = true -> In x l.
+Proof.
+  unfold memg. rewrite existsb_exists. intros [y [Hy Heq]]. unfold gated_eqb in Heq.
+  apply andb_true_iff in Heq. destruct Heq as [H1 H2]. apply Nat.eqb_eq in H1.
+  destruct x as [x1 [x2|]], y as [y1 [y2|]]; cbn [fst snd] in *; try discriminate.
+  - apply Nat.eqb_eq in H2. subst. exact Hy.
+  - subst. exact Hy.
+Qed.
 
 Lemma wf_graph_b_sound g rank : wf_graph_b g rank = true -> wf_graph g rank.
 Proof.
   unfold wf_graph_b. rewrite forallb_forall. intros H.
   assert (Hin : forall e, e < n_edges g -> In e (all_edges g)).
   { intros e He. unfold all_edges. apply in_seq. lia. }
-  assert (Hov : forall e, ~ e < n_edges g -> ins g e = [] /\ cons_of g e = []).
-  { intros e He. unfold ins, cons_of. rewrite einfo_overflow by lia. split; reflexivity. }
+  assert (Hov : forall e, ~ e < n_edges g -> ei_ins (einfo g e) = [] /\ ei_cons (einfo g e) = []).
+  { intros e He. rewrite einfo_overflow by lia. split; reflexivity. }
   constructor.
-  - intros e i Hi. destruct (lt_dec e (n_edges g)) as [He|He].
+  - intros e i c Hi. destruct (lt_dec e (n_edges g)) as [He|He].
     + specialize (H e (Hin e He)). apply andb_true_iff in H. destruct H as [H _].
-      rewrite forallb_forall in H. specialize (H i Hi).
+      rewrite forallb_forall in H. specialize (H (i, c) Hi). cbn [fst snd] in H.
       apply andb_true_iff in H. destruct H as [H _]. apply andb_true_iff in H. destruct H as [H _].
       apply Nat.ltb_lt. exact H.
     + destruct (Hov e He) as [E _]. rewrite E in Hi. destruct Hi.
-  - intros e i Hi. destruct (lt_dec e (n_edges g)) as [He|He].
+  - intros e i c Hi. destruct (lt_dec e (n_edges g)) as [He|He].
     + specialize (H e (Hin e He)). apply andb_true_iff in H. destruct H as [H _].
-      rewrite forallb_forall in H. specialize (H i Hi).
+      rewrite forallb_forall in H. specialize (H (i, c) Hi). cbn [fst snd] in H.
       apply andb_true_iff in H. destruct H as [H _]. apply andb_true_iff in H. destruct H as [_ H].
       apply Nat.ltb_lt. exact H.
     + destruct (Hov e He) as [E _]. rewrite E in Hi. destruct Hi.
-  - intros e d Hd. destruct (lt_dec e (n_edges g)) as [He|He].
+  - intros e d c Hd. destruct (lt_dec e (n_edges g)) as [He|He].
     + specialize (H e (Hin e He)). apply andb_true_iff in H. destruct H as [_ H].
-      rewrite forallb_forall in H. specialize (H d Hd).
-      apply andb_true_iff in H. destruct H as [_ H]. apply memb_In. exact H.
+      rewrite forallb_forall in H. specialize (H (d, c) Hd). cbn [fst snd] in H.
+      apply andb_true_iff in H. destruct H as [_ H]. apply memg_In. exact H.
     + destruct (Hov e He) as [_ E]. rewrite E in Hd. destruct Hd.
-  - intros e i Hi. destruct (lt_dec e (n_edges g)) as [He|He].
+  - intros e i c Hi. destruct (lt_dec e (n_edges g)) as [He|He].
     + specialize (H e (Hin e He)). apply andb_true_iff in H. destruct H as [H _].
-      rewrite forallb_forall in H. specialize (H i Hi).
-      apply andb_true_iff in H. destruct H as [_ H]. apply memb_In. exact H.
+      rewrite forallb_forall in H. specialize (H (i, c) Hi). cbn [fst snd] in H.
+      apply andb_true_iff in H. destruct H as [_ H]. apply memg_In. exact H.
     + destruct (Hov e He) as [E _]. rewrite E in Hi. destruct Hi.
+Qed.
+
+(* the graph as it is in plan state p *)
+Lemma ins_at_In g p e i : In i (ins_at g p e) <->
+  exists c, In (i, c) (ei_ins (einfo g e)) /\ active p (i, c) = true.
+Proof.
+  unfold ins_at. rewrite in_map_iff. split.
+  - intros [[i' c] [E H]]. cbn [fst] in E. subst i'. apply filter_In in H. exists c. exact H.
+  - intros [c H]. exists (i, c). split; [reflexivity|]. apply filter_In. exact H.
+Qed.
+
+Lemma cons_at_In g p e d : In d (cons_at g p e) <->
+  exists c, In (d, c) (ei_cons (einfo g e)) /\ active p (d, c) = true.
+Proof.
+  unfold cons_at. rewrite in_map_iff. split.
+  - intros [[d' c] [E H]]. cbn [fst] in E. subst d'. apply filter_In in H. exists c. exact H.
+  - intros [c H]. exists (d, c). split; [reflexivity|]. apply filter_In. exact H.
+Qed.
+
+Lemma wg_ins_cons_at g rank p e i : wf_graph g rank -> In i (ins_at g p e) -> In e (cons_at g p i).
+Proof.
+  intros Hwf Hi. apply ins_at_In in Hi. destruct Hi as [c [H1 H2]]. apply cons_at_In.
+  exists c. split; [apply (wg_ins_cons g rank Hwf); exact H1|exact H2].
+Qed.
+
+Lemma wg_cons_ins_at g rank p e d : wf_graph g rank -> In d (cons_at g p e) -> In e (ins_at g p d).
+Proof.
+  intros Hwf Hd. apply cons_at_In in Hd. destruct Hd as [c [H1 H2]]. apply ins_at_In.
+  exists c. split; [apply (wg_cons_ins g rank Hwf); exact H1|exact H2].
+Qed.
+
+Lemma wg_rank_at g rank p e i : wf_graph g rank -> In i (ins_at g p e) -> rank i < rank e.
+Proof.
+  intros Hwf Hi. apply ins_at_In in Hi. destruct Hi as [c [H1 _]]. apply (wg_rank g rank Hwf e i c H1).
+Qed.
+
+Lemma wg_ins_lt_at g rank p e i : wf_graph g rank -> In i (ins_at g p e) -> i < n_edges g.
+Proof.
+  intros Hwf Hi. apply ins_at_In in Hi. destruct Hi as [c [H1 _]]. apply (wg_ins_lt g rank Hwf e i c H1).
+Qed.
+
+(* the graph only depends on the loaded flags *)
+Lemma ins_at_ext g p p' e : p_loaded p' = p_loaded p -> ins_at g p' e = ins_at g p e.
+Proof. intros H. unfold ins_at, active. rewrite H. reflexivity. Qed.
+Lemma cons_at_ext g p p' e : p_loaded p' = p_loaded p -> cons_at g p' e = cons_at g p e.
+Proof. intros H. unfold cons_at, active. rewrite H. reflexivity. Qed.
+
+(* loading only adds entries *)
+Lemma ins_at_mono g p p' e i : (forall b, p_loaded p b = true -> p_loaded p' b = true) ->
+  In i (ins_at g p e) -> In i (ins_at g p' e).
+Proof.
+  intros H Hi. apply ins_at_In in Hi. destruct Hi as [c [H1 H2]]. apply ins_at_In. exists c.
+  split; [exact H1|]. unfold active in *. cbn [snd] in *. destruct c as [b|]; [apply H; exact H2|reflexivity].
 Qed.
 
 (* ------------------------------------------------------------------ the plan invariant *)
 Definition sched (p : plan) (A F : list nat) : list nat := p_ready p ++ p_delayed p ++ A ++ F.
 
 Lemma air_mono g p p' e :
-  (forall x, p_oready p x = true -> p_oready p' x = true) ->
+  (forall x, p_oready p x = true -> p_oready p' x = true) -> p_loaded p' = p_loaded p ->
   all_inputs_ready g p e = true -> all_inputs_ready g p' e = true.
 Proof.
-  unfold all_inputs_ready. rewrite !forallb_forall. intros H H1 x Hx. apply H. apply H1. exact Hx.
+  unfold all_inputs_ready. intros H HL. rewrite (ins_at_ext g p p' e HL).
+  rewrite !forallb_forall. intros H1 x Hx. apply H. apply H1. exact Hx.
 Qed.
 
+Lemma air_ext g p p' e : p_oready p' = p_oready p -> p_loaded p' = p_loaded p ->
+  all_inputs_ready g p' e = all_inputs_ready g p e.
+Proof. intros H1 H2. unfold all_inputs_ready. rewrite (ins_at_ext g p p' e H2), H1. reflexivity. Qed.
+
 Lemma air_false g p e : all_inputs_ready g p e = false ->
-  exists i, In i (ins g e) /\ p_oready p i = false.
+  exists i, In i (ins_at g p e) /\ p_oready p i = false.
 Proof.
-  unfold all_inputs_ready. induction (ins g e) as [|i l IH]; cbn [forallb]; [discriminate|].
+  unfold all_inputs_ready. induction (ins_at g p e) as [|i l IH]; cbn [forallb]; [discriminate|].
   destruct (p_oready p i) eqn:E; cbn [andb].
   - intros H. destruct (IH H) as [j [Hj Ej]]. exists j. split; [right; exact Hj|exact Ej].
   - intros _. exists i. split; [left; reflexivity|exact E].
 Qed.
 
-Lemma air_in g p e i : all_inputs_ready g p e = true -> In i (ins g e) -> p_oready p i = true.
+Lemma air_in g p e i : all_inputs_ready g p e = true -> In i (ins_at g p e) -> p_oready p i = true.
 Proof. unfold all_inputs_ready. rewrite forallb_forall. intros H Hi. apply H. exact Hi. Qed.
 
 Section Inv.
 Variable g : graph.
 Variable cfg : config.
+Variable loads : nat -> option load.
 Variable rank : nat -> nat.
 Hypothesis Hwf : wf_graph g rank.
 
@@ -315,18 +385,24 @@ Hypothesis Hwf : wf_graph g rank.
    [X] = edges exempt from the "if all inputs are ready it is scheduled" clauses: the out-edges that
    NodeFinished is about to visit;  [Q] = pools for which the "delayed => pool full" clause is
    claimed (all pools, except in the middle of ScheduleInitialEdges / before RetrieveReadyEdges). *)
+(* clean dependents that a re-scan after a dyndep load has already marked outputs_ready while they
+   are still in want_ (as kWantNothing), waiting to be checked off by EdgeMaybeReady *)
+Definition Zp (p : plan) (i : nat) : Prop := p_oready p i = true /\ p_want p i = Some WNothing.
+Definition zprod (p : plan) (x : nat) : Prop := exists i, In i (ins_at g p x) /\ Zp p i.
+
 Record pinv (Q : nat -> Prop) (X A F : list nat) (p : plan) : Prop := {
   pi_nodup : NoDup (sched p A F);
   pi_sched : forall e, In e (sched p A F) ->
              is_wanted (p_want p) e = true /\ all_inputs_ready g p e = true;
   pi_tofinish : forall e, p_want p e = Some WToFinish -> In e (sched p A F);
   pi_tostart : forall e, p_want p e = Some WToStart -> all_inputs_ready g p e = true ->
-               In e (sched p A F) \/ In e X;
-  pi_nothing : forall e, p_want p e = Some WNothing -> all_inputs_ready g p e = true -> In e X;
+               In e (sched p A F) \/ In e X \/ zprod p e;
+  pi_nothing : forall e, p_want p e = Some WNothing -> all_inputs_ready g p e = true ->
+               In e X \/ zprod p e;
   pi_exempt : forall x, In x X -> In x (sched p A F) -> p_want p x = Some WToFinish;
-  pi_oready : forall e, p_oready p e = true -> p_want p e = None;
+  pi_oready : forall e, p_oready p e = true -> p_want p e = None \/ p_want p e = Some WNothing;
   pi_oready_closed : forall e, p_oready p e = true -> all_inputs_ready g p e = true;
-  pi_closed : forall e i, p_want p e <> None -> In i (ins g e) -> p_oready p i = false ->
+  pi_closed : forall e i, p_want p e <> None -> In i (ins_at g p e) -> p_oready p i = false ->
               p_want p i <> None;
   pi_range : forall e, p_want p e <> None -> e < n_edges g;
   pi_use : forall q, 0 < depth g q ->
@@ -338,32 +414,41 @@ Record pinv (Q : nat -> Prop) (X A F : list nat) (p : plan) : Prop := {
   pi_tokens : p_tokens p = match c_jobserver cfg with None => 0 | Some _ => length A end;
   pi_sched_f : forall e, In e (sched p A F) -> p_want p e = Some WToFinish }.
 
+(* zprod only depends on want_, outputs_ready_ and the loaded flags *)
+Lemma zprod_ext p p' x : p_want p' = p_want p -> p_oready p' = p_oready p -> p_loaded p' = p_loaded p ->
+  zprod p x -> zprod p' x.
+Proof.
+  intros H1 H2 H3 [i [Hi [Ho Hw]]]. exists i. split; [rewrite (ins_at_ext g p p' x H3); exact Hi|].
+  split; [rewrite H2; exact Ho|rewrite H1; exact Hw].
+Qed.
+
 Definition QT : nat -> Prop := fun _ => True.
 
 Lemma pinv_weaken (Q Q' : nat -> Prop) X X' A F p :
   (forall q, Q' q -> 0 < depth g q -> Q q) -> (forall x, In x X -> In x X') ->
-  (forall x, In x X' -> In x X \/ ~ In x (sched p A F) \/ p_want p x = Some WToFinish) ->
   pinv Q X A F p -> pinv Q' X' A F p.
 Proof.
-  intros HQ HX HX' [I1 I2 I3 I4 I5 I6 I7 I8 I9 I10 I11 I12 I13 I14 I15 I16].
+  intros HQ HX [I1 I2 I3 I4 I5 I6 I7 I8 I9 I10 I11 I12 I13 I14 I15 I16].
   constructor; try assumption.
-  - intros e H1 H2. destruct (I4 e H1 H2) as [H|H]; [left; exact H|right; apply HX; exact H].
-  - intros e H1 H2. apply HX. apply (I5 e H1 H2).
-  - intros x Hx Hs. destruct (HX' x Hx) as [H|[H|H]]; [apply I6; assumption|tauto|exact H].
+  - intros e H1 H2. destruct (I4 e H1 H2) as [H|[H|H]]; [left; exact H|right; left; apply HX; exact H|right; right; exact H].
+  - intros e H1 H2. destruct (I5 e H1 H2) as [H|H]; [left; apply HX; exact H|right; exact H].
+  - intros x Hx Hs. apply I16. exact Hs.
   - intros q Hq Hd. apply I12; [apply HQ; assumption|exact Hd].
 Qed.
 
 (* an exempt edge that does not need the exemption can be dropped from X *)
 Lemma pinv_drop (Q : nat -> Prop) d X A F p :
   pinv Q (d :: X) A F p ->
-  (p_want p d = Some WToStart -> all_inputs_ready g p d = true -> In d (sched p A F) \/ In d X) ->
-  (p_want p d = Some WNothing -> all_inputs_ready g p d = true -> In d X) ->
+  (p_want p d = Some WToStart -> all_inputs_ready g p d = true ->
+     In d (sched p A F) \/ In d X \/ zprod p d) ->
+  (p_want p d = Some WNothing -> all_inputs_ready g p d = true -> In d X \/ zprod p d) ->
   pinv Q X A F p.
 Proof.
   intros [I1 I2 I3 I4 I5 I6 I7 I8 I9 I10 I11 I12 I13 I14 I15 I16] H1 H2.
   constructor; try assumption.
-  - intros e He Ha. destruct (I4 e He Ha) as [H|[<-|H]]; [left; exact H|apply H1; assumption|right; exact H].
-  - intros e He Ha. destruct (I5 e He Ha) as [<-|H]; [apply H2; assumption|exact H].
+  - intros e He Ha. destruct (I4 e He Ha) as [H|[[<-|H]|H]];
+      [left; exact H|apply H1; assumption|right; left; exact H|right; right; exact H].
+  - intros e He Ha. destruct (I5 e He Ha) as [[<-|H]|H]; [apply H2; assumption|left; exact H|right; exact H].
   - intros x Hx Hs. apply I6; [right; exact Hx|exact Hs].
 Qed.
 
@@ -383,27 +468,31 @@ Proof.
   assert (HndD : NoDup (p_delayed p)).
   { unfold sched in I1. apply NoDup_app_iff in I1. destruct I1 as [_ [I1 _]].
     apply NoDup_app_iff in I1. tauto. }
-  destruct (retrieve_spec g prio q p HndD) as [mv [[R1 R2 R3 R4 R5 R6 R7 R8 R9 R10 R11] Hcomp]].
+  destruct (retrieve_spec g prio q p HndD) as [mv [[R1 R2 R3 R4 R5 R6 R7 R8 R9 R10 R11 R12] Hcomp]].
   set (p' := retrieve g prio q p) in *.
   assert (Hperm : Permutation (sched p' A F) (sched p A F)).
   { apply sched_perm. rewrite R1. rewrite <- app_assoc.
     rewrite (Permutation_app_comm mv). rewrite <- app_assoc. apply Permutation_app_head.
     rewrite Permutation_app_comm. symmetry. exact R2. }
   assert (Hair : forall e, all_inputs_ready g p' e = all_inputs_ready g p e).
-  { intros e. unfold all_inputs_ready. rewrite R8. reflexivity. }
+  { intros e. apply air_ext; assumption. }
+  assert (Hz : forall e, zprod p e -> zprod p' e) by (intros e; apply zprod_ext; assumption).
   assert (HinD : forall x, In x (p_delayed p') -> In x (p_delayed p)).
   { intros x Hx. apply (Permutation_in _ (Permutation_sym R2)). apply in_or_app. right. exact Hx. }
   constructor.
   - apply (Permutation_NoDup (Permutation_sym Hperm)). exact I1.
   - intros e He. rewrite R7, Hair. apply I2. apply (Permutation_in _ Hperm). exact He.
   - intros e He. rewrite R7 in He. apply (Permutation_in _ (Permutation_sym Hperm)). apply I3. exact He.
-  - intros e He Ha. rewrite R7 in He. rewrite Hair in Ha. destruct (I4 e He Ha) as [H|H]; [left|right; exact H].
+  - intros e He Ha. rewrite R7 in He. rewrite Hair in Ha.
+    destruct (I4 e He Ha) as [H|[H|H]]; [left|right; left; exact H|right; right; apply Hz; exact H].
     apply (Permutation_in _ (Permutation_sym Hperm)). exact H.
-  - intros e He Ha. rewrite R7 in He. rewrite Hair in Ha. apply I5; assumption.
+  - intros e He Ha. rewrite R7 in He. rewrite Hair in Ha.
+    destruct (I5 e He Ha) as [H|H]; [left; exact H|right; apply Hz; exact H].
   - intros x Hx Hs. rewrite R7. apply I6; [exact Hx|]. apply (Permutation_in _ Hperm). exact Hs.
   - intros e He. rewrite R7. rewrite R8 in He. apply I7. exact He.
   - intros e He. rewrite Hair. rewrite R8 in He. apply I8. exact He.
-  - intros e i He Hi Ho. rewrite R7 in *. rewrite R8 in Ho. eapply I9; eassumption.
+  - intros e i He Hi Ho. rewrite R7 in *. rewrite R8 in Ho. rewrite (ins_at_ext g p p' e R12) in Hi.
+    eapply I9; eassumption.
   - intros e He. rewrite R7 in He. apply I10. exact He.
   - intros r Hr. destruct (Nat.eq_dec r q) as [->|Hne].
     + destruct (I11 q Hr) as [Hu Hle]. rewrite R4. rewrite (cnt_perm g q _ _ R1), cnt_app.
@@ -446,6 +535,13 @@ Lemma retrieve_commands prio q p : p_commands (retrieve g prio q p) = p_commands
 Proof. rewrite retrieve_as_frame. reflexivity. Qed.
 Lemma retrieve_tokens prio q p : p_tokens (retrieve g prio q p) = p_tokens p.
 Proof. rewrite retrieve_as_frame. reflexivity. Qed.
+Lemma retrieve_loaded prio q p : p_loaded (retrieve g prio q p) = p_loaded p.
+Proof.
+  unfold retrieve. generalize (length (p_delayed p)). intros k. revert p.
+  induction k as [|k IH]; intros p; cbn [retrieve_n]; [reflexivity|].
+  destruct (delayed_of g q (p_delayed p)) as [|d0 dq]; [reflexivity|].
+  destruct (depth g q <? p_use p q + 1); [reflexivity|]. rewrite IH. reflexivity.
+Qed.
 
 Lemma is_wanted_upd_keep w d v :
   is_wanted w d = is_wanted (upd w d v) d ->
@@ -485,12 +581,12 @@ Lemma pinv_schedule_pure (Q : nat -> Prop) X A F p d (to_ready : bool) :
        (mkPlan (upd (p_want p) d (Some WToFinish))
                (if to_ready then d :: p_ready p else p_ready p)
                (if to_ready then p_delayed p else d :: p_delayed p)
-               (p_use p) (p_wanted p) (p_commands p) (p_oready p) (p_tokens p)).
+               (p_use p) (p_wanted p) (p_commands p) (p_oready p) (p_tokens p) (p_loaded p)).
 Proof.
   intros [I1 I2 I3 I4 I5 I6 I7 I8 I9 I10 I11 I12 I13 I14 I15 I16] Hw Ha Hdep.
   assert (Hns : ~ In d (sched p A F)).
   { intros Hin. rewrite (I6 d (or_introl eq_refl) Hin) in Hw. discriminate. }
-  set (p' := mkPlan _ _ _ _ _ _ _ _).
+  set (p' := mkPlan _ _ _ _ _ _ _ _ _).
   assert (Hperm : Permutation (sched p' A F) (d :: sched p A F)).
   { unfold sched, p'. psimpl. destruct to_ready; [reflexivity|].
     cbn [app]. symmetry. apply Permutation_middle. }
@@ -502,6 +598,9 @@ Proof.
   assert (Hwant : forall x, x <> d -> p_want p' x = p_want p x).
   { intros x Hx. unfold p'. psimpl. apply upd_other. exact Hx. }
   assert (Hwd : p_want p' d = Some WToFinish) by (unfold p'; psimpl; apply upd_same).
+  assert (Hz : forall e, zprod p e -> zprod p' e).
+  { intros e [i [Hi [Ho Hwi]]]. exists i. split; [exact Hi|]. split; [exact Ho|].
+    rewrite Hwant; [exact Hwi|]. intros ->. congruence. }
   constructor.
   - apply (Permutation_NoDup (Permutation_sym Hperm)). constructor; assumption.
   - intros e He. rewrite Hair. apply Hin' in He. destruct He as [->|He].
@@ -512,17 +611,18 @@ Proof.
   - intros e He. apply Hin'. destruct (Nat.eq_dec e d) as [->|Hne]; [left; reflexivity|].
     right. apply I3. rewrite <- Hwant by exact Hne. exact He.
   - intros e He Hae. destruct (Nat.eq_dec e d) as [->|Hne]; [rewrite Hwd in He; discriminate|].
-    rewrite Hwant in He by exact Hne. destruct (I4 e He Hae) as [H|[H|H]].
+    rewrite Hwant in He by exact Hne. destruct (I4 e He Hae) as [H|[[H|H]|H]].
     + left. apply Hin'. right. exact H.
     + congruence.
-    + right. exact H.
+    + right. left. exact H.
+    + right. right. apply Hz. exact H.
   - intros e He Hae. destruct (Nat.eq_dec e d) as [->|Hne]; [rewrite Hwd in He; discriminate|].
-    rewrite Hwant in He by exact Hne. destruct (I5 e He Hae) as [H|H]; [congruence|exact H].
+    rewrite Hwant in He by exact Hne. destruct (I5 e He Hae) as [[H|H]|H]; [congruence|left; exact H|right; apply Hz; exact H].
   - intros x Hx Hs. destruct (Nat.eq_dec x d) as [->|Hne]; [exact Hwd|].
     rewrite Hwant by exact Hne. apply I6; [right; exact Hx|].
     apply Hin' in Hs. destruct Hs as [Hs|Hs]; [congruence|exact Hs].
   - intros e He. destruct (Nat.eq_dec e d) as [->|Hne].
-    + change (p_oready p d = true) in He. rewrite (I7 d He) in Hw. discriminate.
+    + change (p_oready p d = true) in He. destruct (I7 d He) as [H|H]; rewrite H in Hw; discriminate.
     + rewrite Hwant by exact Hne. apply I7. exact He.
   - intros e He. apply I8. exact He.
   - intros e i He Hi Ho.
@@ -554,10 +654,10 @@ Lemma pinv_reshape (Q Q' : nat -> Prop) X A F A' F' R' u t p :
   (forall q, 0 < depth g q -> u q = cnt g q R' + cnt g q A' /\ u q <= depth g q) ->
   (forall q, Q' q -> 0 < depth g q -> delayed_of g q (p_delayed p) <> [] -> u q = depth g q) ->
   t = tok A' ->
-  pinv Q' X A' F' (mkPlan (p_want p) R' (p_delayed p) u (p_wanted p) (p_commands p) (p_oready p) t).
+  pinv Q' X A' F' (mkPlan (p_want p) R' (p_delayed p) u (p_wanted p) (p_commands p) (p_oready p) t (p_loaded p)).
 Proof.
   intros [I1 I2 I3 I4 I5 I6 I7 I8 I9 I10 I11 I12 I13 I14 I15 I16] Hperm Hu Hfull Ht.
-  set (p' := mkPlan _ _ _ _ _ _ _ _).
+  set (p' := mkPlan _ _ _ _ _ _ _ _ _).
   assert (Hperm' : Permutation (sched p' A' F') (sched p A F)) by exact Hperm.
   assert (Hair : forall e, all_inputs_ready g p' e = all_inputs_ready g p e) by reflexivity.
   constructor; try assumption.
@@ -580,14 +680,12 @@ Lemma pinv_done_pure (Q' : nat -> Prop) Xo X A A' F p e w u n t :
   (forall q, Q' q -> 0 < depth g q -> delayed_of g q (p_delayed p) <> [] -> u q = depth g q) ->
   n = count_if (is_wanted (upd (p_want p) e None)) (all_edges g) ->
   t = tok A' ->
-  pinv Q' (cons_of g e ++ X) A' F
+  pinv Q' (cons_at g p e ++ X) A' F
        (mkPlan (upd (p_want p) e None) (p_ready p) (p_delayed p) u n (p_commands p)
-               (upd (p_oready p) e true) t).
+               (upd (p_oready p) e true) t (p_loaded p)).
 Proof.
   intros [I1 I2 I3 I4 I5 I6 I7 I8 I9 I10 I11 I12 I13 I14 I15 I16] Hw Ha HX HX' Hnd Hin Hu Hfull Hn Ht.
-  set (p' := mkPlan _ _ _ _ _ _ _ _).
-  assert (Hoe : p_oready p e = false).
-  { destruct (p_oready p e) eqn:E; [|reflexivity]. rewrite (I7 e E) in Hw. discriminate. }
+  set (p' := mkPlan _ _ _ _ _ _ _ _ _).
   assert (Hwant : forall x, x <> e -> p_want p' x = p_want p x).
   { intros x Hx. unfold p'. psimpl. apply upd_other. exact Hx. }
   assert (Hwe : p_want p' e = None) by (unfold p'; psimpl; apply upd_same).
@@ -595,12 +693,16 @@ Proof.
   { intros x. unfold p'. psimpl. unfold upd. destruct (Nat.eqb_spec x e) as [->|Hne]; [tauto|].
     split; [tauto|]. intros [H|H]; [congruence|exact H]. }
   assert (Hmono : forall x, all_inputs_ready g p x = true -> all_inputs_ready g p' x = true).
-  { intros x. apply air_mono. intros y Hy. apply Hor. right. exact Hy. }
+  { intros x. apply air_mono; [|reflexivity]. intros y Hy. apply Hor. right. exact Hy. }
   assert (Hnew : forall x, all_inputs_ready g p' x = true -> all_inputs_ready g p x = false ->
-                           In x (cons_of g e)).
+                           In x (cons_at g p e)).
   { intros x H1 H2. destruct (air_false g p x H2) as [i [Hi Hio]].
     pose proof (air_in g p' x i H1 Hi) as H3. apply Hor in H3. destruct H3 as [->|H3]; [|congruence].
-    apply (wg_ins_cons g rank Hwf). exact Hi. }
+    apply (wg_ins_cons_at g rank p x e Hwf). exact Hi. }
+  assert (Hz : forall x, zprod p x -> zprod p' x \/ In x (cons_at g p e)).
+  { intros x [i [Hi [Ho Hwi]]]. destruct (Nat.eq_dec i e) as [->|Hne].
+    - right. apply (wg_ins_cons_at g rank p x e Hwf). exact Hi.
+    - left. exists i. split; [exact Hi|]. split; [apply Hor; right; exact Ho|rewrite Hwant by exact Hne; exact Hwi]. }
   assert (Hs' : forall x, In x (sched p' A' F) <-> In x (sched p A F) /\ x <> e) by exact Hin.
   constructor.
   - exact Hnd.
@@ -610,21 +712,21 @@ Proof.
     apply Hs'. split; [apply I3; exact Hx|exact Hne].
   - intros x Hx Hax. destruct (Nat.eq_dec x e) as [->|Hne]; [congruence|]. rewrite Hwant in Hx by exact Hne.
     destruct (all_inputs_ready g p x) eqn:E.
-    + destruct (I4 x Hx E) as [H|H].
+    + destruct (I4 x Hx E) as [H|[H|H]].
       * left. apply Hs'. split; assumption.
-      * destruct (HX x H) as [H'|H']; [congruence|]. right. apply in_or_app. right. exact H'.
-    + right. apply in_or_app. left. apply Hnew; assumption.
+      * destruct (HX x H) as [H'|H']; [congruence|]. right. left. apply in_or_app. right. exact H'.
+      * destruct (Hz x H) as [H'|H']; [right; right; exact H'|right; left; apply in_or_app; left; exact H'].
+    + right. left. apply in_or_app. left. apply Hnew; assumption.
   - intros x Hx Hax. destruct (Nat.eq_dec x e) as [->|Hne]; [congruence|]. rewrite Hwant in Hx by exact Hne.
     destruct (all_inputs_ready g p x) eqn:E.
-    + destruct (HX x (I5 x Hx E)) as [H'|H']; [congruence|]. apply in_or_app. right. exact H'.
-    + apply in_or_app. left. apply Hnew; assumption.
+    + destruct (I5 x Hx E) as [H|H].
+      * destruct (HX x H) as [H'|H']; [congruence|]. left. apply in_or_app. right. exact H'.
+      * destruct (Hz x H) as [H'|H']; [right; exact H'|left; apply in_or_app; left; exact H'].
+    + left. apply in_or_app. left. apply Hnew; assumption.
   - intros x Hx Hsx. apply Hs' in Hsx. destruct Hsx as [Hsx Hne]. rewrite Hwant by exact Hne.
-    apply in_app_or in Hx. destruct Hx as [Hx|Hx].
-    + exfalso. apply (wg_cons_ins g rank Hwf) in Hx. destruct (I2 x Hsx) as [_ H2].
-      rewrite (air_in g p x e H2 Hx) in Hoe. discriminate.
-    + apply I6; [apply HX'; exact Hx|exact Hsx].
-  - intros x Hx. apply Hor in Hx. destruct Hx as [->|Hx]; [exact Hwe|].
-    destruct (Nat.eq_dec x e) as [->|Hne]; [exact Hwe|]. rewrite Hwant by exact Hne. apply I7. exact Hx.
+    apply I16. exact Hsx.
+  - intros x Hx. apply Hor in Hx. destruct (Nat.eq_dec x e) as [->|Hne]; [left; exact Hwe|].
+    rewrite Hwant by exact Hne. apply I7. destruct Hx as [Hx|Hx]; [congruence|exact Hx].
   - intros x Hx. apply Hor in Hx. destruct Hx as [->|Hx]; apply Hmono; [exact Ha|apply I8; exact Hx].
   - intros x i Hx Hi Ho.
     assert (Hne : x <> e) by (intros ->; congruence). rewrite Hwant in Hx by exact Hne.
@@ -646,7 +748,7 @@ Qed.
 Lemma QT_weaken (Q : nat -> Prop) X A F p :
   (forall q, 0 < depth g q -> Q q) -> pinv Q X A F p -> pinv QT X A F p.
 Proof.
-  intros HQ H. eapply pinv_weaken; [| |left; eassumption|exact H].
+  intros HQ H. eapply pinv_weaken; [| |exact H].
   - intros q _ Hq. apply HQ. exact Hq.
   - intros x Hx. exact Hx.
 Qed.
@@ -668,6 +770,257 @@ Proof.
   - injection Hs as <-. apply (pinv_drop _ d); [exact HI| |]; intros H; congruence.
 Qed.
 
+(* ------------------------------------------------------------------ dyndep loads *)
+Lemma forallb_all_edges (f : nat -> bool) : forallb f (all_edges g) = true ->
+  forall x, x < n_edges g -> f x = true.
+Proof. intros H x Hx. rewrite forallb_forall in H. apply H. apply all_edges_in. exact Hx. Qed.
+
+Lemma ins_at_out p e : n_edges g <= e -> ins_at g p e = [].
+Proof. intros H. unfold ins_at. rewrite einfo_overflow by exact H. reflexivity. Qed.
+
+(* what every bookkeeping step of a load leaves alone *)
+Record keeps (p p' : plan) : Prop := {
+  k_ready : p_ready p' = p_ready p;
+  k_delayed : p_delayed p' = p_delayed p;
+  k_use : p_use p' = p_use p;
+  k_tokens : p_tokens p' = p_tokens p;
+  k_loaded : forall b, p_loaded p b = true -> p_loaded p' b = true;
+  k_oready : forall x, p_oready p x = true -> p_oready p' x = true;
+  k_out : forall x, n_edges g <= x -> p_want p' x = p_want p x /\ p_oready p' x = p_oready p x }.
+
+Lemma keeps_refl p : keeps p p.
+Proof. constructor; try reflexivity; intros; try assumption. split; reflexivity. Qed.
+
+Lemma keeps_trans p1 p2 p3 : keeps p1 p2 -> keeps p2 p3 -> keeps p1 p3.
+Proof.
+  intros [A1 A2 A3 A4 A5 A6 A7] [B1 B2 B3 B4 B5 B6 B7]. constructor; try congruence.
+  - intros b Hb. apply B5. apply A5. exact Hb.
+  - intros x Hx. apply B6. apply A6. exact Hx.
+  - intros x Hx. destruct (A7 x Hx) as [H1 H2]. destruct (B7 x Hx) as [H3 H4]. split; congruence.
+Qed.
+
+Lemma edge_wanted_fields x p :
+  p_want (edge_wanted g x p) = p_want p /\ p_ready (edge_wanted g x p) = p_ready p /\
+  p_delayed (edge_wanted g x p) = p_delayed p /\ p_use (edge_wanted g x p) = p_use p /\
+  p_oready (edge_wanted g x p) = p_oready p /\ p_tokens (edge_wanted g x p) = p_tokens p /\
+  p_loaded (edge_wanted g x p) = p_loaded p.
+Proof. unfold edge_wanted. destruct (phony g x); repeat split; reflexivity. Qed.
+
+Lemma keeps_upd_want p x v : x < n_edges g -> keeps p (set_want p (upd (p_want p) x v)).
+Proof.
+  intros Hx. constructor; try reflexivity; intros; try assumption.
+  psimpl. split; [apply upd_other; lia|reflexivity].
+Qed.
+
+Lemma keeps_edge_wanted p x : keeps p (edge_wanted g x p).
+Proof.
+  destruct (edge_wanted_fields x p) as [E1 [E2 [E3 [E4 [E5 [E6 E7]]]]]].
+  constructor; try assumption.
+  - intros b Hb. rewrite E7. exact Hb.
+  - intros y Hy. rewrite E5. exact Hy.
+  - intros y Hy. rewrite E1, E5. split; reflexivity.
+Qed.
+
+Lemma keeps_upd_oready p x : x < n_edges g -> keeps p (set_oready p (upd (p_oready p) x true)).
+Proof.
+  intros Hx. constructor; try reflexivity; intros; try assumption.
+  - psimpl. unfold upd. destruct (Nat.eqb x0 x); [reflexivity|assumption].
+  - psimpl. split; [reflexivity|apply upd_other; lia].
+Qed.
+
+Lemma op_dirty_keeps deps x p p' : op_dirty g deps x p = Some p' -> keeps p p'.
+Proof.
+  unfold op_dirty. destruct (p_want p x) as [[| |]|]; try discriminate.
+  destruct (Nat.ltb_spec x (n_edges g)) as [Hx|Hx]; cbn [andb]; [|discriminate].
+  destruct (memb x deps && negb (p_oready p x)); [|discriminate]. intros H. injection H as <-.
+  eapply keeps_trans; [apply (keeps_upd_want p x (Some WToStart) Hx)|apply keeps_edge_wanted].
+Qed.
+
+Lemma op_ready_keeps x p p' : op_ready g x p = Some p' -> keeps p p'.
+Proof.
+  unfold op_ready. destruct (p_want p x); [discriminate|].
+  destruct (Nat.ltb_spec x (n_edges g)) as [Hx|Hx]; cbn [andb]; [|discriminate].
+  destruct (negb (p_oready p x) && all_inputs_ready g p x); [|discriminate]. intros H. injection H as <-.
+  apply keeps_upd_oready. exact Hx.
+Qed.
+
+Lemma op_rescan_keeps x p : keeps p (op_rescan g x p).
+Proof.
+  unfold op_rescan. destruct (p_want p x) as [[| |]|]; try apply keeps_refl.
+  destruct (Nat.ltb_spec x (n_edges g)) as [Hx|Hx]; cbn [andb]; [|apply keeps_refl].
+  destruct (negb (p_oready p x) && all_inputs_ready g p x); [|apply keeps_refl].
+  apply keeps_upd_oready. exact Hx.
+Qed.
+
+Lemma op_add_keeps xw p p' : op_add g xw p = Some p' -> keeps p p'.
+Proof.
+  unfold op_add. destruct (p_want p (fst xw)); [discriminate|].
+  destruct (Nat.ltb_spec (fst xw) (n_edges g)) as [Hx|Hx]; cbn [andb]; [|discriminate].
+  destruct (negb (p_oready p (fst xw))); [|discriminate]. intros H. injection H as <-.
+  destruct (snd xw).
+  - eapply keeps_trans; [apply (keeps_upd_want p (fst xw) (Some WToStart) Hx)|apply keeps_edge_wanted].
+  - apply keeps_upd_want. exact Hx.
+Qed.
+
+Lemma fold_opt_keeps {A : Type} (f : A -> plan -> option plan) :
+  (forall x p p', f x p = Some p' -> keeps p p') ->
+  forall l p p', fold_opt f l p = Some p' -> keeps p p'.
+Proof.
+  intros Hf l. induction l as [|x l IH]; intros p p' H; cbn [fold_opt] in H.
+  - injection H as <-. apply keeps_refl.
+  - destruct (f x p) as [p1|] eqn:E; [|discriminate].
+    eapply keeps_trans; [apply (Hf x p p1 E)|apply IH; exact H].
+Qed.
+
+Lemma rescan_keeps deps : forall k p,
+  keeps p (Nat.iter k (fun pp => fold_left (fun a x => op_rescan g x a) deps pp) p).
+Proof.
+  assert (Hround : forall l p, keeps p (fold_left (fun a x => op_rescan g x a) l p)).
+  { induction l as [|x l IH]; intros p; cbn [fold_left]; [apply keeps_refl|].
+    eapply keeps_trans; [apply (op_rescan_keeps x p)|apply IH]. }
+  induction k as [|k IH]; intros p; cbn [Nat.iter]; [apply keeps_refl|].
+  eapply keeps_trans; [apply IH|apply Hround].
+Qed.
+
+Lemma apply_load_cases e p p5 walk : apply_load g loads e p = Ok (p5, walk) ->
+  (bound g p e = [] /\ p5 = p /\ walk = []) \/
+  (bound g p e <> [] /\ keeps p p5 /\
+   exists L, loads e = Some L /\ walk = ld_walk L /\ chk_evol g L p p5 = true /\
+             chk_closed g p5 = true /\ chk_sched g p5 = true /\ chk_oclosed g p5 = true /\
+             chk_walk g p p5 walk = true).
+Proof.
+  unfold apply_load. destruct (bound g p e) as [|b bs] eqn:Eb.
+  - intros H. injection H as <- <-. left. repeat split.
+  - destruct (loads e) as [L|]; [|discriminate].
+    set (p1 := set_loaded p _).
+    destruct (fold_opt (op_dirty g (dependents g p1 e)) (ld_dirty L) p1) as [p2|] eqn:E2; [|discriminate].
+    destruct (fold_opt (op_ready g) (ld_ready L) p2) as [p3|] eqn:E3; [|discriminate].
+    set (p4 := Nat.iter _ _ p3).
+    destruct (fold_opt (op_add g) (ld_added L) p4) as [p5'|] eqn:E5; [|discriminate].
+    destruct (chk_evol g L p p5' && chk_closed g p5' && chk_sched g p5' && chk_oclosed g p5'
+              && chk_walk g p p5' (ld_walk L)) eqn:Ec; [|discriminate].
+    intros H. injection H as <- <-. right. split; [discriminate|].
+    apply andb_true_iff in Ec. destruct Ec as [Ec C5]. apply andb_true_iff in Ec. destruct Ec as [Ec C4].
+    apply andb_true_iff in Ec. destruct Ec as [Ec C3]. apply andb_true_iff in Ec. destruct Ec as [C1 C2].
+    split.
+    + assert (K1 : keeps p p1).
+      { constructor; try reflexivity; intros; try assumption.
+        - unfold p1. psimpl. rewrite H. apply orb_true_r.
+        - split; reflexivity. }
+      eapply keeps_trans; [exact K1|]. eapply keeps_trans; [apply (fold_opt_keeps _ (op_dirty_keeps _) _ _ _ E2)|].
+      eapply keeps_trans; [apply (fold_opt_keeps _ op_ready_keeps _ _ _ E3)|].
+      eapply keeps_trans; [apply rescan_keeps|]. apply (fold_opt_keeps _ op_add_keeps _ _ _ E5).
+    + exists L. repeat split; assumption.
+Qed.
+
+Lemma is_nothing_eq w : is_nothing w = true <-> w = Some WNothing.
+Proof. destruct w as [[| |]|]; cbn; split; intros H; congruence. Qed.
+
+(* the load (up to the EdgeMaybeReady loop) keeps the invariant; the edges of dyndep_walk become exempt *)
+Lemma apply_load_pinv e X A F p p5 walk :
+  pinv QT X A F p -> apply_load g loads e p = Ok (p5, walk) -> pinv QT (walk ++ X) A F p5.
+Proof.
+  intros HI Hl. destruct (apply_load_cases e p p5 walk Hl) as [[_ [-> ->]]|[_ [HK [L [_ [-> [C1 [C2 [C3 [C4 C5]]]]]]]]]].
+  - exact HI.
+  - destruct HI as [I1 I2 I3 I4 I5 I6 I7 I8 I9 I10 I11 I12 I13 I14 I15 I16].
+    destruct HK as [K1 K2 K3 K4 K5 K6 K7].
+    unfold chk_evol in C1. apply andb_true_iff in C1. destruct C1 as [C1 Cle].
+    apply andb_true_iff in C1. destruct C1 as [C1 Cc].
+    apply andb_true_iff in C1. destruct C1 as [C1 Cw]. apply Nat.eqb_eq in Cw, Cc.
+    assert (Hs : sched p5 A F = sched p A F) by (unfold sched; rewrite K1, K2; reflexivity).
+    (* per-edge facts from the checks *)
+    assert (Hev : forall x, x < n_edges g ->
+      (p_want p5 x = p_want p x \/ (p_want p x = Some WNothing /\ p_want p5 x = Some WToStart) \/
+       (p_want p x = None /\ (p_want p5 x = Some WNothing \/ p_want p5 x = Some WToStart))) /\
+      (p_oready p5 x = true -> p_want p5 x = None \/ p_want p5 x = Some WNothing)).
+    { intros x Hx. pose proof (forallb_all_edges _ C1 x Hx) as H. cbn beta in H.
+      apply andb_true_iff in H. destruct H as [H _]. apply andb_true_iff in H. destruct H as [H1 H2].
+      split.
+      - destruct (p_want p x) as [a|], (p_want p5 x) as [b|]; try discriminate; try (left; reflexivity).
+        + destruct a, b; cbn in H1; try discriminate; try (left; reflexivity). right. left. split; reflexivity.
+        + right. right. split; [reflexivity|]. destruct b; cbn in H1; try discriminate; [left|right]; reflexivity.
+      - intros Ho. rewrite Ho in H2. cbn [negb orb] in H2. apply orb_true_iff in H2. destruct H2 as [H2|H2].
+        + right. apply is_nothing_eq. exact H2.
+        + left. unfold in_want in H2. destruct (p_want p5 x); [discriminate|reflexivity]. }
+    assert (Hwout : forall x, n_edges g <= x -> p_want p5 x = None /\ p_want p x = None).
+    { intros x Hx. destruct (K7 x Hx) as [H1 _]. rewrite H1.
+      destruct (p_want p x) eqn:E; [|split; reflexivity]. exfalso. assert (x < n_edges g) by (apply I10; congruence). lia. }
+    assert (Hlt : forall x, p_want p5 x <> None -> x < n_edges g).
+    { intros x Hx. destruct (lt_dec x (n_edges g)) as [H|H]; [exact H|]. destruct (Hwout x) as [H1 _]; [lia|congruence]. }
+    assert (Hfin : forall x, p_want p x = Some WToFinish <-> p_want p5 x = Some WToFinish).
+    { intros x. split; intros H.
+      - assert (Hx : x < n_edges g) by (apply I10; congruence).
+        destruct (proj1 (Hev x Hx)) as [E|[[E _]|[E _]]]; congruence.
+      - assert (Hx : x < n_edges g) by (apply Hlt; congruence).
+        destruct (proj1 (Hev x Hx)) as [E|[[_ E]|[_ [E|E]]]]; congruence. }
+    assert (Hzp : forall i, Zp p i -> Zp p5 i).
+    { intros i [Ho Hw]. split; [apply K6; exact Ho|].
+      assert (Hi : i < n_edges g) by (apply I10; congruence).
+      destruct (Hev i Hi) as [H1 H2]. destruct (H2 (K6 i Ho)) as [E|E]; [|exact E].
+      destruct H1 as [E'|[[_ E']|[E' _]]]; congruence. }
+    assert (Hz : forall x, zprod p x -> zprod p5 x).
+    { intros x [i [Hi Hzi]]. exists i. split; [apply (ins_at_mono g p p5 x i K5); exact Hi|apply Hzp; exact Hzi]. }
+    assert (Hwalk : forall x, (p_want p5 x = Some WToStart \/ p_want p5 x = Some WNothing) ->
+              all_inputs_ready g p5 x = true ->
+              In x (ld_walk L) \/ (all_inputs_ready g p x = true /\ p_want p x <> None) \/ zprod p5 x).
+    { intros x Hw Ha. assert (Hx : x < n_edges g) by (apply Hlt; destruct Hw as [E|E]; congruence).
+      pose proof (forallb_all_edges _ C5 x Hx) as H. cbn beta in H.
+      assert (H' : negb (all_inputs_ready g p5 x) || memb x (ld_walk L)
+                   || (all_inputs_ready g p x && in_want p x)
+                   || existsb (fun i => p_oready p5 i && match p_want p5 i with Some WNothing => true | _ => false end)
+                              (ins_at g p5 x) = true).
+      { destruct Hw as [E|E]; rewrite E in H; exact H. }
+      rewrite Ha in H'. cbn [negb orb] in H'.
+      apply orb_true_iff in H'. destruct H' as [H'|H'].
+      - apply orb_true_iff in H'. destruct H' as [H'|H'].
+        + left. apply memb_In. exact H'.
+        + right. left. apply andb_true_iff in H'. destruct H' as [H1 H2]. split; [exact H1|].
+          unfold in_want in H2. destruct (p_want p x); [discriminate|discriminate H2].
+      - right. right. apply existsb_exists in H'. destruct H' as [i [Hi H']].
+        apply andb_true_iff in H'. destruct H' as [H1 H2]. exists i. split; [exact Hi|]. split; [exact H1|].
+        destruct (p_want p5 i) as [[| |]|]; try discriminate. reflexivity. }
+    assert (Hsf : forall x, In x (sched p A F) -> p_want p5 x = Some WToFinish).
+    { intros x Hx. apply Hfin. apply I16. exact Hx. }
+    constructor; try rewrite Hs.
+    + exact I1.
+    + intros x Hx. pose proof (Hsf x Hx) as Hw. split; [unfold is_wanted; rewrite Hw; reflexivity|].
+      assert (Hxn : x < n_edges g) by (apply Hlt; congruence).
+      pose proof (forallb_all_edges _ C3 x Hxn) as H. cbn beta in H. rewrite Hw in H. exact H.
+    + intros x Hx. apply I3. apply Hfin. exact Hx.
+    + intros x Hx Ha. destruct (Hwalk x (or_introl Hx) Ha) as [H|[[H1 H2]|H]].
+      * right. left. apply in_or_app. left. exact H.
+      * assert (Hxn : x < n_edges g) by (apply Hlt; congruence).
+        destruct (proj1 (Hev x Hxn)) as [E|[[E _]|[E _]]]; [| |congruence].
+        -- rewrite Hx in E. destruct (I4 x (eq_sym E) H1) as [H|[H|H]];
+             [left; exact H|right; left; apply in_or_app; right; exact H|right; right; apply Hz; exact H].
+        -- destruct (I5 x E H1) as [H|H]; [right; left; apply in_or_app; right; exact H|right; right; apply Hz; exact H].
+      * right. right. exact H.
+    + intros x Hx Ha. destruct (Hwalk x (or_intror Hx) Ha) as [H|[[H1 H2]|H]].
+      * left. apply in_or_app. left. exact H.
+      * assert (Hxn : x < n_edges g) by (apply Hlt; congruence).
+        destruct (proj1 (Hev x Hxn)) as [E|[[_ E]|[E _]]]; [|congruence|congruence].
+        rewrite Hx in E. destruct (I5 x (eq_sym E) H1) as [H|H]; [left; apply in_or_app; right; exact H|right; apply Hz; exact H].
+      * right. exact H.
+    + intros x _ Hx. apply Hsf. exact Hx.
+    + intros x Hx. destruct (lt_dec x (n_edges g)) as [Hxn|Hxn]; [apply (Hev x Hxn); exact Hx|].
+      left. apply (Hwout x). lia.
+    + intros x Hx. destruct (lt_dec x (n_edges g)) as [Hxn|Hxn].
+      * pose proof (forallb_all_edges _ C4 x Hxn) as H. cbn beta in H. rewrite Hx in H. exact H.
+      * unfold all_inputs_ready. rewrite ins_at_out by lia. reflexivity.
+    + intros x i Hx Hi Ho. assert (Hxn : x < n_edges g) by (apply Hlt; exact Hx).
+      pose proof (forallb_all_edges _ C2 x Hxn) as H. cbn beta in H.
+      unfold in_want in H at 1. destruct (p_want p5 x); [|congruence]. cbn [negb orb] in H.
+      rewrite forallb_forall in H. specialize (H i Hi). rewrite Ho in H. cbn [orb] in H.
+      unfold in_want in H. destruct (p_want p5 i); [discriminate|discriminate H].
+    + exact Hlt.
+    + rewrite K1, K3. exact I11.
+    + rewrite K2, K3. exact I12.
+    + rewrite K2. exact I13.
+    + exact Cw.
+    + rewrite K4. exact I15.
+    + exact Hsf.
+Qed.
+
 (* ------------------------------------------------------------------ Plan::EdgeFinished *)
 Definition visit (fuel : nat) (prio : list nat) : nat -> plan -> res plan :=
   fun d pp =>
@@ -676,30 +1029,38 @@ Definition visit (fuel : nat) (prio : list nat) : nat -> plan -> res plan :=
     | Some wd =>
       if all_inputs_ready g pp d then
         if want_eqb wd WNothing
-        then edge_finished fuel g cfg prio d true false pp
+        then edge_finished fuel g cfg prio loads d true false pp
         else schedule_work g prio d pp
       else Ok pp
     end.
 
+(* what EdgeFinished does after `outputs_ready_ = true`: LoadDyndeps, then NodeFinished *)
+Definition after_done (fuel : nat) (prio : list nat) (e : nat) (p4 : plan) : res plan :=
+  match apply_load g loads e p4 with
+  | Ok (p5, walk) => fold_res (visit fuel prio) (walk ++ cons_at g p5 e) p5
+  | Forbidden => Forbidden
+  | OutOfFuel => OutOfFuel
+  end.
+
 (* the recursive call: an edge that is in want_ with kWantNothing *)
 Lemma ef_nothing_eq fuel prio d p : p_want p d = Some WNothing ->
-  edge_finished (S fuel) g cfg prio d true false p =
-  fold_res (visit fuel prio) (cons_of g d)
+  edge_finished (S fuel) g cfg prio loads d true false p =
+  after_done fuel prio d
     (retrieve g prio (pool g d)
        (mkPlan (upd (p_want p) d None) (p_ready p) (p_delayed p) (p_use p) (p_wanted p)
-               (p_commands p) (upd (p_oready p) d true) (p_tokens p))).
+               (p_commands p) (upd (p_oready p) d true) (p_tokens p) (p_loaded p))).
 Proof.
   intros Hw. cbn [edge_finished]. rewrite Hw. cbn [want_eqb negb andb].
   assert (Et : release_token cfg false (retrieve g prio (pool g d) p) = Some (retrieve g prio (pool g d) p)).
   { unfold release_token. destruct (c_jobserver cfg); reflexivity. }
   rewrite Et. cbn [negb].
   change (mkPlan (upd (p_want p) d None) (p_ready p) (p_delayed p) (p_use p) (p_wanted p)
-                 (p_commands p) (upd (p_oready p) d true) (p_tokens p))
+                 (p_commands p) (upd (p_oready p) d true) (p_tokens p) (p_loaded p))
     with (frame p (upd (p_want p) d None) (p_wanted p) (p_commands p) (upd (p_oready p) d true) (p_tokens p)).
-  rewrite retrieve_frame. unfold visit.
+  rewrite retrieve_frame. unfold after_done, visit.
   unfold set_oready, set_want, set_wanted. psimpl.
   rewrite retrieve_want, retrieve_oready, retrieve_wanted, retrieve_commands, retrieve_tokens.
-  reflexivity.
+  unfold frame. rewrite retrieve_loaded. reflexivity.
 Qed.
 
 Definition rel_use (p : plan) (q : nat) : option (nat -> nat) :=
@@ -715,7 +1076,7 @@ Definition rel_tok (p : plan) : option nat :=
 
 (* the top-level call: a directly wanted edge that went through FindWork *)
 Lemma ef_top_eq fuel prio e succ p w : p_want p e = Some w -> w <> WNothing ->
-  edge_finished (S fuel) g cfg prio e succ true p =
+  edge_finished (S fuel) g cfg prio loads e succ true p =
   match rel_use p (pool g e) with
   | None => Forbidden
   | Some u =>
@@ -725,14 +1086,14 @@ Lemma ef_top_eq fuel prio e succ p w : p_want p e = Some w -> w <> WNothing ->
       if negb succ
       then Ok (retrieve g prio (pool g e)
                  (mkPlan (p_want p) (p_ready p) (p_delayed p) u (p_wanted p) (p_commands p)
-                         (p_oready p) t))
+                         (p_oready p) t (p_loaded p)))
       else match p_wanted p with
            | O => Forbidden
            | S n =>
-             fold_res (visit fuel prio) (cons_of g e)
+             after_done fuel prio e
                (retrieve g prio (pool g e)
                   (mkPlan (upd (p_want p) e None) (p_ready p) (p_delayed p) u n (p_commands p)
-                          (upd (p_oready p) e true) t))
+                          (upd (p_oready p) e true) t (p_loaded p)))
            end
     end
   end.
@@ -749,7 +1110,7 @@ Proof.
       else match (match p_wanted p3 with O => None | S n => Some n end) with
            | None => Forbidden
            | Some n =>
-             fold_res (visit fuel prio) (cons_of g e)
+             after_done fuel prio e
                (set_oready (set_want (set_wanted p3 n) (upd (p_want p3) e None)) (upd (p_oready p3) e true))
            end
     end =
@@ -757,17 +1118,17 @@ Proof.
     | None => Forbidden
     | Some t =>
       if negb succ
-      then Ok (retrieve g prio q (mkPlan (p_want p) (p_ready p) (p_delayed p) u (p_wanted p) (p_commands p) (p_oready p) t))
+      then Ok (retrieve g prio q (mkPlan (p_want p) (p_ready p) (p_delayed p) u (p_wanted p) (p_commands p) (p_oready p) t (p_loaded p)))
       else match p_wanted p with
            | O => Forbidden
            | S n =>
-             fold_res (visit fuel prio) (cons_of g e)
-               (retrieve g prio q (mkPlan (upd (p_want p) e None) (p_ready p) (p_delayed p) u n (p_commands p) (upd (p_oready p) e true) t))
+             after_done fuel prio e
+               (retrieve g prio q (mkPlan (upd (p_want p) e None) (p_ready p) (p_delayed p) u n (p_commands p) (upd (p_oready p) e true) t (p_loaded p)))
            end
     end).
   { intros u. unfold release_token, rel_tok.
     assert (Hfr : forall w' n' o' t',
-      retrieve g prio q (mkPlan w' (p_ready p) (p_delayed p) u n' (p_commands p) o' t') =
+      retrieve g prio q (mkPlan w' (p_ready p) (p_delayed p) u n' (p_commands p) o' t' (p_loaded p)) =
       frame (retrieve g prio q (set_use p u)) w' n' (p_commands p) o' t').
     { intros w' n' o' t'. rewrite <- retrieve_frame. reflexivity. }
     destruct (c_jobserver cfg) as [nj|].
@@ -795,7 +1156,7 @@ Qed.
 Definition ef_rec_stmt (fuel : nat) : Prop :=
   forall prio d X A F p p',
     pinv QT (d :: X) A F p -> p_want p d = Some WNothing -> all_inputs_ready g p d = true ->
-    edge_finished fuel g cfg prio d true false p = Ok p' -> pinv QT X A F p'.
+    edge_finished fuel g cfg prio loads d true false p = Ok p' -> pinv QT X A F p'.
 
 Definition fold_stmt (fuel : nat) : Prop :=
   forall prio l X A F p p',
@@ -818,11 +1179,41 @@ Proof.
     + injection Ev as <-. apply (pinv_drop _ d); [exact HI| |]; intros H; congruence.
 Qed.
 
+Lemma cons_at_mono p p' e x : (forall b, p_loaded p b = true -> p_loaded p' b = true) ->
+  In x (cons_at g p e) -> In x (cons_at g p' e).
+Proof.
+  intros H Hx. apply cons_at_In in Hx. destruct Hx as [c [H1 H2]]. apply cons_at_In. exists c.
+  split; [exact H1|]. unfold active in *. cbn [snd] in *. destruct c as [b|]; [apply H; exact H2|reflexivity].
+Qed.
+
+Lemma apply_load_loaded e p p5 walk : apply_load g loads e p = Ok (p5, walk) ->
+  forall b, p_loaded p b = true -> p_loaded p5 b = true.
+Proof.
+  intros Hl. destruct (apply_load_cases e p p5 walk Hl) as [[_ [-> _]]|[_ [HK _]]].
+  - intros b Hb. exact Hb.
+  - apply (k_loaded _ _ HK).
+Qed.
+
+Lemma after_done_pinv fuel prio e X A F p4 p' : fold_stmt fuel ->
+  pinv QT (cons_at g p4 e ++ X) A F p4 -> after_done fuel prio e p4 = Ok p' -> pinv QT X A F p'.
+Proof.
+  intros Hfold HI H. unfold after_done in H.
+  destruct (apply_load g loads e p4) as [[p5 walk]| |] eqn:El; try discriminate.
+  refine (Hfold prio (walk ++ cons_at g p5 e) X A F p5 p' _ H).
+  pose proof (apply_load_pinv e _ A F p4 p5 walk HI El) as H5.
+  eapply pinv_weaken; [| |exact H5]; [intros q _ _; exact I|].
+  intros x Hx. rewrite <- app_assoc. apply in_app_or in Hx. apply in_or_app.
+  destruct Hx as [Hx|Hx]; [left; exact Hx|right].
+  apply in_app_or in Hx. apply in_or_app. destruct Hx as [Hx|Hx]; [left|right; exact Hx].
+  apply (cons_at_mono p4 p5 e x (apply_load_loaded e p4 p5 walk El) Hx).
+Qed.
+
 Lemma rec_of_fold fuel : fold_stmt fuel -> ef_rec_stmt (S fuel).
 Proof.
   intros Hfold prio d X A F p p' HI Hw Ha Hef.
   rewrite (ef_nothing_eq fuel prio d p Hw) in Hef.
-  refine (Hfold prio (cons_of g d) X A F _ p' _ Hef).
+  refine (after_done_pinv fuel prio d X A F _ p' Hfold _ Hef).
+  rewrite (cons_at_ext g p _ d) by (rewrite retrieve_loaded; reflexivity).
   apply (QT_weaken (fun r => QT r \/ r = pool g d)); [intros q _; left; exact I|].
   apply retrieve_pinv.
   pose proof HI as [I1 I2 I3 I4 I5 I6 I7 I8 I9 I10 I11 I12 I13 I14 I15 I16].
@@ -913,7 +1304,7 @@ Qed.
 
 Lemma ef_top_success fuel prio e A F p p' :
   pinv QT [] A F p -> In e A ->
-  edge_finished fuel g cfg prio e true true p = Ok p' -> pinv QT [] (rem e A) F p'.
+  edge_finished fuel g cfg prio loads e true true p = Ok p' -> pinv QT [] (rem e A) F p'.
 Proof.
   intros HI Hin Hef. destruct fuel as [|fuel]; [discriminate Hef|].
   pose proof (pinv_nodup_A _ _ _ _ _ HI) as HndA.
@@ -930,7 +1321,8 @@ Proof.
   assert (Hnd' : NoDup (e :: p_ready p ++ p_delayed p ++ rem e A ++ F)) by (apply (Permutation_NoDup Hperm); exact I1).
   inversion Hnd' as [|e' l' Hne' Hnd'']; subst.
   destruct (ef_rec_all fuel) as [_ Hfold].
-  refine (Hfold prio (cons_of g e) [] (rem e A) F _ p' _ Hef).
+  refine (after_done_pinv fuel prio e [] (rem e A) F _ p' Hfold _ Hef).
+  rewrite (cons_at_ext g p _ e) by (rewrite retrieve_loaded; reflexivity).
   apply (QT_weaken (fun r => r <> pool g e \/ r = pool g e)).
   { intros q _. destruct (Nat.eq_dec q (pool g e)); [right|left]; assumption. }
   apply retrieve_pinv.
@@ -951,7 +1343,7 @@ Qed.
 
 Lemma ef_top_failure fuel prio e A F p p' :
   pinv QT [] A F p -> In e A ->
-  edge_finished fuel g cfg prio e false true p = Ok p' -> pinv QT [] (rem e A) (e :: F) p'.
+  edge_finished fuel g cfg prio loads e false true p = Ok p' -> pinv QT [] (rem e A) (e :: F) p'.
 Proof.
   intros HI Hin Hef. destruct fuel as [|fuel]; [discriminate Hef|].
   pose proof (pinv_nodup_A _ _ _ _ _ HI) as HndA.
@@ -979,11 +1371,11 @@ Qed.
 (* ------------------------------------------------------------------ Plan::ScheduleInitialEdges *)
 Record wf_snap (sn : snapshot) : Prop := {
   ws_oready_none : forall e, sn_oready sn e = true -> sn_want sn e = None;
-  ws_oready_closed : forall e, sn_oready sn e = true -> forallb (sn_oready sn) (ins g e) = true;
+  ws_oready_closed : forall e, sn_oready sn e = true -> all_inputs_ready g (snap_plan sn) e = true;
   ws_no_tofinish : forall e, sn_want sn e <> Some WToFinish;
-  ws_closed : forall e i, sn_want sn e <> None -> In i (ins g e) -> sn_oready sn i = false ->
-              sn_want sn i <> None;
-  ws_nothing : forall e, sn_want sn e = Some WNothing -> forallb (sn_oready sn) (ins g e) = false;
+  ws_closed : forall e i, sn_want sn e <> None -> In i (ins_at g (snap_plan sn) e) ->
+              sn_oready sn i = false -> sn_want sn i <> None;
+  ws_nothing : forall e, sn_want sn e = Some WNothing -> all_inputs_ready g (snap_plan sn) e = false;
   ws_range : forall e, sn_want sn e <> None -> e < n_edges g;
   ws_wanted : sn_wanted sn = count_if (is_wanted (sn_want sn)) (all_edges g);
   ws_commands : sn_commands sn =
@@ -995,15 +1387,15 @@ Definition nothing_blocked (p : plan) : Prop :=
 
 Lemma snap_plan_pinv sn : wf_snap sn -> pinv QF (all_edges g) [] [] (snap_plan sn).
 Proof.
-  intros [W1 W2 W3 W4 W5 W6 W7 W8]. unfold snap_plan.
-  constructor; unfold sched; psimpl; cbn [app].
+  intros [W1 W2 W3 W4 W5 W6 W7 W8].
+  constructor; unfold sched; cbn [snap_plan p_ready p_delayed p_want p_oready p_use p_wanted p_tokens app].
   - constructor.
   - intros e [].
   - intros e He. exfalso. exact (W3 e He).
-  - intros e He _. right. apply all_edges_in. apply W6. congruence.
-  - intros e He _. apply all_edges_in. apply W6. congruence.
+  - intros e He _. right. left. apply all_edges_in. apply W6. congruence.
+  - intros e He _. left. apply all_edges_in. apply W6. congruence.
   - intros x _ [].
-  - exact W1.
+  - intros e He. left. apply W1. exact He.
   - exact W2.
   - exact W4.
   - exact W6.
@@ -1051,7 +1443,7 @@ Proof.
     + destruct (all_inputs_ready g p e) eqn:Ea.
       * destruct (Nat.eqb_spec (depth g (pool g e)) 0) as [Hz|Hnz].
         -- pose proof (pinv_schedule_pure QF l2 [] [] p e true HI Ew Ea Hz) as H.
-           split; [eapply pinv_weaken; [| |left; eassumption|exact H]; [intros q []|intros x Hx; exact Hx]|].
+           split; [eapply pinv_weaken; [| |exact H]; [intros q []|intros x Hx; exact Hx]|].
            split.
            { apply Hsub'. intros x Hx. unfold sched in *. psimpl. cbn [app] in *. rewrite app_nil_r in *.
              destruct Hx as [<-|Hx]; [left; reflexivity|right; exact Hx]. }
@@ -1062,7 +1454,7 @@ Proof.
            destruct (Nat.eqb_spec x e) as [->|Hne]; [rewrite Ew; reflexivity|reflexivity].
         -- assert (Hpos : 0 < depth g (pool g e)) by lia.
            pose proof (pinv_schedule_pure QF l2 [] [] p e false HI Ew Ea Hpos) as H.
-           split; [eapply pinv_weaken; [| |left; eassumption|exact H]; [intros q []|intros x Hx; exact Hx]|].
+           split; [eapply pinv_weaken; [| |exact H]; [intros q []|intros x Hx; exact Hx]|].
            split.
            { apply Hsub'. intros x Hx. unfold sched in *. psimpl. cbn [app] in *. rewrite app_nil_r in *.
              apply in_app_or in Hx. destruct Hx as [Hx|[<-|Hx]]; [right; apply in_or_app; left; exact Hx|left; reflexivity|right; apply in_or_app; right; exact Hx]. }
@@ -1084,9 +1476,9 @@ Lemma retrieve_fold_pinv prio : forall l (Q : nat -> Prop) p,
   pinv (fun r => Q r \/ In r l) [] [] [] (fold_left (fun pp q => retrieve g prio q pp) l p).
 Proof.
   induction l as [|q l IH]; intros Q p HI; cbn [fold_left].
-  - eapply pinv_weaken; [| |left; eassumption|exact HI]; [intros r [H|[]] _; exact H|intros x Hx; exact Hx].
+  - eapply pinv_weaken; [| |exact HI]; [intros r [H|[]] _; exact H|intros x Hx; exact Hx].
   - pose proof (IH _ _ (retrieve_pinv Q [] [] [] p prio q HI)) as H.
-    eapply pinv_weaken; [| |left; eassumption|exact H]; [|intros x Hx; exact Hx].
+    eapply pinv_weaken; [| |exact H]; [|intros x Hx; exact Hx].
     intros r [Hr|[<-|Hr]] _; [left; left; exact Hr|left; right; reflexivity|right; exact Hr].
 Qed.
 
@@ -1116,40 +1508,56 @@ Proof.
 Qed.
 
 (* ------------------------------------------------------------------ how want_/outputs_ready_ evolve *)
+Lemma count_same (f f' : nat -> bool) l : (forall x, In x l -> f' x = f x) -> count_if f' l = count_if f l.
+Proof. intros H. unfold count_if. f_equal. apply filter_ext_in. exact H. Qed.
+
+Lemma npwf_same w w' : (forall x, is_wanted w' x = is_wanted w x) -> npwf g w' = npwf g w.
+Proof. intros H. unfold npwf. apply count_same. intros x _. rewrite H. reflexivity. Qed.
+
+(* judged up to date by the re-scan after a dyndep load / inserted into want_ as kWantNothing by it *)
+Definition LRd (x : nat) : Prop := exists e L, loads e = Some L /\ In x (ld_ready L).
+Definition LAn (x : nat) : Prop := exists e L, loads e = Some L /\ In (x, false) (ld_added L).
+
 Record evolf (w : nat -> option want_t) (o : nat -> bool) (c : nat) (p' : plan) : Prop := {
-  ev_want : forall x, p_want p' x = w x \/
-                      (w x = Some WToStart /\ p_want p' x = Some WToFinish) \/
-                      (w x = Some WNothing /\ p_want p' x = None /\ p_oready p' x = true);
-  ev_oready : forall x, p_oready p' x = true -> o x = true \/ w x = Some WNothing;
   ev_mono : forall x, o x = true -> p_oready p' x = true;
-  ev_commands : p_commands p' = c }.
+  ev_oready : forall x, p_oready p' x = true -> o x = true \/ w x = Some WNothing \/ LRd x \/ LAn x;
+  ev_nothing : forall x, p_want p' x = Some WNothing -> w x = Some WNothing \/ LAn x;
+  ev_balance : p_commands p' + npwf g w = c + npwf g (p_want p');
+  ev_undone : forall x, p_oready p' x = false \/ p_want p' x <> None -> o x = false \/ w x <> None;
+  ev_range : forall x, p_want p' x <> None -> w x <> None \/ x < n_edges g;
+  ev_cmd_le : c <= p_commands p' }.
 
 Definition evol (p p' : plan) : Prop := evolf (p_want p) (p_oready p) (p_commands p) p'.
 
 Lemma evol_refl p : evol p p.
-Proof. constructor; [intros x; left; reflexivity|intros x H; left; exact H|intros x H; exact H|reflexivity]. Qed.
+Proof.
+  constructor.
+  - intros x H. exact H.
+  - intros x H. left. exact H.
+  - intros x H. left. exact H.
+  - reflexivity.
+  - intros x H. exact H.
+  - intros x H. left. exact H.
+  - apply le_n.
+Qed.
+
+Lemma evolf_self w o c p : p_want p = w -> p_oready p = o -> p_commands p = c -> evolf w o c p.
+Proof. intros <- <- <-. apply evol_refl. Qed.
 
 Lemma evolf_trans w o c p1 p2 : evolf w o c p1 -> evol p1 p2 -> evolf w o c p2.
 Proof.
-  intros [A1 A2 A3 A4] [B1 B2 B3 B4]. constructor.
-  - intros x. destruct (A1 x) as [Ha|[[Ha1 Ha2]|[Ha1 [Ha2 Ha3]]]]; destruct (B1 x) as [Hb|[[Hb1 Hb2]|[Hb1 [Hb2 Hb3]]]].
-    + left. congruence.
-    + right. left. split; congruence.
-    + right. right. repeat split; congruence.
-    + right. left. split; congruence.
-    + congruence.
-    + congruence.
-    + right. right. repeat split; [exact Ha1|congruence|apply B3; exact Ha3].
-    + congruence.
-    + congruence.
-  - intros x Hx. destruct (B2 x Hx) as [H|H].
+  intros [A1 A2 A3 A4 A5 A6 A7] [B1 B2 B3 B4 B5 B6 B7]. constructor.
+  - intros x Hx. apply B1. apply A1. exact Hx.
+  - intros x Hx. destruct (B2 x Hx) as [H|[H|[H|H]]].
     + apply A2. exact H.
-    + destruct (A1 x) as [Ha|[[Ha1 Ha2]|[Ha1 [Ha2 Ha3]]]].
-      * right. congruence.
-      * congruence.
-      * right. exact Ha1.
-  - intros x Hx. apply B3. apply A3. exact Hx.
-  - congruence.
+    + destruct (A3 x H) as [H'|H']; [right; left; exact H'|right; right; right; exact H'].
+    + right. right. left. exact H.
+    + right. right. right. exact H.
+  - intros x Hx. destruct (B3 x Hx) as [H|H]; [apply A3; exact H|right; exact H].
+  - lia.
+  - intros x Hx. apply A5. apply B5. exact Hx.
+  - intros x Hx. destruct (B6 x Hx) as [H|H]; [apply A6; exact H|right; exact H].
+  - lia.
 Qed.
 
 Lemma evol_trans p1 p2 p3 : evol p1 p2 -> evol p2 p3 -> evol p1 p3.
@@ -1159,101 +1567,249 @@ Lemma evolf_fields w o c p1 p2 : evolf w o c p1 ->
   p_want p2 = p_want p1 -> p_oready p2 = p_oready p1 -> p_commands p2 = p_commands p1 ->
   evolf w o c p2.
 Proof.
-  intros [A1 A2 A3 A4] E1 E2 E3. constructor.
-  - intros x. rewrite E1, E2. apply A1.
-  - intros x. rewrite E2. apply A2.
-  - intros x. rewrite E2. apply A3.
-  - rewrite E3. exact A4.
+  intros [A1 A2 A3 A4 A5 A6 A7] E1 E2 E3. constructor; try rewrite E1; try rewrite E2; try rewrite E3; assumption.
 Qed.
 
 Lemma retrieve_evolf w o c prio q p : evolf w o c p -> evolf w o c (retrieve g prio q p).
 Proof.
-  intros [A1 A2 A3 A4]. constructor.
-  - intros x. rewrite retrieve_want, retrieve_oready. apply A1.
-  - intros x. rewrite retrieve_oready. apply A2.
-  - intros x. rewrite retrieve_oready. apply A3.
-  - rewrite retrieve_commands. exact A4.
+  intros H. apply (evolf_fields _ _ _ _ _ H); [apply retrieve_want|apply retrieve_oready|apply retrieve_commands].
+Qed.
+
+(* a want_ entry changes without changing whether the edge is wanted, or the edge is checked off *)
+Lemma evol_upd p d v o' :
+  p_want p d <> None -> is_wanted (upd (p_want p) d v) d = is_wanted (p_want p) d ->
+  (v = Some WNothing -> p_want p d = Some WNothing) ->
+  (forall x, p_oready p x = true -> o' x = true) ->
+  (forall x, o' x = true -> p_oready p x = true \/ (x = d /\ p_want p d = Some WNothing)) ->
+  (v <> None \/ o' d = true) ->
+  evol p (set_oready (set_want p (upd (p_want p) d v)) o').
+Proof.
+  intros Hd Hiw Hv Hm Ho Hu. constructor; psimpl.
+  - exact Hm.
+  - intros x Hx. destruct (Ho x Hx) as [H|[-> H]]; [left; exact H|right; left; exact H].
+  - intros x Hx. destruct (Nat.eq_dec x d) as [Heq|Hne].
+    + left. subst x. rewrite upd_same in Hx. apply Hv. exact Hx.
+    + left. rewrite upd_other in Hx by exact Hne. exact Hx.
+  - rewrite (npwf_same (p_want p) (upd (p_want p) d v)); [reflexivity|].
+    intros x. destruct (Nat.eq_dec x d) as [Heq|Hne]; [subst x; exact Hiw|].
+    unfold is_wanted. rewrite upd_other by exact Hne. reflexivity.
+  - intros x [H|H].
+    + left. destruct (p_oready p x) eqn:E; [|reflexivity]. rewrite (Hm x E) in H. discriminate.
+    + destruct (Nat.eq_dec x d) as [Heq|Hne]; [subst x; right; exact Hd|].
+      rewrite upd_other in H by exact Hne. right. exact H.
+  - intros x Hx. left. destruct (Nat.eq_dec x d) as [Heq|Hne]; [subst x; exact Hd|].
+    rewrite upd_other in Hx by exact Hne. exact Hx.
+  - apply le_n.
 Qed.
 
 Lemma schedule_work_evol prio d p p' : schedule_work g prio d p = Ok p' -> evol p p'.
 Proof.
   unfold schedule_work. destruct (p_want p d) as [[| |]|] eqn:Ew; try discriminate.
-  - assert (H : evol p (set_want p (upd (p_want p) d (Some WToFinish)))).
-    { constructor; psimpl; try (intros x Hx; try left; exact Hx); [|reflexivity].
-      intros x. unfold upd. destruct (Nat.eqb_spec x d) as [->|Hne]; [right; left; split; [exact Ew|reflexivity]|left; reflexivity]. }
+  - assert (H : evol p (set_oready (set_want p (upd (p_want p) d (Some WToFinish))) (p_oready p))).
+    { apply evol_upd.
+      - congruence.
+      - unfold is_wanted. rewrite upd_same, Ew. reflexivity.
+      - discriminate.
+      - intros x Hx. exact Hx.
+      - intros x Hx. left. exact Hx.
+      - left. discriminate. }
     destruct (Nat.eqb (depth g (pool g d)) 0); intros H'; injection H' as <-.
     + apply (evolf_fields _ _ _ _ _ H); reflexivity.
     + apply retrieve_evolf. apply (evolf_fields _ _ _ _ _ H); reflexivity.
   - intros H. injection H as <-. apply evol_refl.
 Qed.
 
-Lemma ef_evol_all fuel :
-  (forall prio d p p', p_want p d = Some WNothing ->
-     edge_finished fuel g cfg prio d true false p = Ok p' -> evol p p') /\
-  (forall prio l p p', fold_res (visit fuel prio) l p = Ok p' -> evol p p').
+Lemma count_le (f f' : nat -> bool) l : (forall x, f' x = true -> f x = true) -> count_if f' l <= count_if f l.
 Proof.
-  assert (Hfold : forall fuel,
-    (forall prio d p p', p_want p d = Some WNothing ->
-       edge_finished fuel g cfg prio d true false p = Ok p' -> evol p p') ->
-    forall prio l p p', fold_res (visit fuel prio) l p = Ok p' -> evol p p').
-  { intros f Hrec prio l. induction l as [|d l IH]; intros p p' Hf; cbn [fold_res] in Hf.
-    - injection Hf as <-. apply evol_refl.
-    - destruct (visit f prio d p) as [p1| |] eqn:Ev; try discriminate.
-      apply (evol_trans p p1 p'); [|apply IH; exact Hf].
-      unfold visit in Ev. destruct (p_want p d) as [wd|] eqn:Ewd; [|injection Ev as <-; apply evol_refl].
-      destruct (all_inputs_ready g p d); [|injection Ev as <-; apply evol_refl].
-      destruct wd; cbn [want_eqb] in Ev.
-      + apply (Hrec prio d p p1 Ewd Ev).
-      + apply (schedule_work_evol prio d p p1 Ev).
-      + apply (schedule_work_evol prio d p p1 Ev). }
-  induction fuel as [|fuel [IH1 IH2]].
-  - assert (H0 : forall prio d p p', p_want p d = Some WNothing ->
-       edge_finished 0 g cfg prio d true false p = Ok p' -> evol p p') by (intros prio d p p' _ H; discriminate H).
-    split; [exact H0|apply Hfold; exact H0].
-  - assert (H1 : forall prio d p p', p_want p d = Some WNothing ->
-       edge_finished (S fuel) g cfg prio d true false p = Ok p' -> evol p p').
-    { intros prio d p p' Hw Hef. rewrite (ef_nothing_eq fuel prio d p Hw) in Hef.
-      refine (evolf_trans _ _ _ _ _ _ (IH2 prio _ _ _ Hef)).
-      apply retrieve_evolf. constructor; psimpl.
-      - intros x. unfold upd. destruct (Nat.eqb_spec x d) as [->|Hne]; [|left; reflexivity].
-        right. right. split; [exact Hw|split; reflexivity].
-      - intros x. unfold upd. destruct (Nat.eqb_spec x d) as [->|Hne]; [intros _; right; exact Hw|intros H; left; exact H].
-      - intros x Hx. unfold upd. destruct (Nat.eqb x d); [reflexivity|exact Hx].
-      - reflexivity. }
-    split; [exact H1|apply Hfold; exact H1].
+  intros H. unfold count_if. induction l as [|x l IH]; cbn [filter]; [lia|].
+  destruct (f' x) eqn:E'; [rewrite (H x E'); cbn [length]; lia|].
+  destruct (f x); cbn [length]; lia.
 Qed.
 
-Lemma ef_top_evol fuel prio e succ p p' w : p_want p e = Some w -> w <> WNothing ->
-  edge_finished fuel g cfg prio e succ true p = Ok p' ->
+Lemma apply_load_evol e p p5 walk : pinv QT [] [] [] p \/ True ->
+  (forall x, p_want p x <> None -> x < n_edges g) ->
+  apply_load g loads e p = Ok (p5, walk) -> evol p p5.
+Proof.
+  intros _ Hr Hl. destruct (apply_load_cases e p p5 walk Hl) as [[_ [-> _]]|[_ [HK [L [HL [_ [C1 _]]]]]]].
+  - apply evol_refl.
+  - destruct HK as [K1 K2 K3 K4 K5 K6 K7].
+    unfold chk_evol in C1. apply andb_true_iff in C1. destruct C1 as [C1 Cle].
+    apply andb_true_iff in C1. destruct C1 as [C1 Cc].
+    apply andb_true_iff in C1. destruct C1 as [C1 Cw]. apply Nat.eqb_eq in Cc. apply Nat.leb_le in Cle.
+    assert (Hx3 : forall x, x < n_edges g ->
+      (match p_want p x, p_want p5 x with
+       | None, None => true
+       | Some a, Some b => want_eqb a b || (want_eqb a WNothing && want_eqb b WToStart)
+       | None, Some b => negb (want_eqb b WToFinish) && negb (p_oready p5 x)
+                         && (want_eqb b WToStart || existsb (fun a => Nat.eqb (fst a) x && negb (snd a)) (ld_added L))
+       | Some _, None => false
+       end = true) /\
+      (negb (p_oready p5 x) || p_oready p x || is_nothing (p_want p x) || memb x (ld_ready L) = true)).
+    { intros x Hx. pose proof (forallb_all_edges _ C1 x Hx) as H. cbn beta in H.
+      apply andb_true_iff in H. destruct H as [H H3]. apply andb_true_iff in H. destruct H as [H1 _].
+      split; assumption. }
+    constructor.
+    + exact K6.
+    + intros x Hx. destruct (lt_dec x (n_edges g)) as [Hxn|Hxn].
+      * destruct (Hx3 x Hxn) as [_ H]. rewrite Hx in H. cbn [negb orb] in H.
+        apply orb_true_iff in H. destruct H as [H|H].
+        -- apply orb_true_iff in H. destruct H as [H|H]; [left; exact H|right; left; apply is_nothing_eq; exact H].
+        -- right. right. left. exists e, L. split; [exact HL|apply memb_In; exact H].
+      * left. destruct (K7 x) as [_ H]; [lia|]. rewrite <- H. exact Hx.
+    + intros x Hx. destruct (lt_dec x (n_edges g)) as [Hxn|Hxn].
+      * destruct (Hx3 x Hxn) as [H _]. rewrite Hx in H. destruct (p_want p x) as [a|].
+        -- left. destruct a; cbn in H; try discriminate. reflexivity.
+        -- right. cbn [want_eqb negb andb orb] in H. apply andb_true_iff in H. destruct H as [_ H].
+           apply existsb_exists in H. destruct H as [[y b] [Hy H]]. cbn [fst snd] in H.
+           apply andb_true_iff in H. destruct H as [H1 H2]. apply Nat.eqb_eq in H1. subst y.
+           destruct b; [discriminate|]. exists e, L. split; assumption.
+      * left. destruct (K7 x) as [H _]; [lia|]. rewrite <- H. exact Hx.
+    + exact Cc.
+    + intros x [Hx|Hx].
+      * left. destruct (p_oready p x) eqn:E; [|reflexivity]. rewrite (K6 x E) in Hx. discriminate.
+      * destruct (lt_dec x (n_edges g)) as [Hxn|Hxn].
+        -- destruct (Hx3 x Hxn) as [H _]. destruct (p_want p x) as [a|]; [right; discriminate|].
+           destruct (p_want p5 x) as [b|]; [|congruence]. left.
+           apply andb_true_iff in H. destruct H as [H _]. apply andb_true_iff in H. destruct H as [_ H].
+           apply negb_true_iff in H. destruct (p_oready p x) eqn:E; [|reflexivity]. rewrite (K6 x E) in H. discriminate.
+        -- right. destruct (K7 x) as [H _]; [lia|]. rewrite <- H. exact Hx.
+    + intros x Hx. destruct (lt_dec x (n_edges g)) as [Hxn|Hxn]; [right; exact Hxn|].
+      left. destruct (K7 x) as [H _]; [lia|]. rewrite <- H. exact Hx.
+    + exact Cle.
+Qed.
+
+Definition rec_evol (fuel : nat) : Prop :=
+  forall prio d p p', (forall x, p_want p x <> None -> x < n_edges g) -> p_want p d = Some WNothing ->
+    edge_finished fuel g cfg prio loads d true false p = Ok p' -> evol p p'.
+Definition fold_evol (fuel : nat) : Prop :=
+  forall prio l p p', (forall x, p_want p x <> None -> x < n_edges g) ->
+    fold_res (visit fuel prio) l p = Ok p' -> evol p p'.
+
+Lemma evol_range p p' : evol p p' -> (forall x, p_want p x <> None -> x < n_edges g) ->
+  forall x, p_want p' x <> None -> x < n_edges g.
+Proof. intros He Hr x Hx. destruct (ev_range _ _ _ _ He x Hx) as [H|H]; [apply Hr; exact H|exact H]. Qed.
+
+Lemma fold_evol_of_rec fuel : rec_evol fuel -> fold_evol fuel.
+Proof.
+  intros Hrec prio l. induction l as [|d l IH]; intros p p' Hr Hf; cbn [fold_res] in Hf.
+  - injection Hf as <-. apply evol_refl.
+  - destruct (visit fuel prio d p) as [p1| |] eqn:Ev; try discriminate.
+    assert (He : evol p p1).
+    { unfold visit in Ev. destruct (p_want p d) as [wd|] eqn:Ewd; [|injection Ev as <-; apply evol_refl].
+      destruct (all_inputs_ready g p d); [|injection Ev as <-; apply evol_refl].
+      destruct wd; cbn [want_eqb] in Ev.
+      + apply (Hrec prio d p p1 Hr Ewd Ev).
+      + apply (schedule_work_evol prio d p p1 Ev).
+      + apply (schedule_work_evol prio d p p1 Ev). }
+    apply (evol_trans p p1 p'); [exact He|]. apply IH; [apply (evol_range p p1 He Hr)|exact Hf].
+Qed.
+
+Lemma after_done_evol fuel prio e p4 p' : fold_evol fuel ->
+  (forall x, p_want p4 x <> None -> x < n_edges g) ->
+  after_done fuel prio e p4 = Ok p' -> evol p4 p'.
+Proof.
+  intros Hfold Hr H. unfold after_done in H.
+  destruct (apply_load g loads e p4) as [[p5 walk]| |] eqn:El; try discriminate.
+  pose proof (apply_load_evol e p4 p5 walk (or_intror I) Hr El) as He.
+  apply (evol_trans p4 p5 p'); [exact He|]. apply (Hfold prio (walk ++ cons_at g p5 e) p5 p'); [apply (evol_range p4 p5 He Hr)|exact H].
+Qed.
+
+Lemma rec_evol_of_fold fuel : fold_evol fuel -> rec_evol (S fuel).
+Proof.
+  intros Hfold prio d p p' Hr Hw Hef. rewrite (ef_nothing_eq fuel prio d p Hw) in Hef.
+  set (pm := mkPlan _ _ _ _ _ _ _ _ _) in Hef.
+  assert (Hm : evol p pm).
+  { apply (evolf_fields _ _ _ (set_oready (set_want p (upd (p_want p) d None)) (upd (p_oready p) d true))); try reflexivity.
+    apply evol_upd.
+    - congruence.
+    - unfold is_wanted. rewrite upd_same, Hw. reflexivity.
+    - discriminate.
+    - intros x Hx. unfold upd. destruct (Nat.eqb x d); [reflexivity|exact Hx].
+    - intros x. unfold upd. destruct (Nat.eqb_spec x d) as [->|Hne]; [intros _; right; split; [reflexivity|exact Hw]|intros H; left; exact H].
+    - right. apply upd_same. }
+  assert (Hm' : evol p (retrieve g prio (pool g d) pm)) by (apply retrieve_evolf; exact Hm).
+  apply (evol_trans p _ p' Hm').
+  apply (after_done_evol fuel prio d _ p' Hfold); [apply (evol_range p _ Hm' Hr)|exact Hef].
+Qed.
+
+Lemma ef_evol_all fuel : rec_evol fuel /\ fold_evol fuel.
+Proof.
+  induction fuel as [|fuel [IH1 IH2]].
+  - assert (H0 : rec_evol 0) by (intros prio d p p' _ _ H; discriminate H).
+    split; [exact H0|apply fold_evol_of_rec; exact H0].
+  - pose proof (rec_evol_of_fold fuel IH2) as H. split; [exact H|apply fold_evol_of_rec; exact H].
+Qed.
+
+Lemma ef_top_evol fuel prio e succ p p' w :
+  (forall x, p_want p x <> None -> x < n_edges g) -> p_want p e = Some w -> w <> WNothing ->
+  edge_finished fuel g cfg prio loads e succ true p = Ok p' ->
   if succ then evolf (upd (p_want p) e None) (upd (p_oready p) e true) (p_commands p) p'
   else evol p p'.
 Proof.
-  intros Hw Hn Hef. destruct fuel as [|fuel]; [discriminate Hef|].
+  intros Hr Hw Hn Hef. destruct fuel as [|fuel]; [discriminate Hef|].
   rewrite (ef_top_eq fuel prio e succ p w Hw Hn) in Hef.
   destruct (rel_use p (pool g e)) as [u|]; [|discriminate].
   destruct (rel_tok p) as [t|]; [|discriminate].
   destruct succ; cbn [negb] in Hef.
   - destruct (p_wanted p) as [|n]; [discriminate|].
     destruct (ef_evol_all fuel) as [_ Hfold].
-    refine (evolf_trans _ _ _ _ _ _ (Hfold prio _ _ _ Hef)).
-    apply retrieve_evolf. constructor; psimpl; try (intros x Hx; try left; exact Hx); [|reflexivity].
-    intros x. left. reflexivity.
-  - injection Hef as <-. apply retrieve_evolf. constructor; psimpl; try (intros x Hx; try left; exact Hx); [|reflexivity].
-    intros x. left. reflexivity.
+    set (pm := mkPlan _ _ _ _ _ _ _ _ _) in Hef.
+    assert (Hm : evolf (upd (p_want p) e None) (upd (p_oready p) e true) (p_commands p) pm).
+    { apply evolf_self; reflexivity. }
+    assert (Hrm : forall x, p_want (retrieve g prio (pool g e) pm) x <> None -> x < n_edges g).
+    { intros x. rewrite retrieve_want. unfold pm. psimpl. unfold upd. destruct (Nat.eqb x e); [congruence|apply Hr]. }
+    refine (evolf_trans _ _ _ _ _ (retrieve_evolf _ _ _ prio (pool g e) pm Hm) _).
+    apply (after_done_evol fuel prio e _ p' Hfold Hrm Hef).
+  - injection Hef as <-. apply retrieve_evolf. apply evolf_self; reflexivity.
 Qed.
 
-Lemma evolf_is_wanted w o c p' : evolf w o c p' -> forall x, is_wanted (p_want p') x = is_wanted w x.
+Lemma ef_top_failure_fields fuel prio e p p' w : p_want p e = Some w -> w <> WNothing ->
+  edge_finished fuel g cfg prio loads e false true p = Ok p' ->
+  p_commands p' = p_commands p /\ p_want p' = p_want p /\ p_oready p' = p_oready p.
 Proof.
-  intros [A1 _ _ _] x. unfold is_wanted.
-  destruct (A1 x) as [Ha|[[Ha1 Ha2]|[Ha1 [Ha2 _]]]]; [rewrite Ha; reflexivity|rewrite Ha1, Ha2; reflexivity|rewrite Ha1, Ha2; reflexivity].
+  intros Hw Hn Hef. destruct fuel as [|fuel]; [discriminate Hef|].
+  rewrite (ef_top_eq fuel prio e false p w Hw Hn) in Hef.
+  destruct (rel_use p (pool g e)) as [u|]; [|discriminate].
+  destruct (rel_tok p) as [t|]; [|discriminate]. cbn [negb] in Hef. injection Hef as <-.
+  rewrite retrieve_commands, retrieve_want, retrieve_oready. repeat split.
+Qed.
+
+(* between the calls of EdgeFinished nothing is exempt and no clean dependent waits to be checked off:
+   the invariant has its strict form *)
+Lemma no_Z A F p : pinv QT [] A F p -> forall z, ~ Zp p z.
+Proof.
+  intros HI. assert (H : forall n z, rank z < n -> ~ Zp p z).
+  { induction n as [|n IH]; intros z Hz [Ho Hw]; [lia|].
+    pose proof (pi_oready_closed _ _ _ _ _ HI z Ho) as Ha.
+    destruct (pi_nothing _ _ _ _ _ HI z Hw Ha) as [[]|[i [Hi Hzi]]].
+    apply (IH i); [|exact Hzi]. pose proof (wg_rank_at g rank p z i Hwf Hi). lia. }
+  intros z. apply (H (S (rank z))). lia.
+Qed.
+
+Lemma pinv_top_oready A F p : pinv QT [] A F p -> forall e, p_oready p e = true -> p_want p e = None.
+Proof.
+  intros HI e He. destruct (pi_oready _ _ _ _ _ HI e He) as [H|H]; [exact H|].
+  exfalso. apply (no_Z A F p HI e). split; assumption.
+Qed.
+
+Lemma pinv_top_tostart A F p : pinv QT [] A F p -> forall e, p_want p e = Some WToStart ->
+  all_inputs_ready g p e = true -> False.
+Proof.
+  intros HI e Hw Ha. destruct (pi_tostart _ _ _ _ _ HI e Hw Ha) as [H|[[]|[i [_ Hz]]]].
+  - rewrite (pi_sched_f _ _ _ _ _ HI e H) in Hw. discriminate.
+  - apply (no_Z A F p HI i Hz).
+Qed.
+
+Lemma pinv_top_nothing A F p : pinv QT [] A F p -> forall e, p_want p e = Some WNothing ->
+  all_inputs_ready g p e = true -> False.
+Proof.
+  intros HI e Hw Ha. destruct (pi_nothing _ _ _ _ _ HI e Hw Ha) as [[]|[i [_ Hz]]].
+  apply (no_Z A F p HI i Hz).
 Qed.
 
 (* ------------------------------------------------------------------ the state invariant *)
 Hypothesis Hk : 0 < c_k cfg.
 Hypothesis Hj : 0 < c_j cfg.
-
-Lemma count_same (f f' : nat -> bool) l : (forall x, In x l -> f' x = f x) -> count_if f' l = count_if f l.
-Proof. intros H. unfold count_if. f_equal. apply filter_ext_in. exact H. Qed.
 
 Lemma count_flip (f f' : nat -> bool) d l : NoDup l -> In d l -> f d = true -> f' d = false ->
   (forall x, x <> d -> f' x = f x) -> count_if f l = S (count_if f' l).
@@ -1282,9 +1838,7 @@ Proof.
   destruct (filter f l); [destruct H|cbn [length]; lia].
 Qed.
 
-Definition npwf (w : nat -> option want_t) : nat :=
-  count_if (fun e => is_wanted w e && negb (phony g e)) (all_edges g).
-Definition npw (p : plan) : nat := npwf (p_want p).
+Definition npw (p : plan) : nat := npwf g (p_want p).
 
 Record core (s : state) : Prop := {
   co_pinv : pinv QT [] (s_running s) (s_failed s) (s_plan s);
@@ -1332,7 +1886,7 @@ Proof.
   pose proof HI as [I1 I2 I3 I4 I5 I6 I7 I8 I9 I10 I11 I12 I13 I14 I15 I16].
   assert (H : forall t, t = tok (e :: U) ->
     pinv QT [] (e :: U) F (mkPlan (p_want p) (rem e (p_ready p)) (p_delayed p) (p_use p) (p_wanted p)
-                                  (p_commands p) (p_oready p) t)).
+                                  (p_commands p) (p_oready p) t (p_loaded p))).
   { intros t Ht. apply (pinv_reshape QT QT [] U F (e :: U) F (rem e (p_ready p)) (p_use p) t p HI).
     - unfold sched. rewrite (rem_perm e (p_ready p) HndR Hin) at 2. cbn [app].
       rewrite (Permutation_middle (rem e (p_ready p))). apply Permutation_app_head.
@@ -1362,16 +1916,20 @@ Proof.
   assert (Hwe : p_want p' e = Some WNothing) by (unfold p'; psimpl; apply upd_same).
   assert (Hair : forall x, all_inputs_ready g p' x = all_inputs_ready g p x) by reflexivity.
   assert (Hs : sched p' A F = sched p A F) by reflexivity.
+  assert (Hz : forall x, zprod p x -> zprod p' x).
+  { intros x [i [Hi [Ho Hwi]]]. exists i. split; [exact Hi|]. split; [exact Ho|].
+    rewrite Hwant; [exact Hwi|]. intros ->. congruence. }
   constructor; try rewrite Hs; try assumption.
   - intros x Hx. destruct (I2 x Hx) as [H1 H2]. split; [|exact H2].
     unfold is_wanted. rewrite Hwant; [exact H1|]. intros ->. exact (Hns Hx).
   - intros x Hx. destruct (Nat.eq_dec x e) as [->|Hne]; [congruence|]. rewrite Hwant in Hx by exact Hne. apply I3. exact Hx.
-  - intros x Hx Hax. destruct (Nat.eq_dec x e) as [->|Hne]; [congruence|]. rewrite Hwant in Hx by exact Hne. apply I4; assumption.
+  - intros x Hx Hax. destruct (Nat.eq_dec x e) as [->|Hne]; [congruence|]. rewrite Hwant in Hx by exact Hne.
+    destruct (I4 x Hx Hax) as [H|[H|H]]; [left; exact H|right; left; exact H|right; right; apply Hz; exact H].
   - intros x Hx Hax. destruct (Nat.eq_dec x e) as [->|Hne]; [rewrite Hair in Hax; congruence|].
-    rewrite Hwant in Hx by exact Hne. apply I5; assumption.
+    rewrite Hwant in Hx by exact Hne. destruct (I5 x Hx Hax) as [H|H]; [left; exact H|right; apply Hz; exact H].
   - intros x [].
   - intros x Hx. destruct (Nat.eq_dec x e) as [->|Hne].
-    + change (p_oready p e = true) in Hx. rewrite (I7 e Hx) in Hw. discriminate.
+    + change (p_oready p e = true) in Hx. destruct (I7 e Hx) as [H|H]; rewrite H in Hw; discriminate.
     + rewrite Hwant by exact Hne. apply I7. exact Hx.
   - intros x i Hx Hi Ho.
     assert (Hx' : p_want p x <> None) by (destruct (Nat.eq_dec x e) as [->|Hne]; [congruence|rewrite <- Hwant by exact Hne; exact Hx]).
@@ -1385,13 +1943,8 @@ Proof.
   - intros x Hx. rewrite Hwant; [apply I16; exact Hx|]. intros ->. exact (Hns Hx).
 Qed.
 
-Lemma npw_evolf w o c p' : evolf w o c p' -> npw p' = npwf w.
-Proof.
-  intros H. unfold npw, npwf. apply count_same. intros x _. rewrite (evolf_is_wanted w o c p' H). reflexivity.
-Qed.
-
 Lemma npwf_erase w e : e < n_edges g -> is_wanted w e = true ->
-  npwf w = (if phony g e then 0 else 1) + npwf (upd w e None).
+  npwf g w = (if phony g e then 0 else 1) + npwf g (upd w e None).
 Proof.
   intros Hlt Hw. unfold npwf. destruct (phony g e) eqn:Eph.
   - cbn [plus]. symmetry. apply count_same. intros x _. unfold is_wanted, upd.
@@ -1406,7 +1959,7 @@ Lemma in_build_true s : in_build s = true -> s_phase s = PhBuild.
 Proof. unfold in_build. destruct (s_phase s); [reflexivity|discriminate|discriminate]. Qed.
 
 Lemma core_start s e prio s' : core s ->
-  step_res g cfg s (EvStart e prio) = Ok s' -> core s' /\ s_phase s' = PhBuild.
+  step_res g cfg loads s (EvStart e prio) = Ok s' -> core s' /\ s_phase s' = PhBuild.
 Proof.
   intros C Hst. cbn [step_res] in Hst.
   destruct (in_build s && negb (s_waiting s) && more_to_do (s_plan s) && (0 <? s_fa s)
@@ -1425,7 +1978,7 @@ Proof.
     apply Nat.ltb_lt in G2. unfold set_tokens, set_ready. psimpl. lia. }
   unfold capacity in G1.
   destruct (phony g e) eqn:Eph.
-  - destruct (edge_finished (plan_fuel g) g cfg prio e true true p2) as [p3| |] eqn:Eef; try discriminate.
+  - destruct (edge_finished (plan_fuel g) g cfg prio loads e true true p2) as [p3| |] eqn:Eef; try discriminate.
     injection Hst as <-. split; [|exact G].
     pose proof (ef_top_success _ _ _ _ _ _ _ HP (or_introl eq_refl) Eef) as HP3.
     assert (Hne : ~ In e (s_running s)).
@@ -1436,15 +1989,16 @@ Proof.
     destruct (pi_sched _ _ _ _ _ HP e (in_sched_A p2 (e :: s_running s) (s_failed s) e (or_introl eq_refl))) as [Hw _].
     unfold is_wanted in Hw. destruct (p_want p2 e) as [w|] eqn:Ew; [|discriminate].
     assert (Hwn : w <> WNothing) by (intros ->; discriminate).
-    pose proof (ef_top_evol _ _ _ true _ _ w Ew Hwn Eef) as Hev. cbn in Hev.
+    pose proof (ef_top_evol _ _ _ true _ _ w (pi_range _ _ _ _ _ HP) Ew Hwn Eef) as Hev. cbn in Hev.
+    assert (Hlt : e < n_edges g) by (apply (pi_range _ _ _ _ _ HP); congruence).
+    assert (Hiw : is_wanted (p_want p2) e = true) by (unfold is_wanted; rewrite Ew; destruct w; [congruence|reflexivity|reflexivity]).
+    pose proof (npwf_erase (p_want p2) e Hlt Hiw) as Hn. rewrite Eph in Hn. cbn [plus] in Hn.
+    pose proof (ev_balance _ _ _ _ Hev) as Hb. pose proof (ev_cmd_le _ _ _ _ Hev) as Hle.
     destruct C as [C1 C2 C3 C4 C5 C6 C7 C8 C9 C10 C11 C12 C13 C14].
-    constructor; unfold set_plan; cbn [s_plan s_running s_pending s_fa s_exit s_total s_started s_finished s_failed s_waiting s_phase]; try assumption.
-    + rewrite (ev_commands _ _ _ _ Hev), Hp2c. rewrite (npw_evolf _ _ _ _ Hev).
-      assert (Hlt : e < n_edges g) by (apply (pi_range _ _ _ _ _ HP); congruence).
-      assert (Hiw : is_wanted (p_want p2) e = true) by (unfold is_wanted; rewrite Ew; destruct w; [congruence|reflexivity|reflexivity]).
-      pose proof (npwf_erase (p_want p2) e Hlt Hiw) as Hn. rewrite Eph in Hn. cbn [plus] in Hn.
-      rewrite <- Hn. unfold npw in C4. rewrite Hp2w. exact C4.
-    + rewrite (ev_commands _ _ _ _ Hev), Hp2c. exact C5.
+    unfold npw in *. rewrite Hp2w in *.
+    constructor; cbn [s_plan s_running s_pending s_fa s_exit s_total s_started s_finished s_failed s_waiting s_phase]; try assumption.
+    + unfold npw. lia.
+    + lia.
     + pose proof (pi_tokens _ _ _ _ _ HP3) as Ht3. pose proof (pi_tokens _ _ _ _ _ C1) as Ht.
       destruct (c_jobserver cfg); [|exact I]. lia.
   - injection Hst as <-. split; [|exact G].
@@ -1459,7 +2013,7 @@ Proof.
     + discriminate.
 Qed.
 
-Lemma core_wait s s' : core s -> step_res g cfg s EvWait = Ok s' -> core s' /\ s_phase s' = PhBuild.
+Lemma core_wait s s' : core s -> step_res g cfg loads s EvWait = Ok s' -> core s' /\ s_phase s' = PhBuild.
 Proof.
   intros C Hst. cbn [step_res] in Hst.
   destruct (in_build s && negb (s_waiting s) && more_to_do (s_plan s) && (0 <? s_pending s)
@@ -1472,7 +2026,7 @@ Proof.
   intros _ Hnil. rewrite Hnil in C2. cbn [length] in C2. lia.
 Qed.
 
-Lemma core_prune s e s' : core s -> step_res g cfg s (EvPrune e) = Ok s' -> core s' /\ s_phase s' = PhBuild.
+Lemma core_prune s e s' : core s -> step_res g cfg loads s (EvPrune e) = Ok s' -> core s' /\ s_phase s' = PhBuild.
 Proof.
   intros C Hst. cbn [step_res] in Hst.
   destruct (in_build s && s_waiting s
@@ -1510,7 +2064,7 @@ Proof.
 Qed.
 
 Lemma core_finish s e code prio s' : core s ->
-  step_res g cfg s (EvFinish e code prio) = Ok s' -> core s' /\ s_phase s' = PhBuild.
+  step_res g cfg loads s (EvFinish e code prio) = Ok s' -> core s' /\ s_phase s' = PhBuild.
 Proof.
   intros C Hst. cbn [step_res] in Hst.
   destruct (in_build s && s_waiting s && memb e (s_running s) && negb (Nat.eqb code exit_interrupted)) eqn:G;
@@ -1528,35 +2082,38 @@ Proof.
   assert (Hph : phony g e = false) by (apply (co_nophony s C); apply in_or_app; left; exact G1).
   destruct C as [C1 C2 C3 C4 C5 C6 C7 C8 C9 C10 C11 C12 C13 C14].
   destruct (Nat.eqb_spec code 0) as [Hc0|Hc0].
-  - destruct (edge_finished (plan_fuel g) g cfg prio e true true (s_plan s)) as [p'| |] eqn:Eef; try discriminate.
+  - destruct (edge_finished (plan_fuel g) g cfg prio loads e true true (s_plan s)) as [p'| |] eqn:Eef; try discriminate.
     injection Hst as <-. split; [|exact G].
     pose proof (ef_top_success _ _ _ _ _ _ _ HP G1 Eef) as HP'.
-    pose proof (ef_top_evol _ _ _ true _ _ w Ew Hwn Eef) as Hev. cbn in Hev.
+    pose proof (ef_top_evol _ _ _ true _ _ w (pi_range _ _ _ _ _ HP) Ew Hwn Eef) as Hev. cbn in Hev.
     pose proof (npwf_erase _ e Hlt Hiw) as Hn. rewrite Hph in Hn.
+    pose proof (ev_balance _ _ _ _ Hev) as Hb. pose proof (ev_cmd_le _ _ _ _ Hev) as Hle.
+    unfold npw in *.
     constructor; cbn [s_plan s_running s_pending s_fa s_exit s_total s_started s_finished s_failed s_waiting s_phase]; try assumption.
     + lia.
     + intros x Hx. apply C3. apply in_app_or in Hx. apply in_or_app.
       destruct Hx as [Hx|Hx]; [left; apply rem_In in Hx; tauto|right; exact Hx].
-    + rewrite (ev_commands _ _ _ _ Hev). rewrite (npw_evolf _ _ _ _ Hev). unfold npw in C4. lia.
-    + rewrite (ev_commands _ _ _ _ Hev). exact C5.
+    + unfold npw. lia.
+    + lia.
     + lia.
     + lia.
     + lia.
     + pose proof (pi_tokens _ _ _ _ _ HP') as Ht3. pose proof (pi_tokens _ _ _ _ _ C1) as Ht.
       destruct (c_jobserver cfg); [|exact I]. lia.
     + discriminate.
-  - destruct (edge_finished (plan_fuel g) g cfg prio e false true (s_plan s)) as [p'| |] eqn:Eef; try discriminate.
+  - destruct (edge_finished (plan_fuel g) g cfg prio loads e false true (s_plan s)) as [p'| |] eqn:Eef; try discriminate.
     injection Hst as <-. split; [|exact G].
     pose proof (ef_top_failure _ _ _ _ _ _ _ HP G1 Eef) as HP'.
-    pose proof (ef_top_evol _ _ _ false _ _ w Ew Hwn Eef) as Hev. cbn in Hev.
+    destruct (ef_top_failure_fields _ _ _ _ _ w Ew Hwn Eef) as [Hfc [Hfw _]].
+    unfold npw in *.
     constructor; cbn [s_plan s_running s_pending s_fa s_exit s_total s_started s_finished s_failed s_waiting s_phase]; try assumption.
     + lia.
     + intros x Hx. apply in_app_or in Hx. destruct Hx as [Hx|[<-|Hx]].
       * apply C3. apply in_or_app. left. apply rem_In in Hx. tauto.
       * exact Hph.
       * apply C3. apply in_or_app. right. exact Hx.
-    + rewrite (ev_commands _ _ _ _ Hev). rewrite (npw_evolf _ _ _ _ Hev). unfold npw in C4. cbn [length]. fold (npwf (p_want (s_plan s))). lia.
-    + rewrite (ev_commands _ _ _ _ Hev). exact C5.
+    + unfold npw. rewrite Hfc, Hfw. cbn [length]. lia.
+    + rewrite Hfc. exact C5.
     + lia.
     + cbn [length]. lia.
     + lia.
@@ -1602,10 +2159,10 @@ Proof.
   - destruct (c_jobserver cfg); [lia|exact I].
 Qed.
 
-Lemma sinv_step s ev s' : sinv s -> step g cfg s ev = Some s' -> sinv s'.
+Lemma sinv_step s ev s' : sinv s -> step g cfg loads s ev = Some s' -> sinv s'.
 Proof.
   intros [Hcore Hlim] Hst. unfold step in Hst.
-  destruct (step_res g cfg s ev) as [s1| |] eqn:E; try discriminate. injection Hst as <-.
+  destruct (step_res g cfg loads s ev) as [s1| |] eqn:E; try discriminate. injection Hst as <-.
   destruct (s_phase s) eqn:Eph.
   - specialize (Hcore eq_refl).
     destruct ev as [e prio| |e|e code prio| |code m].
@@ -1627,11 +2184,11 @@ Proof.
       cbn [andb] in E; discriminate.
 Qed.
 
-Lemma sinv_accepts evs : forall s s', sinv s -> accepts g cfg s evs = Some s' -> sinv s'.
+Lemma sinv_accepts evs : forall s s', sinv s -> accepts g cfg loads s evs = Some s' -> sinv s'.
 Proof.
   induction evs as [|ev evs IH]; intros s s' HI Ha; cbn [accepts] in Ha.
   - injection Ha as <-. exact HI.
-  - destruct (step g cfg s ev) as [s1|] eqn:E; [|discriminate].
+  - destruct (step g cfg loads s ev) as [s1|] eqn:E; [|discriminate].
     apply (IH s1 s'); [apply (sinv_step s ev s1 HI E)|exact Ha].
 Qed.
 
@@ -1640,46 +2197,46 @@ Proof.
   intros Hws. pose proof (core_init prio sn Hws) as C. split; [intros _; exact C|apply core_lim; exact C].
 Qed.
 
-Theorem sinv_run prio sn evs s : wf_snap sn -> run g cfg prio sn evs = Some s -> sinv s.
+Theorem sinv_run prio sn evs s : wf_snap sn -> run g cfg loads prio sn evs = Some s -> sinv s.
 Proof. intros Hws Hr. apply (sinv_accepts evs _ s (sinv_init prio sn Hws) Hr). Qed.
 
 (* ------------------------------------------------------------------ traces *)
 Lemma accepts_app evs1 : forall s evs2,
-  accepts g cfg s (evs1 ++ evs2) =
-  match accepts g cfg s evs1 with Some s1 => accepts g cfg s1 evs2 | None => None end.
+  accepts g cfg loads s (evs1 ++ evs2) =
+  match accepts g cfg loads s evs1 with Some s1 => accepts g cfg loads s1 evs2 | None => None end.
 Proof.
   induction evs1 as [|ev evs1 IH]; intros s evs2; cbn [app accepts]; [reflexivity|].
-  destruct (step g cfg s ev); [apply IH|reflexivity].
+  destruct (step g cfg loads s ev); [apply IH|reflexivity].
 Qed.
 
 Definition reachable (s : state) : Prop :=
-  exists prio sn evs, wf_snap sn /\ run g cfg prio sn evs = Some s.
+  exists prio sn evs, wf_snap sn /\ run g cfg loads prio sn evs = Some s.
 
 Lemma reachable_sinv s : reachable s -> sinv s.
 Proof. intros [prio [sn [evs [Hws Hr]]]]. apply (sinv_run prio sn evs s Hws Hr). Qed.
 
-Lemma reachable_step s ev s' : reachable s -> step g cfg s ev = Some s' -> reachable s'.
+Lemma reachable_step s ev s' : reachable s -> step g cfg loads s ev = Some s' -> reachable s'.
 Proof.
   intros [prio [sn [evs [Hws Hr]]]] Hst. exists prio, sn, (evs ++ [ev]). split; [exact Hws|].
   unfold run in *. rewrite accepts_app, Hr. cbn [accepts]. rewrite Hst. reflexivity.
 Qed.
 
-Lemma step_in_build s ev s' : step g cfg s ev = Some s' ->
+Lemma step_in_build s ev s' : step g cfg loads s ev = Some s' ->
   (forall c m, ev <> EvExit c m) -> s_phase s = PhBuild.
 Proof.
-  intros Hst Hne. unfold step in Hst. destruct (step_res g cfg s ev) as [s1| |] eqn:E; try discriminate.
+  intros Hst Hne. unfold step in Hst. destruct (step_res g cfg loads s ev) as [s1| |] eqn:E; try discriminate.
   destruct ev as [e prio| |e|e code prio| |code m]; cbn [step_res] in E;
     try (destruct (in_build s) eqn:Eb; [apply in_build_true; exact Eb|cbn [andb] in E; discriminate]).
   exfalso. apply (Hne code m). reflexivity.
 Qed.
 
-Lemma core_of_step s ev s' : sinv s -> step g cfg s ev = Some s' ->
+Lemma core_of_step s ev s' : sinv s -> step g cfg loads s ev = Some s' ->
   (forall c m, ev <> EvExit c m) -> core s.
 Proof. intros [H _] Hst Hne. apply H. apply (step_in_build s ev s' Hst Hne). Qed.
 
 (* ------------------------------------------------------------------ C04 *)
-Theorem start_inputs_ready s e prio s' : reachable s -> step g cfg s (EvStart e prio) = Some s' ->
-  forall i, In i (ins g e) -> p_oready (s_plan s) i = true.
+Theorem start_inputs_ready s e prio s' : reachable s -> step g cfg loads s (EvStart e prio) = Some s' ->
+  forall i, In i (ins_at g (s_plan s) e) -> p_oready (s_plan s) i = true.
 Proof.
   intros Hr Hst i Hi.
   assert (C : core s) by (apply (core_of_step s _ s' (reachable_sinv s Hr) Hst); intros c m; discriminate).
@@ -1696,7 +2253,7 @@ Qed.
 Theorem start_enabled s e prio :
   in_build s = true -> s_waiting s = false -> more_to_do (s_plan s) = true -> 0 < s_fa s ->
   length (s_running s) < c_j cfg -> In e (p_ready (s_plan s)) -> token_ok cfg (s_plan s) = true ->
-  phony g e = false -> exists s', step g cfg s (EvStart e prio) = Some s'.
+  phony g e = false -> exists s', step g cfg loads s (EvStart e prio) = Some s'.
 Proof.
   intros H1 H2 H3 H4 H5 H6 H7 H8. unfold step. cbn [step_res].
   rewrite H1, H2, H3, H7, H8. cbn [negb andb].
@@ -1707,15 +2264,16 @@ Proof.
 Qed.
 
 (* ------------------------------------------------------------------ C05 *)
-Inductive depends : nat -> nat -> Prop :=
-| dep_direct d e : In e (ins g d) -> depends d e
-| dep_trans d i e : In i (ins g d) -> depends i e -> depends d e.
+(* [depends p d e]: in the graph as it is in plan state p, d needs (transitively) an output of e *)
+Inductive depends (p : plan) : nat -> nat -> Prop :=
+| dep_direct d e : In e (ins_at g p d) -> depends p d e
+| dep_trans d i e : In i (ins_at g p d) -> depends p i e -> depends p d e.
 
-Lemma failed_blocks s e d : core s -> In e (s_failed s) -> depends d e ->
+Lemma failed_blocks s e d : core s -> In e (s_failed s) -> depends (s_plan s) d e ->
   all_inputs_ready g (s_plan s) d = false /\ p_oready (s_plan s) d = false.
 Proof.
   intros C He Hd. pose proof (co_pinv s C) as HP.
-  assert (Hblock : forall i x, In i (ins g x) -> p_oready (s_plan s) i = false ->
+  assert (Hblock : forall i x, In i (ins_at g (s_plan s) x) -> p_oready (s_plan s) i = false ->
             all_inputs_ready g (s_plan s) x = false /\ p_oready (s_plan s) x = false).
   { intros i x Hi Ho.
     assert (Ha : all_inputs_ready g (s_plan s) x = false).
@@ -1727,15 +2285,15 @@ Proof.
   - apply (Hblock e d Hin).
     destruct (pi_sched _ _ _ _ _ HP e (in_sched_F _ _ _ e He)) as [Hw _].
     destruct (p_oready (s_plan s) e) eqn:E; [|reflexivity].
-    unfold is_wanted in Hw. rewrite (pi_oready _ _ _ _ _ HP e E) in Hw. discriminate.
+    unfold is_wanted in Hw. rewrite (pinv_top_oready _ _ _ HP e E) in Hw. discriminate.
   - apply (Hblock i d Hin). apply (IH He).
 Qed.
 
-Lemma step_failed s ev s' : step g cfg s ev = Some s' ->
+Lemma step_failed s ev s' : step g cfg loads s ev = Some s' ->
   s_failed s' = s_failed s \/
   exists e c pr, ev = EvFinish e c pr /\ c <> 0 /\ s_failed s' = e :: s_failed s.
 Proof.
-  unfold step. destruct (step_res g cfg s ev) as [s1| |] eqn:E; try discriminate. intros H. injection H as <-.
+  unfold step. destruct (step_res g cfg loads s ev) as [s1| |] eqn:E; try discriminate. intros H. injection H as <-.
   destruct ev as [e prio| |e|e code prio| |code m]; cbn [step_res] in E.
   - match type of E with (if ?X then _ else _) = _ => destruct X; [|discriminate] end.
     destruct (phony g e).
@@ -1769,35 +2327,33 @@ Proof.
 Qed.
 
 Lemma accepts_failed_mono evs : forall s s' e,
-  accepts g cfg s evs = Some s' -> In e (s_failed s) -> In e (s_failed s').
+  accepts g cfg loads s evs = Some s' -> In e (s_failed s) -> In e (s_failed s').
 Proof.
   induction evs as [|ev evs IH]; intros s s' e Ha He; cbn [accepts] in Ha.
   - injection Ha as <-. exact He.
-  - destruct (step g cfg s ev) as [s1|] eqn:E; [|discriminate].
+  - destruct (step g cfg loads s ev) as [s1|] eqn:E; [|discriminate].
     apply (IH s1 s' e Ha). destruct (step_failed s ev s1 E) as [H|[e' [c [pr [_ [_ H]]]]]]; rewrite H; [exact He|right; exact He].
 Qed.
 
-Theorem no_dependent_started prio sn evs1 e c pr evs2 s :
-  wf_snap sn -> run g cfg prio sn (evs1 ++ EvFinish e c pr :: evs2) = Some s -> c <> 0 ->
-  forall d pr', In (EvStart d pr') evs2 -> ~ depends d e /\ d <> e.
+Theorem no_dependent_started prio sn evs1 e c pr a d pr' s3 s4 :
+  wf_snap sn -> run g cfg loads prio sn (evs1 ++ EvFinish e c pr :: a) = Some s3 -> c <> 0 ->
+  step g cfg loads s3 (EvStart d pr') = Some s4 -> ~ depends (s_plan s3) d e /\ d <> e.
 Proof.
-  intros Hws Hr Hc d pr' Hin. unfold run in Hr. rewrite accepts_app in Hr.
-  destruct (accepts g cfg (init_state g cfg prio sn) evs1) as [s1|] eqn:E1; [|discriminate].
-  cbn [accepts] in Hr. destruct (step g cfg s1 (EvFinish e c pr)) as [s2|] eqn:E2; [|discriminate].
+  intros Hws Hr Hc E4. unfold run in Hr. rewrite accepts_app in Hr.
+  destruct (accepts g cfg loads (init_state g cfg prio sn) evs1) as [s1|] eqn:E1; [|discriminate].
+  cbn [accepts] in Hr. destruct (step g cfg loads s1 (EvFinish e c pr)) as [s2|] eqn:E2; [|discriminate].
   assert (Hf2 : In e (s_failed s2)).
   { destruct (step_failed s1 _ s2 E2) as [H|[e' [c' [pr'' [Heq [_ H]]]]]].
     - exfalso. unfold step in E2. cbn [step_res] in E2.
       match type of E2 with match (if ?X then _ else _) with _ => _ end = _ => destruct X; [|discriminate] end.
       destruct (s_pending s1); [discriminate|]. destruct (Nat.eqb_spec c 0) as [H0|H0]; [contradiction|].
       match type of E2 with match (match ?X with _ => _ end) with _ => _ end = _ => destruct X; try discriminate end.
-      injection E2 as <-. cbn [s_failed] in H. clear -H. induction (s_failed s1) as [|a l IH]; [discriminate|].
-      injection H as H1 H2. subst a. apply IH. exact H2.
+      injection E2 as <-. cbn [s_failed] in H. clear -H. induction (s_failed s1) as [|x l IH]; [discriminate|].
+      injection H as H1 H2. subst x. apply IH. exact H2.
     - injection Heq as <- <- <-. rewrite H. left. reflexivity. }
   assert (HI2 : sinv s2).
   { apply (sinv_step s1 (EvFinish e c pr) s2); [|exact E2]. apply (sinv_accepts evs1 _ s1 (sinv_init prio sn Hws) E1). }
-  apply in_split in Hin. destruct Hin as [a [b Hab]]. subst evs2. rewrite accepts_app in Hr.
-  destruct (accepts g cfg s2 a) as [s3|] eqn:E3; [|discriminate].
-  cbn [accepts] in Hr. destruct (step g cfg s3 (EvStart d pr')) as [s4|] eqn:E4; [|discriminate].
+  rename Hr into E3.
   pose proof (accepts_failed_mono a s2 s3 e E3 Hf2) as Hf3.
   pose proof (sinv_accepts a s2 s3 HI2 E3) as HI3.
   assert (C3 : core s3) by (apply (core_of_step s3 _ s4 HI3 E4); intros c0 m; discriminate).
@@ -1814,6 +2370,43 @@ Proof.
     apply in_or_app. right. apply in_or_app. right. exact Hf3.
 Qed.
 
+(* dependencies that are in the graph from the start (not dyndep-discovered during this build) *)
+Definition ins_plain (d : nat) : list nat :=
+  map fst (filter (fun x => match snd x with None => true | Some _ => false end) (ei_ins (einfo g d))).
+
+Inductive depends0 : nat -> nat -> Prop :=
+| dep0_direct d e : In e (ins_plain d) -> depends0 d e
+| dep0_trans d i e : In i (ins_plain d) -> depends0 i e -> depends0 d e.
+
+Lemma ins_plain_at p d i : In i (ins_plain d) -> In i (ins_at g p d).
+Proof.
+  unfold ins_plain. rewrite in_map_iff. intros [[i' c] [E H]]. cbn [fst] in E. subst i'.
+  apply filter_In in H. destruct H as [H1 H2]. cbn [snd] in H2. destruct c; [discriminate|].
+  apply ins_at_In. exists None. split; [exact H1|reflexivity].
+Qed.
+
+Lemma depends0_at p d e : depends0 d e -> depends p d e.
+Proof.
+  induction 1 as [d e H|d i e H Hd IH].
+  - apply dep_direct. apply ins_plain_at. exact H.
+  - apply (dep_trans p d i e); [apply ins_plain_at; exact H|exact IH].
+Qed.
+
+Theorem no_dependent_started0 prio sn evs1 e c pr evs2 s :
+  wf_snap sn -> run g cfg loads prio sn (evs1 ++ EvFinish e c pr :: evs2) = Some s -> c <> 0 ->
+  forall d pr', In (EvStart d pr') evs2 -> ~ depends0 d e /\ d <> e.
+Proof.
+  intros Hws Hr Hc d pr' Hin. apply in_split in Hin. destruct Hin as [a [b Hab]]. subst evs2.
+  unfold run in Hr.
+  replace (evs1 ++ EvFinish e c pr :: a ++ EvStart d pr' :: b)
+    with ((evs1 ++ EvFinish e c pr :: a) ++ EvStart d pr' :: b) in Hr by (rewrite <- app_assoc; reflexivity).
+  rewrite accepts_app in Hr.
+  destruct (accepts g cfg loads (init_state g cfg prio sn) (evs1 ++ EvFinish e c pr :: a)) as [s3|] eqn:E3; [|discriminate].
+  cbn [accepts] in Hr. destruct (step g cfg loads s3 (EvStart d pr')) as [s4|] eqn:E4; [|discriminate].
+  destruct (no_dependent_started prio sn evs1 e c pr a d pr' s3 s4 Hws E3 Hc E4) as [H1 H2].
+  split; [|exact H2]. intros H. apply H1. apply depends0_at. exact H.
+Qed.
+
 Lemma exit_msg_eqb_eq a b : exit_msg_eqb a b = true -> a = b.
 Proof. destruct a, b; cbn; intros H; try discriminate; reflexivity. Qed.
 
@@ -1821,7 +2414,7 @@ Definition fail_msg (s : state) : exit_msg :=
   if Nat.eqb (s_fa s) 0 then MSubcommandFailed
   else if s_fa s <? c_k cfg then MCannotProgress else MStuck.
 
-Lemma exit_build s code m s' : s_phase s = PhBuild -> step g cfg s (EvExit code m) = Some s' ->
+Lemma exit_build s code m s' : s_phase s = PhBuild -> step g cfg loads s (EvExit code m) = Some s' ->
   s_waiting s = false /\ s_running s' = s_running s /\
   ((more_to_do (s_plan s) = false /\ code = 0 /\ m = MSuccess) \/
    (more_to_do (s_plan s) = true /\ s_pending s = 0 /\ can_start cfg s = false /\
@@ -1843,7 +2436,7 @@ Proof.
 Qed.
 
 Lemma exit_interrupted_phase s code m s' : s_phase s = PhInterrupted ->
-  step g cfg s (EvExit code m) = Some s' -> code = exit_interrupted /\ m = MInterrupted.
+  step g cfg loads s (EvExit code m) = Some s' -> code = exit_interrupted /\ m = MInterrupted.
 Proof.
   intros Hph Hst. unfold step in Hst. cbn [step_res] in Hst. rewrite Hph in Hst.
   destruct (Nat.eqb_spec code exit_interrupted) as [He|He]; cbn [andb] in Hst; [|discriminate].
@@ -1879,9 +2472,9 @@ Definition exit_track (x : nat) (evs : list event) : nat :=
                            | _ => acc
                            end) evs x.
 
-Lemma step_exit_code s ev s' : step g cfg s ev = Some s' -> s_exit s' = exit_track (s_exit s) [ev].
+Lemma step_exit_code s ev s' : step g cfg loads s ev = Some s' -> s_exit s' = exit_track (s_exit s) [ev].
 Proof.
-  unfold step. destruct (step_res g cfg s ev) as [s1| |] eqn:E; try discriminate. intros H. injection H as <-.
+  unfold step. destruct (step_res g cfg loads s ev) as [s1| |] eqn:E; try discriminate. intros H. injection H as <-.
   cbn [exit_track fold_left].
   destruct ev as [e prio| |e|e code prio| |code m]; cbn [step_res] in E.
   - match type of E with (if ?X then _ else _) = _ => destruct X; [|discriminate] end.
@@ -1915,11 +2508,11 @@ Proof.
     + discriminate.
 Qed.
 
-Lemma accepts_exit_code evs : forall s s', accepts g cfg s evs = Some s' -> s_exit s' = exit_track (s_exit s) evs.
+Lemma accepts_exit_code evs : forall s s', accepts g cfg loads s evs = Some s' -> s_exit s' = exit_track (s_exit s) evs.
 Proof.
   induction evs as [|ev evs IH]; intros s s' Ha; cbn [accepts] in Ha.
   - injection Ha as <-. reflexivity.
-  - destruct (step g cfg s ev) as [s1|] eqn:E; [|discriminate].
+  - destruct (step g cfg loads s ev) as [s1|] eqn:E; [|discriminate].
     rewrite (IH s1 s' Ha). rewrite (step_exit_code s ev s1 E). reflexivity.
 Qed.
 
@@ -1937,10 +2530,10 @@ Proof.
 Qed.
 
 Lemma accepts_fail_failed evs : forall s s' e c pr,
-  accepts g cfg s evs = Some s' -> In (EvFinish e c pr) evs -> c <> 0 -> s_failed s' <> [].
+  accepts g cfg loads s evs = Some s' -> In (EvFinish e c pr) evs -> c <> 0 -> s_failed s' <> [].
 Proof.
   induction evs as [|ev evs IH]; intros s s' e c pr Ha Hin Hc; [destruct Hin|].
-  cbn [accepts] in Ha. destruct (step g cfg s ev) as [s1|] eqn:E; [|discriminate].
+  cbn [accepts] in Ha. destruct (step g cfg loads s ev) as [s1|] eqn:E; [|discriminate].
   destruct Hin as [->|Hin]; [|apply (IH s1 s' e c pr Ha Hin Hc)].
   assert (Hf : In e (s_failed s1)).
   { destruct (step_failed s _ s1 E) as [H|[e' [c' [pr'' [Heq [_ H]]]]]].
@@ -1955,13 +2548,13 @@ Proof.
 Qed.
 
 Theorem exit_code_of_failure prio sn evs code m s :
-  wf_snap sn -> run g cfg prio sn (evs ++ [EvExit code m]) = Some s ->
+  wf_snap sn -> run g cfg loads prio sn (evs ++ [EvExit code m]) = Some s ->
   (exists e c pr, In (EvFinish e c pr) evs /\ c <> 0) ->
   code <> 0 /\ (m <> MInterrupted -> code = exit_track 0 evs /\ m <> MSuccess).
 Proof.
   intros Hws Hr [e [c [pr [Hin Hc]]]]. unfold run in Hr. rewrite accepts_app in Hr.
-  destruct (accepts g cfg (init_state g cfg prio sn) evs) as [s1|] eqn:E1; [|discriminate].
-  cbn [accepts] in Hr. destruct (step g cfg s1 (EvExit code m)) as [s2|] eqn:E2; [|discriminate].
+  destruct (accepts g cfg loads (init_state g cfg prio sn) evs) as [s1|] eqn:E1; [|discriminate].
+  cbn [accepts] in Hr. destruct (step g cfg loads s1 (EvExit code m)) as [s2|] eqn:E2; [|discriminate].
   pose proof (sinv_accepts evs _ s1 (sinv_init prio sn Hws) E1) as [HC _].
   pose proof (accepts_fail_failed evs _ s1 e c pr E1 Hin Hc) as Hf.
   pose proof (accepts_exit_code evs _ s1 E1) as Hx. cbn [init_state s_exit] in Hx.
@@ -1980,13 +2573,13 @@ Proof.
 Qed.
 
 (* once the budget is used up nothing is started *)
-Theorem no_start_without_budget s e prio : s_fa s = 0 -> step g cfg s (EvStart e prio) = None.
+Theorem no_start_without_budget s e prio : s_fa s = 0 -> step g cfg loads s (EvStart e prio) = None.
 Proof.
   intros H. unfold step. cbn [step_res]. rewrite H. cbn [Nat.ltb Nat.leb].
   rewrite !andb_false_r. cbn [andb]. reflexivity.
 Qed.
 
-Theorem exit_reaped s code m s' : reachable s -> step g cfg s (EvExit code m) = Some s' ->
+Theorem exit_reaped s code m s' : reachable s -> step g cfg loads s (EvExit code m) = Some s' ->
   m <> MInterrupted -> s_running s = [] /\ s_running s' = [].
 Proof.
   intros Hr Hst Hm. destruct (reachable_sinv s Hr) as [HC _].
@@ -2019,7 +2612,7 @@ Proof.
   apply (pi_tokens _ _ _ _ _ (co_pinv s HC)).
 Qed.
 
-Theorem wait_only_when_no_start s s' : step g cfg s EvWait = Some s' ->
+Theorem wait_only_when_no_start s s' : step g cfg loads s EvWait = Some s' ->
   can_start cfg s = false /\
   (s_fa s = 0 \/ c_j cfg <= length (s_running s) \/ p_ready (s_plan s) = [] \/ token_ok cfg (s_plan s) = false).
 Proof.
@@ -2036,7 +2629,7 @@ Qed.
 
 Lemma idle_no_want p : pinv QT [] [] [] p -> p_ready p = [] -> forall e, p_want p e = None.
 Proof.
-  intros [I1 I2 I3 I4 I5 I6 I7 I8 I9 I10 I11 I12 I13 I14 I15 I16] HR.
+  intros HI HR. pose proof HI as [I1 I2 I3 I4 I5 I6 I7 I8 I9 I10 I11 I12 I13 I14 I15 I16].
   assert (HD0 : forall d, ~ In d (p_delayed p)).
   { intros d Hd.
     pose proof (I13 d Hd) as Hdep. destruct (I11 _ Hdep) as [Hu _].
@@ -2053,18 +2646,18 @@ Proof.
     destruct (p_want p e) as [w|] eqn:Ew; [|reflexivity]. exfalso.
     destruct (all_inputs_ready g p e) eqn:Ea.
     - destruct w.
-      + apply (I5 e Ew Ea).
-      + destruct (I4 e Ew Ea) as [[]|[]].
+      + apply (pinv_top_nothing _ _ _ HI e Ew Ea).
+      + apply (pinv_top_tostart _ _ _ HI e Ew Ea).
       + apply (I3 e Ew).
     - destruct (air_false g p e Ea) as [i [Hi Ho]].
       assert (Hwi : p_want p i <> None) by (apply (I9 e i); [congruence|exact Hi|exact Ho]).
-      apply Hwi. apply IH. pose proof (wg_rank g rank Hwf e i Hi). lia. }
+      apply Hwi. apply IH. pose proof (wg_rank_at g rank p e i Hwf Hi). lia. }
   intros e. apply (H (S (rank e))). lia.
 Qed.
 
-Theorem never_stuck s code : reachable s -> step g cfg s (EvExit code MStuck) = None.
+Theorem never_stuck s code : reachable s -> step g cfg loads s (EvExit code MStuck) = None.
 Proof.
-  intros Hr. destruct (step g cfg s (EvExit code MStuck)) as [s'|] eqn:Hst; [exfalso|reflexivity].
+  intros Hr. destruct (step g cfg loads s (EvExit code MStuck)) as [s'|] eqn:Hst; [exfalso|reflexivity].
   destruct (reachable_sinv s Hr) as [HC _].
   destruct (s_phase s) eqn:Eph.
   - specialize (HC eq_refl).
@@ -2106,14 +2699,14 @@ Proof.
   - apply (Hd e Hin). apply in_or_app. right. apply in_or_app. left. exact H.
   - apply (Hd e Hin). apply in_or_app. right. apply in_or_app. right. exact H.
   - destruct (pi_sched _ _ _ _ _ HP e (in_sched_R _ _ _ e Hin)) as [Hw _].
-    unfold is_wanted in Hw. rewrite (pi_oready _ _ _ _ _ HP e H) in Hw. discriminate.
+    unfold is_wanted in Hw. rewrite (pinv_top_oready _ _ _ HP e H) in Hw. discriminate.
 Qed.
 
-Lemma step_was_started s ev s' e : core s -> step g cfg s ev = Some s' ->
+Lemma step_was_started s ev s' e : core s -> step g cfg loads s ev = Some s' ->
   (was_started s e \/ exists pr, ev = EvStart e pr) -> s_phase s' = PhBuild -> was_started s' e.
 Proof.
   intros C Hst Hws Hph'. unfold step in Hst.
-  destruct (step_res g cfg s ev) as [s1| |] eqn:E; try discriminate. injection Hst as <-.
+  destruct (step_res g cfg loads s ev) as [s1| |] eqn:E; try discriminate. injection Hst as <-.
   destruct ev as [d prio| |d|d code prio| |code m]; cbn [step_res] in E.
   - match type of E with (if ?X then _ else _) = _ => destruct X eqn:G; [|discriminate] end.
     peel G G2. peel G G0. apply memb_In in G0.
@@ -2123,12 +2716,12 @@ Proof.
                | Some _ => _ end) in *.
     assert (Hp2o : p_oready p2 = p_oready (s_plan s)) by (unfold p2; destruct (c_jobserver cfg); reflexivity).
     destruct (phony g d) eqn:Eph.
-    + destruct (edge_finished (plan_fuel g) g cfg prio d true true p2) as [p3| |] eqn:Eef; try discriminate.
+    + destruct (edge_finished (plan_fuel g) g cfg prio loads d true true p2) as [p3| |] eqn:Eef; try discriminate.
       injection E as <-. unfold was_started, set_plan. cbn [s_plan s_running s_failed].
       destruct (pi_sched _ _ _ _ _ HP d (in_sched_A p2 (d :: s_running s) (s_failed s) d (or_introl eq_refl))) as [Hw _].
       unfold is_wanted in Hw. destruct (p_want p2 d) as [w|] eqn:Ew; [|discriminate].
       assert (Hwn : w <> WNothing) by (intros ->; discriminate).
-      pose proof (ef_top_evol _ _ _ true _ _ w Ew Hwn Eef) as Hev. cbn in Hev.
+      pose proof (ef_top_evol _ _ _ true _ _ w (pi_range _ _ _ _ _ HP) Ew Hwn Eef) as Hev. cbn in Hev.
       destruct Hws as [[H|[H|H]]|[pr Heq]].
       * left. exact H.
       * right. left. exact H.
@@ -2157,18 +2750,18 @@ Proof.
     unfold is_wanted in Hw. destruct (p_want (s_plan s) d) as [w|] eqn:Ew; [|discriminate].
     assert (Hwn : w <> WNothing) by (intros ->; discriminate).
     destruct (Nat.eqb code 0).
-    + destruct (edge_finished (plan_fuel g) g cfg prio d true true (s_plan s)) as [p'| |] eqn:Eef; try discriminate.
+    + destruct (edge_finished (plan_fuel g) g cfg prio loads d true true (s_plan s)) as [p'| |] eqn:Eef; try discriminate.
       injection E as <-. unfold was_started. cbn [s_plan s_running s_failed].
-      pose proof (ef_top_evol _ _ _ true _ _ w Ew Hwn Eef) as Hev. cbn in Hev.
+      pose proof (ef_top_evol _ _ _ true _ _ w (pi_range _ _ _ _ _ (co_pinv s C)) Ew Hwn Eef) as Hev. cbn in Hev.
       destruct (Nat.eq_dec e d) as [->|Hne].
       * right. right. apply (ev_mono _ _ _ _ Hev). apply upd_same.
       * destruct Hws as [H|[H|H]].
         -- left. apply rem_In. split; assumption.
         -- right. left. exact H.
         -- right. right. apply (ev_mono _ _ _ _ Hev). rewrite upd_other by exact Hne. exact H.
-    + destruct (edge_finished (plan_fuel g) g cfg prio d false true (s_plan s)) as [p'| |] eqn:Eef; try discriminate.
+    + destruct (edge_finished (plan_fuel g) g cfg prio loads d false true (s_plan s)) as [p'| |] eqn:Eef; try discriminate.
       injection E as <-. unfold was_started. cbn [s_plan s_running s_failed].
-      pose proof (ef_top_evol _ _ _ false _ _ w Ew Hwn Eef) as Hev. cbn in Hev.
+      pose proof (ef_top_evol _ _ _ false _ _ w (pi_range _ _ _ _ _ (co_pinv s C)) Ew Hwn Eef) as Hev. cbn in Hev.
       destruct (Nat.eq_dec e d) as [->|Hne].
       * right. left. left. reflexivity.
       * destruct Hws as [H|[H|H]].
@@ -2187,7 +2780,7 @@ Proof.
     + discriminate.
 Qed.
 
-Lemma step_phase_stuck s ev s' : step g cfg s ev = Some s' -> s_phase s <> PhBuild -> s_phase s' <> PhBuild.
+Lemma step_phase_stuck s ev s' : step g cfg loads s ev = Some s' -> s_phase s <> PhBuild -> s_phase s' <> PhBuild.
 Proof.
   intros Hst Hph. destruct ev as [d prio| |d|d code prio| |code m];
     try (exfalso; apply Hph; apply (step_in_build s _ s' Hst); intros c m; discriminate).
@@ -2197,21 +2790,21 @@ Proof.
 Qed.
 
 Lemma accepts_was_started evs : forall s s' e, sinv s -> s_phase s = PhBuild -> was_started s e ->
-  accepts g cfg s evs = Some s' -> s_phase s' = PhBuild -> was_started s' e.
+  accepts g cfg loads s evs = Some s' -> s_phase s' = PhBuild -> was_started s' e.
 Proof.
   induction evs as [|ev evs IH]; intros s s' e HI Hph Hws Ha Hph'; cbn [accepts] in Ha.
   - injection Ha as <-. exact Hws.
-  - destruct (step g cfg s ev) as [s1|] eqn:E; [|discriminate].
+  - destruct (step g cfg loads s ev) as [s1|] eqn:E; [|discriminate].
     assert (Hph1 : s_phase s1 = PhBuild).
     { destruct (s_phase s1) eqn:E1; [reflexivity| |]; exfalso.
-      - assert (H : forall evs s s', accepts g cfg s evs = Some s' -> s_phase s <> PhBuild -> s_phase s' <> PhBuild).
+      - assert (H : forall evs s s', accepts g cfg loads s evs = Some s' -> s_phase s <> PhBuild -> s_phase s' <> PhBuild).
         { clear. induction evs as [|ev evs IH]; intros s s' Ha Hn; cbn [accepts] in Ha; [injection Ha as <-; exact Hn|].
-          destruct (step g cfg s ev) as [s1|] eqn:E; [|discriminate].
+          destruct (step g cfg loads s ev) as [s1|] eqn:E; [|discriminate].
           apply (IH s1 s' Ha). apply (step_phase_stuck s ev s1 E Hn). }
         apply (H evs s1 s' Ha); [rewrite E1; discriminate|exact Hph'].
-      - assert (H : forall evs s s', accepts g cfg s evs = Some s' -> s_phase s <> PhBuild -> s_phase s' <> PhBuild).
+      - assert (H : forall evs s s', accepts g cfg loads s evs = Some s' -> s_phase s <> PhBuild -> s_phase s' <> PhBuild).
         { clear. induction evs as [|ev evs IH]; intros s s' Ha Hn; cbn [accepts] in Ha; [injection Ha as <-; exact Hn|].
-          destruct (step g cfg s ev) as [s1|] eqn:E; [|discriminate].
+          destruct (step g cfg loads s ev) as [s1|] eqn:E; [|discriminate].
           apply (IH s1 s' Ha). apply (step_phase_stuck s ev s1 E Hn). }
         apply (H evs s1 s' Ha); [rewrite E1; discriminate|exact Hph']. }
     apply (IH s1 s' e (sinv_step s ev s1 HI E) Hph1); [|exact Ha|exact Hph'].
@@ -2219,29 +2812,29 @@ Proof.
 Qed.
 
 Theorem started_once prio sn evs1 e pr evs2 s :
-  wf_snap sn -> run g cfg prio sn (evs1 ++ EvStart e pr :: evs2) = Some s ->
+  wf_snap sn -> run g cfg loads prio sn (evs1 ++ EvStart e pr :: evs2) = Some s ->
   forall pr', ~ In (EvStart e pr') evs2.
 Proof.
   intros Hws Hr pr' Hin. unfold run in Hr. rewrite accepts_app in Hr.
-  destruct (accepts g cfg (init_state g cfg prio sn) evs1) as [s1|] eqn:E1; [|discriminate].
-  cbn [accepts] in Hr. destruct (step g cfg s1 (EvStart e pr)) as [s2|] eqn:E2; [|discriminate].
+  destruct (accepts g cfg loads (init_state g cfg prio sn) evs1) as [s1|] eqn:E1; [|discriminate].
+  cbn [accepts] in Hr. destruct (step g cfg loads s1 (EvStart e pr)) as [s2|] eqn:E2; [|discriminate].
   pose proof (sinv_accepts evs1 _ s1 (sinv_init prio sn Hws) E1) as HI1.
   pose proof (sinv_step s1 _ s2 HI1 E2) as HI2.
   apply in_split in Hin. destruct Hin as [a [b Hab]]. subst evs2. rewrite accepts_app in Hr.
-  destruct (accepts g cfg s2 a) as [s3|] eqn:E3; [|discriminate].
-  cbn [accepts] in Hr. destruct (step g cfg s3 (EvStart e pr')) as [s4|] eqn:E4; [|discriminate].
+  destruct (accepts g cfg loads s2 a) as [s3|] eqn:E3; [|discriminate].
+  cbn [accepts] in Hr. destruct (step g cfg loads s3 (EvStart e pr')) as [s4|] eqn:E4; [|discriminate].
   assert (Hph3 : s_phase s3 = PhBuild) by (apply (step_in_build s3 _ s4 E4); intros c m; discriminate).
   assert (Hph1 : s_phase s1 = PhBuild) by (apply (step_in_build s1 _ s2 E2); intros c m; discriminate).
   assert (Hph2 : s_phase s2 = PhBuild).
   { destruct (s_phase s2) eqn:E; [reflexivity| |]; exfalso.
-    - assert (H : forall evs s s', accepts g cfg s evs = Some s' -> s_phase s <> PhBuild -> s_phase s' <> PhBuild).
+    - assert (H : forall evs s s', accepts g cfg loads s evs = Some s' -> s_phase s <> PhBuild -> s_phase s' <> PhBuild).
       { clear. induction evs as [|ev evs IH]; intros s s' Ha Hn; cbn [accepts] in Ha; [injection Ha as <-; exact Hn|].
-        destruct (step g cfg s ev) as [s1|] eqn:E; [|discriminate].
+        destruct (step g cfg loads s ev) as [s1|] eqn:E; [|discriminate].
         apply (IH s1 s' Ha). apply (step_phase_stuck s ev s1 E Hn). }
       apply (H a s2 s3 E3); [rewrite E; discriminate|exact Hph3].
-    - assert (H : forall evs s s', accepts g cfg s evs = Some s' -> s_phase s <> PhBuild -> s_phase s' <> PhBuild).
+    - assert (H : forall evs s s', accepts g cfg loads s evs = Some s' -> s_phase s <> PhBuild -> s_phase s' <> PhBuild).
       { clear. induction evs as [|ev evs IH]; intros s s' Ha Hn; cbn [accepts] in Ha; [injection Ha as <-; exact Hn|].
-        destruct (step g cfg s ev) as [s1|] eqn:E; [|discriminate].
+        destruct (step g cfg loads s ev) as [s1|] eqn:E; [|discriminate].
         apply (IH s1 s' Ha). apply (step_phase_stuck s ev s1 E Hn). }
       apply (H a s2 s3 E3); [rewrite E; discriminate|exact Hph3]. }
   assert (Hws2 : was_started s2 e).
@@ -2282,7 +2875,7 @@ Proof.
   repeat split; lia.
 Qed.
 
-Theorem counters_at_success s s' : reachable s -> step g cfg s (EvExit 0 MSuccess) = Some s' ->
+Theorem counters_at_success s s' : reachable s -> step g cfg loads s (EvExit 0 MSuccess) = Some s' ->
   s_finished s = s_total s /\ s_started s = s_total s /\
   s_finished s' = s_finished s /\ s_total s' = s_total s /\ s_started s' = s_started s.
 Proof.
@@ -2316,47 +2909,43 @@ Proof.
 Qed.
 
 (* ------------------------------------------------------------------ fuel is sufficient; Finish is enabled *)
-Definition in_want (p : plan) (e : nat) : bool := match p_want p e with None => false | Some _ => true end.
-Definition cw (p : plan) : nat := count_if (in_want p) (all_edges g).
+(* the measure: edges that are not yet completely done (outputs_ready and out of want_); every call of
+   EdgeFinished completes one, a dyndep load completes some and starts none *)
+Definition undoneb (p : plan) (x : nat) : bool := negb (p_oready p x) || in_want p x.
+Definition cw (p : plan) : nat := count_if (undoneb p) (all_edges g).
 Definition wrange (p : plan) : Prop := forall e, p_want p e <> None -> e < n_edges g.
 
-Lemma count_le (f f' : nat -> bool) l : (forall x, f' x = true -> f x = true) -> count_if f' l <= count_if f l.
+Lemma undoneb_spec p x : undoneb p x = true <-> (p_oready p x = false \/ p_want p x <> None).
 Proof.
-  intros H. unfold count_if. induction l as [|x l IH]; cbn [filter]; [lia|].
-  destruct (f' x) eqn:E'; [rewrite (H x E'); cbn [length]; lia|].
-  destruct (f x); cbn [length]; lia.
-Qed.
-
-Lemma evolf_sub w o c p' : evolf w o c p' -> forall x, p_want p' x <> None -> w x <> None.
-Proof.
-  intros [A1 _ _ _] x Hx. destruct (A1 x) as [Ha|[[Ha1 Ha2]|[Ha1 [Ha2 _]]]]; congruence.
+  unfold undoneb, in_want. destruct (p_oready p x); destruct (p_want p x); cbn; split; intros H;
+    try reflexivity; try discriminate; try (left; reflexivity); try (right; discriminate).
+  destruct H as [H|H]; [discriminate|congruence].
 Qed.
 
 Lemma evol_cw p p' : evol p p' -> wrange p -> cw p' <= cw p /\ wrange p'.
 Proof.
   intros He Hr. split.
-  - unfold cw. apply count_le. intros x Hx. unfold in_want in *.
-    pose proof (evolf_sub _ _ _ _ He x) as H. destruct (p_want p' x); [|discriminate].
-    destruct (p_want p x); [reflexivity|]. exfalso. apply H; [discriminate|reflexivity].
-  - intros x Hx. apply Hr. apply (evolf_sub _ _ _ _ He x Hx).
+  - unfold cw. apply count_le. intros x Hx. apply undoneb_spec. apply (ev_undone _ _ _ _ He x).
+    apply undoneb_spec. exact Hx.
+  - intros x Hx. apply (evol_range p p' He Hr x Hx).
 Qed.
 
-Lemma cw_erase p d R D u n c o t : wrange p -> p_want p d <> None ->
-  cw p = S (cw (mkPlan (upd (p_want p) d None) R D u n c o t)) /\
-  wrange (mkPlan (upd (p_want p) d None) R D u n c o t).
+Lemma cw_erase p d R D u n c t l : wrange p -> p_want p d <> None ->
+  cw p = S (cw (mkPlan (upd (p_want p) d None) R D u n c (upd (p_oready p) d true) t l)) /\
+  wrange (mkPlan (upd (p_want p) d None) R D u n c (upd (p_oready p) d true) t l).
 Proof.
   intros Hr Hd. split.
   - unfold cw. apply (count_flip _ _ d); [apply all_edges_nodup|apply all_edges_in; apply Hr; exact Hd| | |].
-    + unfold in_want. destruct (p_want p d); [reflexivity|congruence].
-    + unfold in_want. psimpl. rewrite upd_same. reflexivity.
-    + intros x Hx. unfold in_want. psimpl. rewrite upd_other by exact Hx. reflexivity.
+    + apply undoneb_spec. right. exact Hd.
+    + unfold undoneb, in_want. psimpl. rewrite !upd_same. reflexivity.
+    + intros x Hx. unfold undoneb, in_want. psimpl. rewrite !upd_other by exact Hx. reflexivity.
   - intros x Hx. psimpl. apply Hr. unfold upd in Hx. destruct (Nat.eqb x d); [congruence|exact Hx].
 Qed.
 
 Lemma retrieve_cw prio q p : cw (retrieve g prio q p) = cw p /\ (wrange p -> wrange (retrieve g prio q p)).
 Proof.
   split.
-  - unfold cw, in_want. rewrite retrieve_want. reflexivity.
+  - unfold cw, undoneb, in_want. rewrite retrieve_want, retrieve_oready. reflexivity.
   - intros H x. rewrite retrieve_want. apply H.
 Qed.
 
@@ -2366,9 +2955,18 @@ Proof.
   destruct (Nat.eqb (depth g (pool g d)) 0); discriminate.
 Qed.
 
+Lemma apply_load_not_fuel e p : apply_load g loads e p <> OutOfFuel.
+Proof.
+  unfold apply_load. destruct (bound g p e); [discriminate|]. destruct (loads e) as [L|]; [|discriminate].
+  match goal with |- match ?X with _ => _ end <> _ => destruct X; [|discriminate] end.
+  match goal with |- match ?X with _ => _ end <> _ => destruct X; [|discriminate] end.
+  match goal with |- match ?X with _ => _ end <> _ => destruct X; [|discriminate] end.
+  match goal with |- (if ?X then _ else _) <> _ => destruct X; discriminate end.
+Qed.
+
 Definition fuel_rec (fuel : nat) : Prop :=
   forall prio d p, wrange p -> p_want p d = Some WNothing -> cw p < fuel ->
-    edge_finished fuel g cfg prio d true false p <> OutOfFuel.
+    edge_finished fuel g cfg prio loads d true false p <> OutOfFuel.
 Definition fuel_fold (fuel : nat) : Prop :=
   forall prio l p, wrange p -> cw p < fuel -> fold_res (visit fuel prio) l p <> OutOfFuel.
 
@@ -2380,7 +2978,7 @@ Proof.
     { unfold visit in Ev. destruct (p_want p d) as [wd|] eqn:Ewd; [|injection Ev as <-; apply evol_refl].
       destruct (all_inputs_ready g p d); [|injection Ev as <-; apply evol_refl].
       destruct wd; cbn [want_eqb] in Ev.
-      - apply (proj1 (ef_evol_all fuel) prio d p p1 Ewd Ev).
+      - apply (proj1 (ef_evol_all fuel) prio d p p1 Hr Ewd Ev).
       - apply (schedule_work_evol prio d p p1 Ev).
       - apply (schedule_work_evol prio d p p1 Ev). }
     destruct (evol_cw p p1 He Hr) as [H1 H2]. apply IH; [exact H2|lia].
@@ -2392,6 +2990,15 @@ Proof.
     + apply (schedule_work_not_fuel prio d p Ev).
 Qed.
 
+Lemma after_done_fuel fuel prio e p4 : fuel_fold fuel -> wrange p4 -> cw p4 < fuel ->
+  after_done fuel prio e p4 <> OutOfFuel.
+Proof.
+  intros Hfold Hr Hc. unfold after_done.
+  destruct (apply_load g loads e p4) as [[p5 walk]| |] eqn:El; [|discriminate|exfalso; exact (apply_load_not_fuel e p4 El)].
+  pose proof (apply_load_evol e p4 p5 walk (or_intror I) Hr El) as He.
+  destruct (evol_cw p4 p5 He Hr) as [H1 H2]. apply Hfold; [exact H2|lia].
+Qed.
+
 Lemma fuel_all fuel : fuel_rec fuel /\ fuel_fold fuel.
 Proof.
   induction fuel as [|fuel [IH1 IH2]].
@@ -2399,21 +3006,21 @@ Proof.
   - assert (H1 : fuel_rec (S fuel)).
     { intros prio d p Hr Hw Hc. rewrite (ef_nothing_eq fuel prio d p Hw).
       assert (Hd : p_want p d <> None) by congruence.
-      destruct (cw_erase p d (p_ready p) (p_delayed p) (p_use p) (p_wanted p) (p_commands p) (upd (p_oready p) d true) (p_tokens p) Hr Hd) as [E1 E2].
-      destruct (retrieve_cw prio (pool g d) (mkPlan (upd (p_want p) d None) (p_ready p) (p_delayed p) (p_use p) (p_wanted p) (p_commands p) (upd (p_oready p) d true) (p_tokens p))) as [E3 E4].
-      apply IH2; [apply E4; exact E2|lia]. }
+      destruct (cw_erase p d (p_ready p) (p_delayed p) (p_use p) (p_wanted p) (p_commands p) (p_tokens p) (p_loaded p) Hr Hd) as [E1 E2].
+      destruct (retrieve_cw prio (pool g d) (mkPlan (upd (p_want p) d None) (p_ready p) (p_delayed p) (p_use p) (p_wanted p) (p_commands p) (upd (p_oready p) d true) (p_tokens p) (p_loaded p))) as [E3 E4].
+      apply (after_done_fuel fuel prio d _ IH2); [apply E4; exact E2|lia]. }
     split; [exact H1|apply fuel_fold_of_rec; exact H1].
 Qed.
 
 Lemma cw_le_n p : cw p <= n_edges g.
 Proof.
-  unfold cw, count_if. pose proof (filter_len_le (in_want p) (all_edges g)) as H.
+  unfold cw, count_if. pose proof (filter_len_le (undoneb p) (all_edges g)) as H.
   unfold all_edges in H at 2. rewrite seq_length in H. exact H.
 Qed.
 
 Theorem edge_finished_fuel_sufficient prio e succ p w :
   wrange p -> p_want p e = Some w -> w <> WNothing ->
-  edge_finished (plan_fuel g) g cfg prio e succ true p <> OutOfFuel.
+  edge_finished (plan_fuel g) g cfg prio loads e succ true p <> OutOfFuel.
 Proof.
   intros Hr Hw Hn. unfold plan_fuel. rewrite (ef_top_eq (n_edges g) prio e succ p w Hw Hn).
   destruct (rel_use p (pool g e)) as [u|]; [|discriminate].
@@ -2421,24 +3028,36 @@ Proof.
   destruct (negb succ); [discriminate|].
   destruct (p_wanted p) as [|n]; [discriminate|].
   assert (Hd : p_want p e <> None) by congruence.
-  destruct (cw_erase p e (p_ready p) (p_delayed p) u n (p_commands p) (upd (p_oready p) e true) t Hr Hd) as [E1 E2].
-  destruct (retrieve_cw prio (pool g e) (mkPlan (upd (p_want p) e None) (p_ready p) (p_delayed p) u n (p_commands p) (upd (p_oready p) e true) t)) as [E3 E4].
-  apply (proj2 (fuel_all (n_edges g))); [apply E4; exact E2|]. pose proof (cw_le_n p). lia.
+  destruct (cw_erase p e (p_ready p) (p_delayed p) u n (p_commands p) t (p_loaded p) Hr Hd) as [E1 E2].
+  destruct (retrieve_cw prio (pool g e) (mkPlan (upd (p_want p) e None) (p_ready p) (p_delayed p) u n (p_commands p) (upd (p_oready p) e true) t (p_loaded p))) as [E3 E4].
+  apply (after_done_fuel (n_edges g) prio e _ (proj2 (fuel_all (n_edges g)))); [apply E4; exact E2|].
+  pose proof (cw_le_n p). lia.
 Qed.
 
-(* never Forbidden in the recursion *)
+(* never Forbidden in the recursion -- when no dyndep file is pending (a load can be Forbidden: it
+   depends on what the trace says the re-scan decided) *)
+Definition no_pending_dyndep : Prop := forall x, ddprod g x = None.
+
 Lemma schedule_work_not_forbidden prio d p : is_wanted (p_want p) d = true -> schedule_work g prio d p <> Forbidden.
 Proof.
   unfold schedule_work, is_wanted. destruct (p_want p d) as [[| |]|]; try discriminate.
   destruct (Nat.eqb (depth g (pool g d)) 0); discriminate.
 Qed.
 
-Lemma forbidden_all fuel :
-  (forall prio d p, p_want p d = Some WNothing -> edge_finished fuel g cfg prio d true false p <> Forbidden) /\
+Lemma apply_load_nodd e p : no_pending_dyndep -> apply_load g loads e p = Ok (p, []).
+Proof.
+  intros H. unfold apply_load. assert (Hb : bound g p e = []).
+  { unfold bound. induction (all_edges g) as [|x l IH]; [reflexivity|]. cbn [filter]. rewrite (H x). exact IH. }
+  rewrite Hb. reflexivity.
+Qed.
+
+Lemma forbidden_all fuel : no_pending_dyndep ->
+  (forall prio d p, p_want p d = Some WNothing -> edge_finished fuel g cfg prio loads d true false p <> Forbidden) /\
   (forall prio l p, fold_res (visit fuel prio) l p <> Forbidden).
 Proof.
+  intros Hnodd.
   assert (Hfold : forall fuel,
-    (forall prio d p, p_want p d = Some WNothing -> edge_finished fuel g cfg prio d true false p <> Forbidden) ->
+    (forall prio d p, p_want p d = Some WNothing -> edge_finished fuel g cfg prio loads d true false p <> Forbidden) ->
     forall prio l p, fold_res (visit fuel prio) l p <> Forbidden).
   { intros f Hrec prio l. induction l as [|d l IH]; intros p; cbn [fold_res]; [discriminate|].
     destruct (visit f prio d p) as [p1| |] eqn:Ev; [apply IH| |discriminate].
@@ -2449,23 +3068,24 @@ Proof.
     - apply (schedule_work_not_forbidden prio d p); [unfold is_wanted; rewrite Ewd; reflexivity|exact Ev].
     - apply (schedule_work_not_forbidden prio d p); [unfold is_wanted; rewrite Ewd; reflexivity|exact Ev]. }
   induction fuel as [|fuel [IH1 IH2]].
-  - assert (H0 : forall prio d p, p_want p d = Some WNothing -> edge_finished 0 g cfg prio d true false p <> Forbidden) by (intros; discriminate).
+  - assert (H0 : forall prio d p, p_want p d = Some WNothing -> edge_finished 0 g cfg prio loads d true false p <> Forbidden) by (intros; discriminate).
     split; [exact H0|apply Hfold; exact H0].
-  - assert (H1 : forall prio d p, p_want p d = Some WNothing -> edge_finished (S fuel) g cfg prio d true false p <> Forbidden).
-    { intros prio d p Hw. rewrite (ef_nothing_eq fuel prio d p Hw). apply IH2. }
+  - assert (H1 : forall prio d p, p_want p d = Some WNothing -> edge_finished (S fuel) g cfg prio loads d true false p <> Forbidden).
+    { intros prio d p Hw. rewrite (ef_nothing_eq fuel prio d p Hw). unfold after_done.
+      rewrite (apply_load_nodd d _ Hnodd). apply IH2. }
     split; [exact H1|apply Hfold; exact H1].
 Qed.
 
-Lemma ef_top_ok prio e succ A F p : pinv QT [] A F p -> In e A ->
-  exists p', edge_finished (plan_fuel g) g cfg prio e succ true p = Ok p'.
+Lemma ef_top_ok prio e succ A F p : no_pending_dyndep -> pinv QT [] A F p -> In e A ->
+  exists p', edge_finished (plan_fuel g) g cfg prio loads e succ true p = Ok p'.
 Proof.
-  intros HI Hin. pose proof (pinv_nodup_A _ _ _ _ _ HI) as HndA.
+  intros Hnodd HI Hin. pose proof (pinv_nodup_A _ _ _ _ _ HI) as HndA.
   pose proof HI as [I1 I2 I3 I4 I5 I6 I7 I8 I9 I10 I11 I12 I13 I14 I15 I16].
   destruct (I2 e (in_sched_A p A F e Hin)) as [Hw Ha]. pose proof Hw as Hiw. unfold is_wanted in Hw.
   destruct (p_want p e) as [w|] eqn:Ew; [|discriminate].
   assert (Hwn : w <> WNothing) by (intros ->; discriminate).
   pose proof (edge_finished_fuel_sufficient prio e succ p w I10 Ew Hwn) as Hfuel.
-  destruct (edge_finished (plan_fuel g) g cfg prio e succ true p) as [p'| |] eqn:E; [exists p'; reflexivity| |congruence].
+  destruct (edge_finished (plan_fuel g) g cfg prio loads e succ true p) as [p'| |] eqn:E; [exists p'; reflexivity| |congruence].
   exfalso. unfold plan_fuel in E. rewrite (ef_top_eq (n_edges g) prio e succ p w Ew Hwn) in E.
   assert (Hu : rel_use p (pool g e) <> None).
   { unfold rel_use. destruct (Nat.eqb_spec (depth g (pool g e)) 0) as [Hz|Hnz]; cbn [negb]; [discriminate|].
@@ -2480,12 +3100,13 @@ Proof.
   assert (Hwd : 1 <= p_wanted p).
   { rewrite I14. apply (count_ge_one _ _ e); [apply all_edges_in; apply I10; congruence|exact Hiw]. }
   destruct (p_wanted p) as [|n]; [lia|].
-  apply (proj2 (forbidden_all (n_edges g)) _ _ _ E).
+  unfold after_done in E. rewrite (apply_load_nodd e _ Hnodd) in E.
+  apply (proj2 (forbidden_all (n_edges g) Hnodd) _ _ _ E).
 Qed.
 
 (* C05 drain: whatever the budget, a running command can always be waited for and reaped *)
 Theorem wait_enabled s : reachable s -> s_phase s = PhBuild -> s_waiting s = false ->
-  s_running s <> [] -> can_start cfg s = false -> exists s', step g cfg s EvWait = Some s'.
+  s_running s <> [] -> can_start cfg s = false -> exists s', step g cfg loads s EvWait = Some s'.
 Proof.
   intros Hr Hph Hw Hrun Hcs. destruct (reachable_sinv s Hr) as [HC _]. specialize (HC Hph).
   unfold step. cbn [step_res]. unfold in_build. rewrite Hph, Hw, Hcs. cbn [negb andb].
@@ -2495,11 +3116,12 @@ Proof.
   eexists. reflexivity.
 Qed.
 
-Theorem finish_enabled s e code prio : reachable s -> s_phase s = PhBuild -> s_waiting s = true ->
+Theorem finish_enabled s e code prio : no_pending_dyndep ->
+  reachable s -> s_phase s = PhBuild -> s_waiting s = true ->
   In e (s_running s) -> code <> exit_interrupted ->
-  exists s', step g cfg s (EvFinish e code prio) = Some s'.
+  exists s', step g cfg loads s (EvFinish e code prio) = Some s'.
 Proof.
-  intros Hr Hph Hw Hin Hcode. destruct (reachable_sinv s Hr) as [HC _]. specialize (HC Hph).
+  intros Hnodd Hr Hph Hw Hin Hcode. destruct (reachable_sinv s Hr) as [HC _]. specialize (HC Hph).
   unfold step. cbn [step_res]. unfold in_build. rewrite Hph, Hw. cbn [andb].
   assert (E1 : memb e (s_running s) = true) by (apply memb_In; exact Hin).
   assert (E2 : Nat.eqb code exit_interrupted = false) by (apply Nat.eqb_neq; exact Hcode).
@@ -2507,11 +3129,21 @@ Proof.
   pose proof (co_pending s HC) as Hp. destruct (s_running s) as [|x l] eqn:Er; [destruct Hin|].
   rewrite Hp. cbn [length]. rewrite <- Er in *.
   destruct (Nat.eqb code 0).
-  - destruct (ef_top_ok prio e true _ _ _ (co_pinv s HC) Hin) as [p' Hp']. rewrite Hp'. eexists. reflexivity.
-  - destruct (ef_top_ok prio e false _ _ _ (co_pinv s HC) Hin) as [p' Hp']. rewrite Hp'. eexists. reflexivity.
+  - destruct (ef_top_ok prio e true _ _ _ Hnodd (co_pinv s HC) Hin) as [p' Hp']. rewrite Hp'. eexists. reflexivity.
+  - destruct (ef_top_ok prio e false _ _ _ Hnodd (co_pinv s HC) Hin) as [p' Hp']. rewrite Hp'. eexists. reflexivity.
 Qed.
 
-Theorem step_res_fuel_sufficient s ev : reachable s -> step_res g cfg s ev <> OutOfFuel.
+Lemma ef_top_not_fuel prio e succ A F p : pinv QT [] A F p -> In e A ->
+  edge_finished (plan_fuel g) g cfg prio loads e succ true p <> OutOfFuel.
+Proof.
+  intros HI Hin.
+  destruct (pi_sched _ _ _ _ _ HI e (in_sched_A p A F e Hin)) as [Hw _]. unfold is_wanted in Hw.
+  destruct (p_want p e) as [w|] eqn:Ew; [|discriminate].
+  assert (Hwn : w <> WNothing) by (intros ->; discriminate).
+  apply (edge_finished_fuel_sufficient prio e succ p w (pi_range _ _ _ _ _ HI) Ew Hwn).
+Qed.
+
+Theorem step_res_fuel_sufficient s ev : reachable s -> step_res g cfg loads s ev <> OutOfFuel.
 Proof.
   intros Hr. destruct (reachable_sinv s Hr) as [HC _].
   destruct ev as [e prio| |e|e code prio| |code m]; cbn [step_res].
@@ -2520,9 +3152,9 @@ Proof.
     apply in_build_true in G. apply memb_In in G0. specialize (HC G).
     pose proof (start_pop_pinv (s_plan s) (s_running s) (s_failed s) e (co_pinv s HC) G0) as HP.
     destruct (phony g e); [|discriminate].
-    match goal with |- match edge_finished _ _ _ _ _ _ _ ?P with _ => _ end <> _ =>
-      destruct (ef_top_ok prio e true _ _ P HP (or_introl eq_refl)) as [p' Hp'] end.
-    rewrite Hp'. discriminate.
+    match goal with |- match edge_finished _ _ _ _ _ _ _ _ ?P with _ => _ end <> _ =>
+      pose proof (ef_top_not_fuel prio e true _ _ P HP (or_introl eq_refl)) as Hnf;
+      destruct (edge_finished (plan_fuel g) g cfg prio loads e true true P) end; [discriminate|discriminate|congruence].
   - match goal with |- (if ?X then _ else _) <> _ => destruct X; discriminate end.
   - match goal with |- (if ?X then _ else _) <> _ => destruct X; [|discriminate] end.
     destruct (p_wanted (s_plan s)); [discriminate|]. destruct (phony g e); [discriminate|].
@@ -2531,8 +3163,10 @@ Proof.
     peel G Gcode. peel G G1. peel G Gwait. apply in_build_true in G. apply memb_In in G1. specialize (HC G).
     destruct (s_pending s); [discriminate|].
     destruct (Nat.eqb code 0).
-    + destruct (ef_top_ok prio e true _ _ _ (co_pinv s HC) G1) as [p' Hp']. rewrite Hp'. discriminate.
-    + destruct (ef_top_ok prio e false _ _ _ (co_pinv s HC) G1) as [p' Hp']. rewrite Hp'. discriminate.
+    + pose proof (ef_top_not_fuel prio e true _ _ _ (co_pinv s HC) G1) as Hnf.
+      destruct (edge_finished (plan_fuel g) g cfg prio loads e true true (s_plan s)); [discriminate|discriminate|congruence].
+    + pose proof (ef_top_not_fuel prio e false _ _ _ (co_pinv s HC) G1) as Hnf.
+      destruct (edge_finished (plan_fuel g) g cfg prio loads e false true (s_plan s)); [discriminate|discriminate|congruence].
   - match goal with |- (if ?X then _ else _) <> _ => destruct X; discriminate end.
   - destruct (s_phase s); [|destruct (_ && _); discriminate|discriminate].
     destruct (s_waiting s); [discriminate|].
@@ -2542,31 +3176,36 @@ Qed.
 
 (* ------------------------------------------------------------------ C04: where outputs_ready comes from *)
 
-Lemma step_origin s ev s' i : core s -> step g cfg s ev = Some s' ->
+Definition Lorig (i : nat) : Prop := LRd i \/ LAn i.
+
+Lemma step_origin s ev s' i : core s -> step g cfg loads s ev = Some s' ->
   (p_oready (s_plan s') i = true ->
      p_oready (s_plan s) i = true \/ (exists pr, ev = EvFinish i 0 pr) \/
-     (exists pr, ev = EvStart i pr /\ phony g i = true) \/ p_want (s_plan s) i = Some WNothing) /\
-  (p_want (s_plan s') i = Some WNothing -> p_want (s_plan s) i = Some WNothing \/ ev = EvPrune i).
+     (exists pr, ev = EvStart i pr /\ phony g i = true) \/ p_want (s_plan s) i = Some WNothing \/ Lorig i) /\
+  (p_want (s_plan s') i = Some WNothing -> p_want (s_plan s) i = Some WNothing \/ ev = EvPrune i \/ LAn i).
 Proof.
   intros C Hst. unfold step in Hst.
-  destruct (step_res g cfg s ev) as [s1| |] eqn:E; try discriminate. injection Hst as <-.
+  destruct (step_res g cfg loads s ev) as [s1| |] eqn:E; try discriminate. injection Hst as <-.
   assert (Hevolf : forall w o c p' e, evolf w o c p' -> w = upd (p_want (s_plan s)) e None ->
             o = upd (p_oready (s_plan s)) e true ->
-            (p_oready p' i = true -> p_oready (s_plan s) i = true \/ i = e \/ p_want (s_plan s) i = Some WNothing) /\
-            (p_want p' i = Some WNothing -> p_want (s_plan s) i = Some WNothing)).
+            (p_oready p' i = true -> p_oready (s_plan s) i = true \/ i = e \/ p_want (s_plan s) i = Some WNothing \/ Lorig i) /\
+            (p_want p' i = Some WNothing -> p_want (s_plan s) i = Some WNothing \/ LAn i)).
   { intros w o c p' e Hev -> ->. split.
-    - intros H. destruct (ev_oready _ _ _ _ Hev i H) as [H1|H1]; unfold upd in H1;
-        destruct (Nat.eqb_spec i e) as [->|Hne]; try (right; left; reflexivity); try discriminate.
-      + left. exact H1.
-      + right. right. exact H1.
-    - intros H. destruct (ev_want _ _ _ _ Hev i) as [Ha|[[Ha1 Ha2]|[Ha1 [Ha2 _]]]]; try congruence.
-      rewrite H in Ha. unfold upd in Ha. destruct (Nat.eqb i e); [discriminate|]. symmetry. exact Ha. }
+    - intros H. destruct (Nat.eq_dec i e) as [Heq|Hne]; [right; left; exact Heq|].
+      destruct (ev_oready _ _ _ _ Hev i H) as [H1|[H1|[H1|H1]]].
+      + left. rewrite upd_other in H1 by exact Hne. exact H1.
+      + right. right. left. rewrite upd_other in H1 by exact Hne. exact H1.
+      + right. right. right. left. exact H1.
+      + right. right. right. right. exact H1.
+    - intros H. destruct (ev_nothing _ _ _ _ Hev i H) as [H1|H1]; [left|right; exact H1].
+      unfold upd in H1. destruct (Nat.eqb i e); [discriminate|exact H1]. }
   assert (Hevol : forall p', evol (s_plan s) p' ->
-            (p_oready p' i = true -> p_oready (s_plan s) i = true \/ p_want (s_plan s) i = Some WNothing) /\
-            (p_want p' i = Some WNothing -> p_want (s_plan s) i = Some WNothing)).
+            (p_oready p' i = true -> p_oready (s_plan s) i = true \/ p_want (s_plan s) i = Some WNothing \/ Lorig i) /\
+            (p_want p' i = Some WNothing -> p_want (s_plan s) i = Some WNothing \/ LAn i)).
   { intros p' Hev. split.
-    - intros H. apply (ev_oready _ _ _ _ Hev i H).
-    - intros H. destruct (ev_want _ _ _ _ Hev i) as [Ha|[[Ha1 Ha2]|[Ha1 [Ha2 _]]]]; congruence. }
+    - intros H. destruct (ev_oready _ _ _ _ Hev i H) as [H1|[H1|[H1|H1]]];
+        [left; exact H1|right; left; exact H1|right; right; left; exact H1|right; right; right; exact H1].
+    - intros H. apply (ev_nothing _ _ _ _ Hev i H). }
   destruct ev as [d prio| |d|d code prio| |code m]; cbn [step_res] in E.
   - match type of E with (if ?X then _ else _) = _ => destruct X eqn:G; [|discriminate] end.
     peel G G2. peel G G0. apply memb_In in G0.
@@ -2576,18 +3215,20 @@ Proof.
                | Some _ => _ end) in *.
     assert (Hp2o : p_oready p2 = p_oready (s_plan s)) by (unfold p2; destruct (c_jobserver cfg); reflexivity).
     assert (Hp2w : p_want p2 = p_want (s_plan s)) by (unfold p2; destruct (c_jobserver cfg); reflexivity).
+    assert (Hp2c : p_commands p2 = p_commands (s_plan s)) by (unfold p2; destruct (c_jobserver cfg); reflexivity).
     destruct (phony g d) eqn:Eph.
-    + destruct (edge_finished (plan_fuel g) g cfg prio d true true p2) as [p3| |] eqn:Eef; try discriminate.
-      injection E as <-. unfold set_plan. cbn [s_plan].
+    + destruct (edge_finished (plan_fuel g) g cfg prio loads d true true p2) as [p3| |] eqn:Eef; try discriminate.
+      injection E as <-. cbn [s_plan].
       destruct (pi_sched _ _ _ _ _ HP d (in_sched_A p2 (d :: s_running s) (s_failed s) d (or_introl eq_refl))) as [Hw _].
       unfold is_wanted in Hw. destruct (p_want p2 d) as [w|] eqn:Ew; [|discriminate].
       assert (Hwn : w <> WNothing) by (intros ->; discriminate).
-      pose proof (ef_top_evol _ _ _ true _ _ w Ew Hwn Eef) as Hev. cbn in Hev.
+      pose proof (ef_top_evol _ _ _ true _ _ w (pi_range _ _ _ _ _ HP) Ew Hwn Eef) as Hev. cbn in Hev.
       rewrite Hp2o, Hp2w in Hev. destruct (Hevolf _ _ _ p3 d Hev eq_refl eq_refl) as [H1 H2].
       split.
-      * intros H. destruct (H1 H) as [H'|[->|H']]; [left; exact H'| |right; right; right; exact H'].
-        right. right. left. exists prio. split; [reflexivity|exact Eph].
-      * intros H. left. apply H2. exact H.
+      * intros H. destruct (H1 H) as [H'|[H'|[H'|H']]];
+          [left; exact H'| |right; right; right; left; exact H'|right; right; right; right; exact H'].
+        subst i. right. right. left. exists prio. split; [reflexivity|exact Eph].
+      * intros H. destruct (H2 H) as [H'|H']; [left; exact H'|right; right; exact H'].
     + injection E as <-. cbn [s_plan]. rewrite Hp2o, Hp2w. split; intros H; left; exact H.
   - match type of E with (if ?X then _ else _) = _ => destruct X; [|discriminate] end.
     injection E as <-. cbn [s_plan]. split; intros H; left; exact H.
@@ -2596,10 +3237,11 @@ Proof.
     assert (Hcommon : forall p', p_oready p' = p_oready (s_plan s) ->
               p_want p' = upd (p_want (s_plan s)) d (Some WNothing) ->
               (p_oready p' i = true -> p_oready (s_plan s) i = true \/ (exists pr, EvPrune d = EvFinish i 0 pr) \/
-                 (exists pr, EvPrune d = EvStart i pr /\ phony g i = true) \/ p_want (s_plan s) i = Some WNothing) /\
-              (p_want p' i = Some WNothing -> p_want (s_plan s) i = Some WNothing \/ EvPrune d = EvPrune i)).
+                 (exists pr, EvPrune d = EvStart i pr /\ phony g i = true) \/ p_want (s_plan s) i = Some WNothing \/ Lorig i) /\
+              (p_want p' i = Some WNothing -> p_want (s_plan s) i = Some WNothing \/ EvPrune d = EvPrune i \/ LAn i)).
     { intros p' Ho Hw'. rewrite Ho, Hw'. split; [intros H; left; exact H|].
-      unfold upd. destruct (Nat.eqb_spec i d) as [->|Hne]; [intros _; right; reflexivity|intros H; left; exact H]. }
+      intros H. destruct (Nat.eq_dec i d) as [Heq|Hne]; [subst i; right; left; reflexivity|].
+      left. rewrite upd_other in H by exact Hne. exact H. }
     destruct (phony g d).
     + injection E as <-. unfold set_plan. cbn [s_plan]. apply Hcommon; reflexivity.
     + match type of E with (match ?X with _ => _ end) = _ => destruct X; try discriminate end.
@@ -2611,19 +3253,20 @@ Proof.
     unfold is_wanted in Hw. destruct (p_want (s_plan s) d) as [w|] eqn:Ew; [|discriminate].
     assert (Hwn : w <> WNothing) by (intros ->; discriminate).
     destruct (Nat.eqb_spec code 0) as [Hc|Hc].
-    + destruct (edge_finished (plan_fuel g) g cfg prio d true true (s_plan s)) as [p'| |] eqn:Eef; try discriminate.
+    + destruct (edge_finished (plan_fuel g) g cfg prio loads d true true (s_plan s)) as [p'| |] eqn:Eef; try discriminate.
       injection E as <-. cbn [s_plan].
-      pose proof (ef_top_evol _ _ _ true _ _ w Ew Hwn Eef) as Hev. cbn in Hev.
+      pose proof (ef_top_evol _ _ _ true _ _ w (pi_range _ _ _ _ _ (co_pinv s C)) Ew Hwn Eef) as Hev. cbn in Hev.
       destruct (Hevolf _ _ _ p' d Hev eq_refl eq_refl) as [H1 H2]. split.
-      * intros H. destruct (H1 H) as [H'|[->|H']]; [left; exact H'| |right; right; right; exact H'].
-        right. left. exists prio. rewrite Hc. reflexivity.
-      * intros H. left. apply H2. exact H.
-    + destruct (edge_finished (plan_fuel g) g cfg prio d false true (s_plan s)) as [p'| |] eqn:Eef; try discriminate.
+      * intros H. destruct (H1 H) as [H'|[H'|[H'|H']]];
+          [left; exact H'| |right; right; right; left; exact H'|right; right; right; right; exact H'].
+        subst i. right. left. exists prio. rewrite Hc. reflexivity.
+      * intros H. destruct (H2 H) as [H'|H']; [left; exact H'|right; right; exact H'].
+    + destruct (edge_finished (plan_fuel g) g cfg prio loads d false true (s_plan s)) as [p'| |] eqn:Eef; try discriminate.
       injection E as <-. cbn [s_plan].
-      pose proof (ef_top_evol _ _ _ false _ _ w Ew Hwn Eef) as Hev. cbn in Hev.
+      pose proof (ef_top_evol _ _ _ false _ _ w (pi_range _ _ _ _ _ (co_pinv s C)) Ew Hwn Eef) as Hev. cbn in Hev.
       destruct (Hevol p' Hev) as [H1 H2]. split.
-      * intros H. destruct (H1 H) as [H'|H']; [left; exact H'|right; right; right; exact H'].
-      * intros H. left. apply H2. exact H.
+      * intros H. destruct (H1 H) as [H'|[H'|H']]; [left; exact H'|right; right; right; left; exact H'|right; right; right; right; exact H'].
+      * intros H. destruct (H2 H) as [H'|H']; [left; exact H'|right; right; exact H'].
   - match type of E with (if ?X then _ else _) = _ => destruct X; [|discriminate] end.
     injection E as <-. cbn [s_plan]. split; intros H; left; exact H.
   - destruct (s_phase s).
@@ -2636,7 +3279,7 @@ Proof.
     + discriminate.
 Qed.
 
-Lemma exit_plan_same s c m s' : step g cfg s (EvExit c m) = Some s' -> s_plan s' = s_plan s.
+Lemma exit_plan_same s c m s' : step g cfg loads s (EvExit c m) = Some s' -> s_plan s' = s_plan s.
 Proof.
   unfold step. cbn [step_res]. destruct (s_phase s).
   - destruct (s_waiting s); [discriminate|].
@@ -2651,37 +3294,43 @@ Qed.
 Definition fin_ok (evs : list event) (i : nat) : Prop :=
   (exists pr, In (EvFinish i 0 pr) evs) \/ (exists pr, In (EvStart i pr) evs /\ phony g i = true).
 
-Lemma accepts_origin evs : forall s s' i, sinv s -> accepts g cfg s evs = Some s' ->
+Lemma accepts_origin evs : forall s s' i, sinv s -> accepts g cfg loads s evs = Some s' ->
   (p_oready (s_plan s') i = true ->
-     p_oready (s_plan s) i = true \/ fin_ok evs i \/ p_want (s_plan s) i = Some WNothing \/ In (EvPrune i) evs) /\
-  (p_want (s_plan s') i = Some WNothing -> p_want (s_plan s) i = Some WNothing \/ In (EvPrune i) evs).
+     p_oready (s_plan s) i = true \/ fin_ok evs i \/ p_want (s_plan s) i = Some WNothing \/
+     In (EvPrune i) evs \/ Lorig i) /\
+  (p_want (s_plan s') i = Some WNothing ->
+     p_want (s_plan s) i = Some WNothing \/ In (EvPrune i) evs \/ LAn i).
 Proof.
   induction evs as [|ev evs IH]; intros s s' i HI Ha; cbn [accepts] in Ha.
   - injection Ha as <-. split; intros H; left; exact H.
-  - destruct (step g cfg s ev) as [s1|] eqn:E; [|discriminate].
+  - destruct (step g cfg loads s ev) as [s1|] eqn:E; [|discriminate].
     destruct (IH s1 s' i (sinv_step s ev s1 HI E) Ha) as [IH1 IH2].
     assert (Hstep : (p_oready (s_plan s1) i = true ->
               p_oready (s_plan s) i = true \/ (exists pr, ev = EvFinish i 0 pr) \/
-              (exists pr, ev = EvStart i pr /\ phony g i = true) \/ p_want (s_plan s) i = Some WNothing) /\
-            (p_want (s_plan s1) i = Some WNothing -> p_want (s_plan s) i = Some WNothing \/ ev = EvPrune i)).
+              (exists pr, ev = EvStart i pr /\ phony g i = true) \/ p_want (s_plan s) i = Some WNothing \/ Lorig i) /\
+            (p_want (s_plan s1) i = Some WNothing -> p_want (s_plan s) i = Some WNothing \/ ev = EvPrune i \/ LAn i)).
     { destruct ev as [d prio| |d|d code prio| |code m];
         try (apply (step_origin s _ s1 i); [apply (core_of_step s _ s1 HI E); intros c m; discriminate|exact E]).
       rewrite (exit_plan_same s code m s1 E). split; intros H; left; exact H. }
     destruct Hstep as [S1 S2].
-    assert (Hn : p_want (s_plan s1) i = Some WNothing -> p_want (s_plan s) i = Some WNothing \/ In (EvPrune i) (ev :: evs)).
-    { intros H. destruct (S2 H) as [H'|H']; [left; exact H'|right; left; exact H']. }
+    assert (Hn : p_want (s_plan s1) i = Some WNothing ->
+                 p_want (s_plan s) i = Some WNothing \/ In (EvPrune i) (ev :: evs) \/ LAn i).
+    { intros H. destruct (S2 H) as [H'|[H'|H']]; [left; exact H'|right; left; left; exact H'|right; right; exact H']. }
     split.
-    + intros H. destruct (IH1 H) as [H1|[[[pr H1]|[pr [H1 H1']]]|[H1|H1]]].
-      * destruct (S1 H1) as [H2|[[pr H2]|[[pr [H2 H2']]|H2]]].
+    + intros H. destruct (IH1 H) as [H1|[[[pr H1]|[pr [H1 H1']]]|[H1|[H1|H1]]]].
+      * destruct (S1 H1) as [H2|[[pr H2]|[[pr [H2 H2']]|[H2|H2]]]].
         -- left. exact H2.
         -- right. left. left. exists pr. left. exact H2.
         -- right. left. right. exists pr. split; [left; exact H2|exact H2'].
         -- right. right. left. exact H2.
+        -- right. right. right. right. exact H2.
       * right. left. left. exists pr. right. exact H1.
       * right. left. right. exists pr. split; [right; exact H1|exact H1'].
-      * destruct (Hn H1) as [H2|H2]; [right; right; left; exact H2|right; right; right; exact H2].
+      * destruct (Hn H1) as [H2|[H2|H2]];
+          [right; right; left; exact H2|right; right; right; left; exact H2|right; right; right; right; right; exact H2].
+      * right. right. right. left. right. exact H1.
       * right. right. right. right. exact H1.
-    + intros H. destruct (IH2 H) as [H1|H1]; [apply Hn; exact H1|right; right; exact H1].
+    + intros H. destruct (IH2 H) as [H1|[H1|H1]]; [apply Hn; exact H1|right; left; right; exact H1|right; right; exact H1].
 Qed.
 
 Lemma sched_init_origin : forall l p,
@@ -2717,21 +3366,125 @@ Qed.
 
 (* every edge whose outputs are ready was ready at scan time, or finished successfully earlier in the
    trace (a command, or a phony edge "started" = finished at once), or was not wanted (kWantNothing
-   from the scan, or pruned by restat) and was checked off once its own inputs were ready *)
-Theorem oready_origin prio sn evs s i : wf_snap sn -> run g cfg prio sn evs = Some s ->
+   from the scan, or pruned by restat) and was checked off once its own inputs were ready, or -- after a
+   dyndep load -- the re-scan found it up to date / put it into want_ as not wanted ([Lorig]) *)
+Theorem oready_origin prio sn evs s i : wf_snap sn -> run g cfg loads prio sn evs = Some s ->
   p_oready (s_plan s) i = true ->
-  sn_oready sn i = true \/ fin_ok evs i \/ sn_want sn i = Some WNothing \/ In (EvPrune i) evs.
+  sn_oready sn i = true \/ fin_ok evs i \/ sn_want sn i = Some WNothing \/ In (EvPrune i) evs \/ Lorig i.
 Proof.
   intros Hws Hr Ho. unfold run in Hr.
   destruct (accepts_origin evs _ s i (sinv_init prio sn Hws) Hr) as [H1 _].
   destruct (init_origin prio sn) as [I1 I2].
-  destruct (H1 Ho) as [H|[H|[H|H]]].
+  destruct (H1 Ho) as [H|[H|[H|[H|H]]]].
   - left. rewrite I1 in H. exact H.
   - right. left. exact H.
   - right. right. left. apply I2. exact H.
-  - right. right. right. exact H.
+  - right. right. right. left. exact H.
+  - right. right. right. right. exact H.
 Qed.
 
+
+(* ------------------------------------------------------------------ the invariant, spelled out *)
+Definition plan_inv (s : state) : Prop :=
+  let p := s_plan s in
+  let sch := p_ready p ++ p_delayed p ++ s_running s ++ s_failed s in
+  (* ready_, the pools' delayed_ sets, the running commands and the failed commands are disjoint *)
+  NoDup sch /\
+  (* exactly their members are kWantToFinish ... *)
+  (forall e, In e sch <-> p_want p e = Some WToFinish) /\
+  (* ... and all their inputs (as known now: manifest, deps, loaded dyndep files) are ready *)
+  (forall e, In e sch -> all_inputs_ready g p e = true) /\
+  (* an edge that is wanted-to-start or in want_ only for its dependents still waits for an input *)
+  (forall e, p_want p e = Some WToStart \/ p_want p e = Some WNothing -> all_inputs_ready g p e = false) /\
+  (* outputs_ready edges have left want_, and their inputs are ready *)
+  (forall e, p_oready p e = true -> p_want p e = None /\ all_inputs_ready g p e = true) /\
+  (* want_ is closed under not-yet-ready producers *)
+  (forall e i, p_want p e <> None -> In i (ins_at g p e) -> p_oready p i = false -> p_want p i <> None) /\
+  (* the counters are cardinalities; command_edges_ also counts the commands already done *)
+  p_wanted p = count_if (is_wanted (p_want p)) (all_edges g) /\
+  p_commands p + length (s_failed s) =
+    count_if (fun e => is_wanted (p_want p) e && negb (phony g e)) (all_edges g) + s_finished s /\
+  (* pools: current_use counts the queued and the running edges, never exceeds the depth, and an edge
+     is only delayed while the pool is full *)
+  (forall q, 0 < depth g q ->
+     p_use p q = cnt g q (p_ready p) + cnt g q (s_running s) /\ p_use p q <= depth g q /\
+     (delayed_of g q (p_delayed p) <> [] -> p_use p q = depth g q)) /\
+  (forall e, In e (p_delayed p) -> 0 < depth g (pool g e)) /\
+  (* the loop's locals *)
+  s_pending s = length (s_running s) /\
+  p_tokens p = (match c_jobserver cfg with None => 0 | Some _ => length (s_running s) end) /\
+  (forall e, In e (s_running s ++ s_failed s) -> phony g e = false) /\
+  s_fa s <= c_k cfg /\ (s_fa s = c_k cfg -> s_failed s = []) /\
+  (s_failed s = [] <-> s_exit s = 0).
+
+Theorem plan_inv_reachable s : reachable s -> s_phase s = PhBuild -> plan_inv s.
+Proof.
+  intros Hr Hph. destruct (reachable_sinv s Hr) as [HC _]. specialize (HC Hph).
+  destruct HC as [C1 C2 C3 C4 C5 C6 C7 C8 C9 C10 C11 C12 C13 C14].
+  pose proof C1 as [I1 I2 I3 I4 I5 I6 I7 I8 I9 I10 I11 I12 I13 I14 I15 I16].
+  unfold plan_inv. unfold sched in *.
+  split; [exact I1|]. split; [intros e; split; [apply I16|apply I3]|].
+  split; [intros e He; apply (proj2 (I2 e He))|].
+  split.
+  { intros e [He|He]; destruct (all_inputs_ready g (s_plan s) e) eqn:Ea; try reflexivity; exfalso.
+    - apply (pinv_top_tostart _ _ _ C1 e He Ea).
+    - apply (pinv_top_nothing _ _ _ C1 e He Ea). }
+  split; [intros e He; split; [apply (pinv_top_oready _ _ _ C1 e He)|apply I8; exact He]|].
+  split; [exact I9|]. split; [exact I14|]. split; [exact C4|].
+  split.
+  { intros q Hq. destruct (I11 q Hq) as [H1 H2]. split; [exact H1|]. split; [exact H2|]. apply I12; [exact I|exact Hq]. }
+  split; [exact I13|]. split; [exact C2|]. split; [exact I15|]. split; [exact C3|].
+  split; [exact C8|]. split; [exact C9|].
+  split; [exact C10|]. intros H. destruct (s_failed s) eqn:E; [reflexivity|]. exfalso. apply C11; [discriminate|exact H].
+Qed.
+
+(* ------------------------------------------------------------------ corollaries used by the property files *)
+Lemma run_reachable prio sn evs s : wf_snap sn -> run g cfg loads prio sn evs = Some s -> reachable s.
+Proof. intros H1 H2. exists prio, sn, evs. split; assumption. Qed.
+
+Theorem start_after_producers prio sn evs s e pr s' : wf_snap sn -> run g cfg loads prio sn evs = Some s ->
+  step g cfg loads s (EvStart e pr) = Some s' ->
+  forall i, In i (ins_at g (s_plan s) e) ->
+    sn_oready sn i = true \/ fin_ok evs i \/ sn_want sn i = Some WNothing \/ In (EvPrune i) evs \/ Lorig i.
+Proof.
+  intros Hws Hr Hst i Hi.
+  apply (oready_origin prio sn evs s i Hws Hr).
+  apply (start_inputs_ready s e pr s' (run_reachable prio sn evs s Hws Hr) Hst i Hi).
+Qed.
+
+Theorem tokens_at_exit s code m s' : reachable s -> step g cfg loads s (EvExit code m) = Some s' ->
+  m <> MInterrupted -> p_tokens (s_plan s') = 0.
+Proof.
+  intros Hr Hst Hm.
+  destruct (exit_reaped s code m s' Hr Hst Hm) as [Hrun _].
+  rewrite (exit_plan_same s code m s' Hst).
+  destruct (s_phase s) eqn:Eph.
+  - rewrite (tokens_held s Hr Eph), Hrun. destruct (c_jobserver cfg); reflexivity.
+  - destruct (exit_interrupted_phase s code m s' Eph Hst) as [_ ->]. congruence.
+  - unfold step in Hst. cbn [step_res] in Hst. rewrite Eph in Hst. discriminate.
+Qed.
+
+Theorem tokens_after_interrupt s s' : reachable s -> step g cfg loads s EvInterrupt = Some s' ->
+  p_tokens (s_plan s') = 0 /\ s_running s' = [].
+Proof.
+  intros Hr Hst.
+  assert (Hph : s_phase s = PhBuild) by (apply (step_in_build s _ s' Hst); intros c m; discriminate).
+  pose proof (tokens_held s Hr Hph) as Ht.
+  unfold step in Hst. cbn [step_res] in Hst. destruct (in_build s && s_waiting s); [|discriminate].
+  injection Hst as <-. cbn [s_plan s_running p_tokens set_tokens]. split; [|reflexivity].
+  rewrite Ht. destruct (c_jobserver cfg); lia.
+Qed.
+
+Theorem counters_at_exit s code m s' : reachable s -> step g cfg loads s (EvExit code m) = Some s' ->
+  m <> MInterrupted -> s_started s = s_finished s /\ s_finished s <= s_total s.
+Proof.
+  intros Hr Hst Hm.
+  destruct (exit_reaped s code m s' Hr Hst Hm) as [Hrun _].
+  destruct (s_phase s) eqn:Eph.
+  - destruct (counters s Hr Eph) as [H1 [H2 [H3 _]]]. rewrite Hrun in H3. cbn [length] in H3. lia.
+  - destruct (exit_interrupted_phase s code m s' Eph Hst) as [_ ->]. congruence.
+  - unfold step in Hst. cbn [step_res] in Hst. rewrite Eph in Hst. discriminate.
+Qed.
 
 End Inv.
 
@@ -2775,17 +3528,17 @@ Proof.
 Qed.
 
 (* the completion helper only produces accepted starts of phony edges *)
-Lemma auto_phony_accepts g cfg prio allowed : forall fuel s evs s',
-  auto_phony fuel g cfg prio allowed s = (evs, s') ->
-  accepts g cfg s evs = Some s' /\
+Lemma auto_phony_accepts g cfg loads prio allowed : forall fuel s evs s',
+  auto_phony fuel g cfg loads prio allowed s = (evs, s') ->
+  accepts g cfg loads s evs = Some s' /\
   Forall (fun ev => exists e, ev = EvStart e prio /\ phony g e = true /\ In e allowed) evs.
 Proof.
   induction fuel as [|fuel IH]; intros s evs s' H; cbn [auto_phony] in H.
   - injection H as <- <-. split; [reflexivity|constructor].
   - destruct (filter (fun e => phony g e && memb e (p_ready (s_plan s))) allowed) as [|e l] eqn:Ef.
     + injection H as <- <-. split; [reflexivity|constructor].
-    + destruct (step g cfg s (EvStart e prio)) as [s1|] eqn:Es.
-      * destruct (auto_phony fuel g cfg prio allowed s1) as [evs1 s2] eqn:Ea. injection H as <- <-.
+    + destruct (step g cfg loads s (EvStart e prio)) as [s1|] eqn:Es.
+      * destruct (auto_phony fuel g cfg loads prio allowed s1) as [evs1 s2] eqn:Ea. injection H as <- <-.
         destruct (IH s1 evs1 s2 Ea) as [H1 H2]. split.
         -- cbn [accepts]. rewrite Es. exact H1.
         -- constructor; [|exact H2]. exists e. split; [reflexivity|].
@@ -2795,122 +3548,16 @@ Proof.
 Qed.
 
 
-(* ------------------------------------------------------------------ the invariant, spelled out *)
-Definition plan_inv (g : graph) (cfg : config) (s : state) : Prop :=
-  let p := s_plan s in
-  let sch := p_ready p ++ p_delayed p ++ s_running s ++ s_failed s in
-  (* ready_, the pools' delayed_ sets, the running commands and the failed commands are disjoint *)
-  NoDup sch /\
-  (* exactly their members are kWantToFinish ... *)
-  (forall e, In e sch <-> p_want p e = Some WToFinish) /\
-  (* ... and all their inputs are ready *)
-  (forall e, In e sch -> all_inputs_ready g p e = true) /\
-  (* an edge that is wanted-to-start or in want_ only for its dependents still waits for an input *)
-  (forall e, p_want p e = Some WToStart \/ p_want p e = Some WNothing -> all_inputs_ready g p e = false) /\
-  (* outputs_ready edges have left want_, and their inputs are ready *)
-  (forall e, p_oready p e = true -> p_want p e = None /\ all_inputs_ready g p e = true) /\
-  (* want_ is closed under not-yet-ready producers *)
-  (forall e i, p_want p e <> None -> In i (ins g e) -> p_oready p i = false -> p_want p i <> None) /\
-  (* the counters are cardinalities; command_edges_ also counts the commands already done *)
-  p_wanted p = count_if (is_wanted (p_want p)) (all_edges g) /\
-  p_commands p + length (s_failed s) =
-    count_if (fun e => is_wanted (p_want p) e && negb (phony g e)) (all_edges g) + s_finished s /\
-  (* pools: current_use counts the queued and the running edges, never exceeds the depth, and an edge
-     is only delayed while the pool is full *)
-  (forall q, 0 < depth g q ->
-     p_use p q = cnt g q (p_ready p) + cnt g q (s_running s) /\ p_use p q <= depth g q /\
-     (delayed_of g q (p_delayed p) <> [] -> p_use p q = depth g q)) /\
-  (forall e, In e (p_delayed p) -> 0 < depth g (pool g e)) /\
-  (* the loop's locals *)
-  s_pending s = length (s_running s) /\
-  p_tokens p = (match c_jobserver cfg with None => 0 | Some _ => length (s_running s) end) /\
-  (forall e, In e (s_running s ++ s_failed s) -> phony g e = false) /\
-  s_fa s <= c_k cfg /\ (s_fa s = c_k cfg -> s_failed s = []) /\
-  (s_failed s = [] <-> s_exit s = 0).
-
-Theorem plan_inv_reachable g cfg rank : wf_graph g rank -> 0 < c_k cfg -> 0 < c_j cfg ->
-  forall s, reachable g cfg s -> s_phase s = PhBuild -> plan_inv g cfg s.
+Lemma run_snoc_split g cfg loads prio sn evs ev : is_some (run g cfg loads prio sn (evs ++ [ev])) = true ->
+  exists s s', run g cfg loads prio sn evs = Some s /\ step g cfg loads s ev = Some s'.
 Proof.
-  intros Hwf Hk Hj s Hr Hph. destruct (reachable_sinv g cfg rank Hwf Hk Hj s Hr) as [HC _]. specialize (HC Hph).
-  destruct HC as [C1 C2 C3 C4 C5 C6 C7 C8 C9 C10 C11 C12 C13 C14].
-  pose proof C1 as [I1 I2 I3 I4 I5 I6 I7 I8 I9 I10 I11 I12 I13 I14 I15 I16].
-  unfold plan_inv. unfold sched in *.
-  split; [exact I1|]. split; [intros e; split; [apply I16|apply I3]|].
-  split; [intros e He; apply (proj2 (I2 e He))|].
-  split.
-  { intros e [He|He]; destruct (all_inputs_ready g (s_plan s) e) eqn:Ea; try reflexivity; exfalso.
-    - destruct (I4 e He Ea) as [H|[]]. rewrite (I16 e H) in He. discriminate.
-    - destruct (I5 e He Ea). }
-  split; [intros e He; split; [apply I7; exact He|apply I8; exact He]|].
-  split; [exact I9|]. split; [exact I14|]. split; [exact C4|].
-  split.
-  { intros q Hq. destruct (I11 q Hq) as [H1 H2]. split; [exact H1|]. split; [exact H2|]. apply I12; [exact I|exact Hq]. }
-  split; [exact I13|]. split; [exact C2|]. split; [exact I15|]. split; [exact C3|].
-  split; [exact C8|]. split; [exact C9|].
-  split; [exact C10|]. intros H. destruct (s_failed s) eqn:E; [reflexivity|]. exfalso. apply C11; [discriminate|exact H].
+  unfold run. rewrite accepts_app. destruct (accepts g cfg loads (init_state g cfg prio sn) evs) as [s|] eqn:E1; [|discriminate].
+  cbn [accepts]. destruct (step g cfg loads s ev) as [s'|] eqn:E2; [|discriminate]. intros _. exists s, s'. split; [reflexivity|exact E2].
 Qed.
 
-(* ------------------------------------------------------------------ corollaries used by the property files *)
-Lemma run_reachable g cfg prio sn evs s : wf_snap g sn -> run g cfg prio sn evs = Some s -> reachable g cfg s.
-Proof. intros H1 H2. exists prio, sn, evs. split; assumption. Qed.
-
-Theorem start_after_producers g cfg rank : wf_graph g rank -> 0 < c_k cfg -> 0 < c_j cfg ->
-  forall prio sn evs s e pr s', wf_snap g sn -> run g cfg prio sn evs = Some s ->
-  step g cfg s (EvStart e pr) = Some s' ->
-  forall i, In i (ins g e) ->
-    sn_oready sn i = true \/ fin_ok g evs i \/ sn_want sn i = Some WNothing \/ In (EvPrune i) evs.
-Proof.
-  intros Hwf Hk Hj prio sn evs s e pr s' Hws Hr Hst i Hi.
-  apply (oready_origin g cfg rank Hwf Hk Hj prio sn evs s i Hws Hr).
-  apply (start_inputs_ready g cfg rank Hwf Hk Hj s e pr s' (run_reachable g cfg prio sn evs s Hws Hr) Hst i Hi).
-Qed.
-
-Theorem tokens_at_exit g cfg rank : wf_graph g rank -> 0 < c_k cfg -> 0 < c_j cfg ->
-  forall s code m s', reachable g cfg s -> step g cfg s (EvExit code m) = Some s' ->
-  m <> MInterrupted -> p_tokens (s_plan s') = 0.
-Proof.
-  intros Hwf Hk Hj s code m s' Hr Hst Hm.
-  destruct (exit_reaped g cfg rank Hwf Hk Hj s code m s' Hr Hst Hm) as [Hrun _].
-  rewrite (exit_plan_same g cfg s code m s' Hst).
-  destruct (s_phase s) eqn:Eph.
-  - rewrite (tokens_held g cfg rank Hwf Hk Hj s Hr Eph), Hrun. destruct (c_jobserver cfg); reflexivity.
-  - destruct (exit_interrupted_phase g cfg s code m s' Eph Hst) as [_ ->]. congruence.
-  - unfold step in Hst. cbn [step_res] in Hst. rewrite Eph in Hst. discriminate.
-Qed.
-
-Theorem tokens_after_interrupt g cfg rank : wf_graph g rank -> 0 < c_k cfg -> 0 < c_j cfg ->
-  forall s s', reachable g cfg s -> step g cfg s EvInterrupt = Some s' ->
-  p_tokens (s_plan s') = 0 /\ s_running s' = [].
-Proof.
-  intros Hwf Hk Hj s s' Hr Hst.
-  assert (Hph : s_phase s = PhBuild) by (apply (step_in_build g cfg s _ s' Hst); intros c m; discriminate).
-  pose proof (tokens_held g cfg rank Hwf Hk Hj s Hr Hph) as Ht.
-  unfold step in Hst. cbn [step_res] in Hst. destruct (in_build s && s_waiting s); [|discriminate].
-  injection Hst as <-. cbn [s_plan s_running p_tokens set_tokens]. split; [|reflexivity].
-  rewrite Ht. destruct (c_jobserver cfg); lia.
-Qed.
-
-Theorem counters_at_exit g cfg rank : wf_graph g rank -> 0 < c_k cfg -> 0 < c_j cfg ->
-  forall s code m s', reachable g cfg s -> step g cfg s (EvExit code m) = Some s' ->
-  m <> MInterrupted -> s_started s = s_finished s /\ s_finished s <= s_total s.
-Proof.
-  intros Hwf Hk Hj s code m s' Hr Hst Hm.
-  destruct (exit_reaped g cfg rank Hwf Hk Hj s code m s' Hr Hst Hm) as [Hrun _].
-  destruct (s_phase s) eqn:Eph.
-  - destruct (counters g cfg rank Hwf Hk Hj s Hr Eph) as [H1 [H2 [H3 _]]]. rewrite Hrun in H3. cbn [length] in H3. lia.
-  - destruct (exit_interrupted_phase g cfg s code m s' Eph Hst) as [_ ->]. congruence.
-  - unfold step in Hst. cbn [step_res] in Hst. rewrite Eph in Hst. discriminate.
-Qed.
-
-Lemma run_snoc_split g cfg prio sn evs ev : is_some (run g cfg prio sn (evs ++ [ev])) = true ->
-  exists s s', run g cfg prio sn evs = Some s /\ step g cfg s ev = Some s'.
-Proof.
-  unfold run. rewrite accepts_app. destruct (accepts g cfg (init_state g cfg prio sn) evs) as [s|] eqn:E1; [|discriminate].
-  cbn [accepts]. destruct (step g cfg s ev) as [s'|] eqn:E2; [|discriminate]. intros _. exists s, s'. split; [reflexivity|exact E2].
-Qed.
-
-Lemma is_some_run g cfg prio sn evs : is_some (run g cfg prio sn evs) = true -> exists s, run g cfg prio sn evs = Some s.
-Proof. destruct (run g cfg prio sn evs) as [s|]; [intros _; exists s; reflexivity|discriminate]. Qed.
+Lemma is_some_run g cfg loads prio sn evs : is_some (run g cfg loads prio sn evs) = true ->
+  exists s, run g cfg loads prio sn evs = Some s.
+Proof. destruct (run g cfg loads prio sn evs) as [s|]; [intros _; exists s; reflexivity|discriminate]. Qed.
 
 (* the example of PlanDefs.v satisfies the premises of the theorems *)
 Lemma ex_wf_graph : wf_graph ex_graph ex_rank.
